@@ -117,6 +117,41 @@ Proof.
     rewrite (wrap_vint_conv w (sg, w)) by (cbn [snd]; auto; lia). reflexivity.
 Qed.
 
+(* x &= e;  x |= e;  x ^= e : the bitwise operators commute with truncation, so computing at the type of x with e first
+   converted to the type of x (what the compiler emits) agrees with C's computation in the common type *)
+Definition bit_fun3 (f : Z -> Z -> Z) : Prop := f = Z.land \/ f = Z.lor \/ f = Z.lxor.
+
+Lemma wrap_bit f w a b : bit_fun3 f -> wrap w (f a b) = f (wrap w a) (wrap w b).
+Proof.
+  intros Hf. unfold wrap, pow2. apply Z.bits_inj'. intros n Hn.
+  assert (H0 : 0 <= Z.of_N w) by lia.
+  destruct (Z.ltb_spec n (Z.of_N w)) as [Hlt | Hge].
+  - rewrite Z.mod_pow2_bits_low by lia.
+    destruct Hf as [-> | [-> | ->]]; rewrite ?Z.land_spec, ?Z.lor_spec, ?Z.lxor_spec, !Z.mod_pow2_bits_low by lia; reflexivity.
+  - rewrite Z.mod_pow2_bits_high by lia.
+    destruct Hf as [-> | [-> | ->]]; rewrite ?Z.land_spec, ?Z.lor_spec, ?Z.lxor_spec, !Z.mod_pow2_bits_high by lia; reflexivity.
+Qed.
+
+Lemma bit_compound_value sg w v0 vr f : okw w -> wfc vr -> bit_fun3 f -> 0 <= v0 < pow2 w ->
+  conv (sg, w) (c_bitop f ((sg, w), v0) vr) = ((sg, w), f v0 (snd (conv (sg, w) vr))).
+Proof.
+  intros Hw [Hwr _] Hf Hv0. destruct vr as [[sr wr] zr]. cbn [fst snd] in Hwr.
+  pose proof (promote_okw sg w Hw) as Hpw. pose proof (promote_ge sg w Hw) as Hpg.
+  pose proof (promote_okw sr wr Hwr) as Hprw.
+  unfold c_bitop. cbn [fst]. unfold arith_ty.
+  destruct (promote (sg, w)) as [sp wp] eqn:Ep. destruct (promote (sr, wr)) as [spr wpr] eqn:Epr. cbn [fst snd] in *.
+  pose proof (uac_okw sp wp spr wpr Hpw Hprw) as Htw. pose proof (uac_ge sp wp spr wpr Hpw Hprw) as [Htg _].
+  destruct (uac (sp, wp) (spr, wpr)) as [st wt] eqn:Et. cbn [fst snd] in *.
+  assert (Hwt : (w <= wt)%N) by lia.
+  unfold mkval. cbn [snd]. rewrite conv_trunc by assumption. f_equal.
+  rewrite (wrap_bit f w _ _ Hf). f_equal.
+  - unfold conv, mkval, vint. cbn [fst snd]. rewrite wrap_wrap_le by assumption. rewrite wrap_interp. apply wrap_small. exact Hv0.
+  - unfold conv, mkval. cbn [fst snd]. rewrite wrap_wrap_le by assumption. reflexivity.
+Qed.
+
+Lemma bit_fun3_range f w x y : bit_fun3 f -> okw w -> 0 <= x < pow2 w -> 0 <= y < pow2 w -> 0 <= f x y < pow2 w.
+Proof. intros [-> | [-> | ->]]; auto using land_range, lor_range, lxor_range. Qed.
+
 (* ================================================================== Layer 1: finalisation (Lower.fin_eff) and evaluation *)
 Section Fin.
   Variable rw : regwidth.
@@ -168,30 +203,35 @@ Proof. intros H. apply H. Qed.
 Lemma lst_ok_regs_ok IM V st : lst_ok IM V st -> regs_ok (st_regs st).
 Proof. intros H. apply H. Qed.
 
-Lemma add_write_property_ok name st : regs_ok (st_regs st) ->
+Lemma add_write_property_ok name st : regs_ok (st_regs st) -> name <> "pc" ->
   exists st', add_write_property name st = OK (tt, st') /\
     st_vars st' = st_vars st /\ st_imms st' = st_imms st /\ st_ext st st' /\ regs_ok (st_regs st').
 Proof.
-  intros Hr. unfold add_write_property, bind, get.
+  intros Hr Hnpc. unfold add_write_property, bind, get.
   destruct (lookup_reg_info name (st_regs st)) as [ri|] eqn:El.
-  - destruct (Hr _ _ El) as [c [l [a [nw [H1 [H2 [H3 [H4 [H5 [H6 [H7 [H8 H9]]]]]]]]]]]].
-    set (acc' := match r_acc ri with
+  - set (acc' := match r_acc ri with
                  | AR => ARW | APR => APRW
                  | AUnknown => if String.eqb (first_char name) "P" then APW else AW
                  | a => a end).
-    assert (Hw : write_only acc' = write_only (r_acc ri) /\ acc' <> AUnknown).
-    { unfold acc'. destruct (r_acc ri); try (split; [reflexivity | discriminate]). exfalso; apply H9; reflexivity. }
+    assert (Hpc : r_pc ri = false).
+    { destruct (Hr _ _ El) as [[c [l [a [nw [_ [_ [_ [_ [_ [H6 _]]]]]]]]]] | [[nm [nw [_ [_ [_ [_ [H5 _]]]]]]] | [Hn _]]]; [exact H6 | exact H5 | contradiction]. }
+    assert (Hle : acc_le (r_pc ri) (r_acc ri) acc').
+    { unfold acc_le, acc'. rewrite Hpc. destruct (r_acc ri); try (right; split; [reflexivity | intros _; discriminate]). left. auto. }
     eexists. split; [reflexivity|]. cbn [st_vars st_regs st_imms].
     split; [reflexivity|]. split; [reflexivity|].
     split.
     + unfold st_ext; cbn [st_pending st_hcount st_imms st_removed st_nonempty st_regs]. repeat split; auto using incl_refl.
       intros n r H. rewrite lookup_reg_info_update, H.
-      destruct (String.eqb_spec name n) as [<-|_]; [|eauto 10].
-      rewrite El in H. injection H as <-. eexists. split; [reflexivity|]. cbn [r_op r_pc r_new r_acc]. fold acc'. tauto.
+      destruct (String.eqb_spec name n) as [<-|_]; [|exists r; auto using acc_le_refl].
+      rewrite El in H. injection H as <-. eexists. split; [reflexivity|]. cbn [r_op r_pc r_new r_acc]. fold acc'. auto.
     + intros n r. rewrite lookup_reg_info_update. destruct (lookup_reg_info n (st_regs st)) as [r0|] eqn:Eln; [|discriminate].
       destruct (String.eqb_spec name n) as [<-|_].
       * intros H; injection H as <-. rewrite El in Eln. injection Eln as <-.
-        exists c, l, a, nw. cbn [r_op r_ty r_pc r_new r_acc]. fold acc'. destruct Hw as [Hw1 Hw2]. rewrite Hw1. auto 12.
+        destruct (Hr _ _ El) as [[c [l [a [nw [H1 [H2 [H3 [H4 [H5 [H6 [H7 [H8 H9]]]]]]]]]]]] | [[nm [nw [H1 [H2 [H3 [H4 [H5 H6]]]]]]] | [Hn _]]].
+        -- left. exists c, l, a, nw. cbn [r_op r_ty r_pc r_new r_acc]. fold acc'.
+           destruct Hle as [[_ Hu] | [Hw Hn]]; [contradiction|]. rewrite Hw. auto 12.
+        -- right. left. exists nm, nw. cbn [r_op r_ty r_pc r_new r_acc]. auto 10.
+        -- contradiction.
       * intros H; injection H as <-. exact (Hr _ _ Eln).
   - exists st. split; [reflexivity|]. split; [reflexivity|]. split; [reflexivity|]. split; [apply st_ext_refl | exact Hr].
 Qed.
@@ -203,10 +243,26 @@ Lemma fin_op_dest R rem regs cls letters acc ri : dest_cls cls -> access_of_lett
 Proof.
   intros Hc Ha Hr Hl Hle Hrem. unfold fin_op. rewrite reg_name_of_reg. unfold reg_handle.
   destruct (Hle _ _ Hl) as [ri' [L' [O' [P' _]]]]. rewrite L', Hrem.
-  destruct (Hr _ _ Hl) as [cls' [l' [acc' [new' [Hc' [Ha' [Hn [Ho [_ [Hp _]]]]]]]]]].
+  destruct (entry_isa _ _ cls letters false (Hr _ _ Hl) (reg_cls_any false _ (or_introl Hc)) (access_in_table _ _ Ha) eq_refl)
+    as [cls' [l' [acc' [new' [Hc' [Ha' [Hn [Ho [_ [Hp _]]]]]]]]]].
   destruct (rname_inj _ _ _ _ _ _ (reg_cls_any false _ (or_introl Hc)) (reg_cls_any _ _ Hc') (access_in_table _ _ Ha) (access_in_table _ _ Ha') Hn)
     as [<- [<- <-]].
   rewrite P', Hp, O', Ho. apply rop_dest. exact Hc.
+Qed.
+Lemma alias_op_not_pc name new : In name alias_names -> regop_eqb pc_op (alias_op name new) = false.
+Proof.
+  intros H. cbn [alias_names In] in H. repeat (destruct H as [<- | H]; [destruct new; reflexivity|]). contradiction.
+Qed.
+(* ... of an assignment to an alias *)
+Lemma fin_op_alias R rem regs name new ri : In name alias_names -> regs_ok regs ->
+  lookup_reg_info (alias_tname name new) regs = Some ri -> regs_le regs R -> norem rem ->
+  fin_op R rem (RParam ("$reg:" +++ alias_tname name new)) = alias_op name new.
+Proof.
+  intros Hin Hr Hl Hle Hrem. unfold fin_op. rewrite reg_name_of_reg. unfold reg_handle.
+  destruct (Hle _ _ Hl) as [ri' [L' [O' [P' _]]]]. rewrite L', Hrem.
+  destruct (entry_alias _ _ name new (Hr _ _ Hl) Hin eq_refl) as [nm [nw [Hin' [Hn [Ho [_ [Hp _]]]]]]].
+  destruct (alias_tname_inj _ _ _ _ Hin Hin' Hn) as [<- <-].
+  rewrite P', Hp, O', Ho. reflexivity.
 Qed.
 
 (* ================================================================== Layer 3: the state relation for statements *)
@@ -228,15 +284,33 @@ Definition jrel (cs : cstate) (ms : mstate) : Prop :=
   | Some t => lookup "jump_flag" (locals ms) = Some (VB true) /\ lookup "jump_target" (locals ms) = Some (VBv 32 t) /\
               0 <= t < pow2 32
   end.
-Definition srel (IM : string -> bool) (E : cenv) (V : list (string * option vtype)) (cs : cstate) (ms : mstate) : Prop :=
+(* D = the DECLARED locals (the model's variable table), V = those of them that have been given a value
+   (ExprCorrect.vext V D): `T x;` declares without initialising, the first assignment initialises.
+   [drel]: C knows a declared local without value with its declared type and no value; every other name that is not
+   reserved is unknown to C (the implicitly declared EA, i, j, k get their documented type when they are first assigned) *)
+Definition drel (IM : string -> bool) (D V : list (string * option vtype)) (cs : cstate) : Prop :=
+  forall x, lookup x V = None -> ~ reserved IM x ->
+    match lookup x D with
+    | Some (Some t) => lookup x (cs_vars cs) = Some ((vt_sg t, vt_w t), None)
+    | _ => lookup x (cs_vars cs) = None
+    end.
+Definition srel (IM : string -> bool) (E : cenv) (D V : list (string * option vtype)) (cs : cstate) (ms : mstate) : Prop :=
   rel IM E V cs ms /\ (forall x, lookup x V = None -> ~ reserved IM x -> lookup x (locals ms) = None) /\
   cs_mem cs = mem ms /\ cs_ret cs = None /\
-  (forall x, reserved IM x -> lookup x V = None) /\ jrel cs ms /\
+  (forall x, reserved IM x -> lookup x D = None) /\ jrel cs ms /\
   (forall l, IM l = true ->
-     lookup l (locals ms) = None \/ lookup l (locals ms) = Some (VBv 32 (wrap 32 (imms ms l)))).
+     lookup l (locals ms) = None \/ lookup l (locals ms) = Some (VBv 32 (cimm E cs l))) /\
+  drel IM D V cs /\ vext V D.
 
-Lemma srel_ret IM E V cs ms : srel IM E V cs ms -> cs_ret cs = None.
+Lemma srel_ret IM E D V cs ms : srel IM E D V cs ms -> cs_ret cs = None.
 Proof. intros H. apply H. Qed.
+Lemma srel_vext IM E D V cs ms : srel IM E D V cs ms -> vext V D.
+Proof. intros H. apply H. Qed.
+
+Lemma srel_nr IM E D V cs ms x t : srel IM E D V cs ms -> lookup x V = Some t -> ~ reserved IM x.
+Proof.
+  intros [_ [_ [_ [_ [H5 [_ [_ [_ H9]]]]]]]] Hx Hr. pose proof (H5 x Hr) as Q. rewrite (H9 _ _ Hx) in Q. discriminate Q.
+Qed.
 
 Lemma not_reserved_imm IM x : ~ reserved IM x -> IM x = false /\ imm_cname x = false.
 Proof.
@@ -245,10 +319,12 @@ Proof.
   - destruct (imm_cname x) eqn:Ei; [|reflexivity]. exfalso. apply H. right. right. right. exact Ei.
 Qed.
 
-Lemma srel_set_reg IM E V cs ms r z : srel IM E V cs ms -> srel IM E V (set_regw cs r z) (set_reg ms r z).
+Lemma srel_set_reg IM E D V cs ms r z : srel IM E D V cs ms -> regop_eqb pc_op r = false ->
+  srel IM E D V (set_regw cs r z) (set_reg ms r z).
 Proof.
-  intros [[R1 [R2 [R3 [R4 [R5 R6]]]]] [H2 [H3 [H4 [H5 [H6 H7]]]]]]. split; [|split; [exact H2|]].
-  - unfold rel. cbn [cs_vars cs_regw set_regw locals rnew rold rnew0 imms set_reg]. rewrite R2. auto 10.
+  intros [[R1 [R2 [R3 [R4 [R5 [R6 [R7 [R8 [R9 R10]]]]]]]]] [H2 [H3 [H4 [H5 [H6 [H7 [H8 H9]]]]]]]] Hpc. split; [|split; [exact H2|]].
+  - unfold rel. cbn [cs_vars cs_regw cs_mem set_regw locals rnew rold rnew0 imms mem mem0 pktaddr set_reg lookup_reg]. rewrite R2, Hpc, <- R2.
+    auto 12.
   - cbn [cs_mem set_regw mem set_reg cs_ret]. auto 10.
 Qed.
 
@@ -269,42 +345,88 @@ Proof. intros H. destruct (String.eqb_spec ("imm:" +++ l) x) as [<-|_]; [|reflex
 Lemma imm_letter_neq (IM : string -> bool) x l : IM x = false -> IM l = true -> String.eqb l x = false.
 Proof. intros Hx Hl. destruct (String.eqb_spec l x) as [->|_]; [congruence | reflexivity]. Qed.
 
-(* the parts of [rel] and [srel] about immediates and the operand environment, when a non-reserved local is set *)
-Lemma srel_set_var IM E V cs ms x sg w z : srel IM E V cs ms -> lookup x V = Some (Some (ty_int sg w)) -> 0 <= z < pow2 w ->
-  srel IM E V (CSem.set_var cs x ((sg, w), z)) (set_local ms x (VBv w z)).
+Lemma vext_app V D x t : vext V D -> lookup x D = None -> vext (V ++ [(x, t)]) (D ++ [(x, t)]).
 Proof.
-  intros [[R1 [R2 [R3 [R4 [R5 R6]]]]] [H2 [H3 [H4 [H5 [H6 H7]]]]]] Hx Hz.
-  assert (Hnr : ~ reserved IM x) by (intros Hr; rewrite (H5 x Hr) in Hx; discriminate Hx).
+  intros Hv Hx y u Hy. rewrite lookup_app in *. destruct (lookup y V) as [r|] eqn:Ely.
+  - injection Hy as <-. rewrite (Hv _ _ Ely). reflexivity.
+  - cbn [lookup] in *. destruct (String.eqb_spec y x) as [->|_]; [|discriminate]. rewrite Hx. exact Hy.
+Qed.
+Lemma vext_app_r V D x t : vext V D -> vext V (D ++ [(x, t)]).
+Proof. intros Hv y u Hy. rewrite lookup_app, (Hv _ _ Hy). reflexivity. Qed.
+Lemma vext_app_l V D x t : vext V D -> lookup x D = Some t -> vext (V ++ [(x, t)]) D.
+Proof.
+  intros Hv Hx y u Hy. rewrite lookup_app in Hy. destruct (lookup y V) as [r|] eqn:Ely.
+  - injection Hy as <-. exact (Hv _ _ Ely).
+  - cbn [lookup] in Hy. destruct (String.eqb_spec y x) as [->|_]; [|discriminate]. injection Hy as <-. exact Hx.
+Qed.
+Lemma vext_none V D x : vext V D -> lookup x D = None -> lookup x V = None.
+Proof. intros Hv Hx. destruct (lookup x V) as [t|] eqn:E; [|reflexivity]. rewrite (Hv _ _ E) in Hx. discriminate Hx. Qed.
+
+(* a C local that is not the carrier of an immediate does not change the value of any immediate *)
+Lemma cimm_cons E cs x e l vars' : imm_cname x = false -> cs_vars cs = (x, e) :: vars' ->
+  cimm E cs l = match lookup ("imm:" +++ l) vars' with Some (_, Some v) => v | _ => wrap 32 (ce_imms E l) end.
+Proof. intros Hx Hv. unfold cimm. rewrite Hv. cbn [lookup]. rewrite (imm_cname_neq x l Hx). reflexivity. Qed.
+Lemma cimm_set_var E cs x cv l : imm_cname x = false -> cimm E (CSem.set_var cs x cv) l = cimm E cs l.
+Proof. intros Hx. rewrite (cimm_cons E (CSem.set_var cs x cv) x _ l (cs_vars cs) Hx eq_refl). reflexivity. Qed.
+Lemma cimm_vars E cs cs' l : cs_vars cs' = cs_vars cs -> cimm E cs' l = cimm E cs l.
+Proof. intros H. unfold cimm. rewrite H. reflexivity. Qed.
+
+(* the part of [rel] about the declared locals with a value, when the local x is given the value z *)
+Lemma rel_vars_set IM E V cs ms x sg w z t V' : rel IM E V cs ms -> imm_cname x = false ->
+  (forall y sg' w', lookup y V' = Some (Some (ty_int sg' w')) -> okw w' ->
+     (y = x /\ sg' = sg /\ w' = w) \/ (y <> x /\ lookup y V = Some (Some (ty_int sg' w')))) ->
+  0 <= z < pow2 w -> t = (sg, w) ->
+  rel IM E V' (CSem.set_var cs x (t, z)) (set_local ms x (VBv w z)).
+Proof.
+  intros [R1 [R2 [R3 [R4 [R5 [R6 R7]]]]]] Hic HV Hz ->. unfold rel.
+  cbn [cs_vars cs_regw cs_mem CSem.set_var locals rnew rold rnew0 imms mem mem0 set_local fst snd].
+  split; [|split; [exact R2|split; [exact R3|split; [exact R4|split; [exact R5|split; [|exact R7]]]]]].
+  - intros y sg' w' Hy Hw'. cbn [lookup]. destruct (HV y sg' w' Hy Hw') as [[-> [-> ->]] | [Hne Hy']].
+    + rewrite String.eqb_refl. exists z. auto.
+    + destruct (String.eqb_spec y x) as [->|_]; [contradiction|]. exact (R1 y sg' w' Hy' Hw').
+  - intros l Hl. unfold cimm. cbn [CSem.set_var cs_vars lookup fst snd]. rewrite (imm_cname_neq x l Hic). exact (R6 l Hl).
+Qed.
+
+Lemma drel_set_var IM D V V' cs x cv : drel IM D V cs ->
+  (forall y, lookup y V' = None -> y <> x /\ lookup y V = None) -> drel IM D V' (CSem.set_var cs x cv).
+Proof.
+  intros H HV y Hy Hyr. destruct (HV y Hy) as [Hne Hy']. specialize (H y Hy' Hyr).
+  unfold CSem.set_var. cbn [cs_vars lookup]. destruct (String.eqb_spec y x) as [->|_]; [contradiction | exact H].
+Qed.
+
+(* a declared local that has a value is assigned *)
+Lemma srel_set_var IM E D V cs ms x sg w z : srel IM E D V cs ms -> lookup x V = Some (Some (ty_int sg w)) -> 0 <= z < pow2 w ->
+  srel IM E D V (CSem.set_var cs x ((sg, w), z)) (set_local ms x (VBv w z)).
+Proof.
+  intros [R [H2 [H3 [H4 [H5 [H6 [H7 [H8 H9]]]]]]]] Hx Hz.
+  assert (Hnr : ~ reserved IM x) by (intros Hr; pose proof (H5 x Hr) as Q; rewrite (H9 _ _ Hx) in Q; discriminate Q).
   destruct (not_reserved_imm IM x Hnr) as [Hil Hic].
   split; [|split].
-  - unfold rel. cbn [cs_vars cs_regw CSem.set_var locals rnew rold rnew0 imms set_local fst snd]. split; [|split; [exact R2|split; [exact R3|split; [exact R4|split; [exact R5|]]]]].
-    + intros y sg' w' Hy Hw'. cbn [lookup].
-      destruct (String.eqb_spec y x) as [->|Hne].
-      * assert (Hy' : ty_int sg w = ty_int sg' w') by congruence.
-        apply ty_int_inj in Hy'. destruct Hy' as [<- <-]. exists z. auto.
-      * exact (R1 y sg' w' Hy Hw').
-    + intros l Hl. cbn [lookup]. rewrite (imm_cname_neq x l Hic). exact (R6 l Hl).
+  - apply (rel_vars_set IM E V cs ms x sg w z (sg, w) V R Hic); [|exact Hz | reflexivity].
+    intros y sg' w' Hy Hw'. destruct (String.eqb_spec y x) as [->|Hne]; [|right; auto].
+    left. assert (Hy' : ty_int sg w = ty_int sg' w') by congruence. apply ty_int_inj in Hy'. destruct Hy' as [<- <-]. auto.
   - intros y Hy Hyr. cbn [locals set_local lookup].
     destruct (String.eqb_spec y x) as [->|Hne]; [congruence | exact (H2 y Hy Hyr)].
   - cbn [CSem.set_var cs_mem mem set_local cs_ret]. repeat (split; [assumption|]).
-    split; [apply (jrel_set IM); assumption|].
-    intros l Hl. cbn [locals set_local lookup imms]. rewrite (imm_letter_neq IM x l Hil Hl). exact (H7 l Hl).
+    split; [apply (jrel_set IM); assumption|]. split; [|split; [|exact H9]].
+    + intros l Hl. cbn [locals set_local lookup imms]. rewrite (imm_letter_neq IM x l Hil Hl), (cimm_set_var E cs x _ l Hic). exact (H7 l Hl).
+    + apply (drel_set_var IM D V V cs x _ H8). intros y Hy. split; [intros ->; congruence | exact Hy].
 Qed.
 
-Lemma srel_decl IM E V cs ms x sg w z : srel IM E V cs ms -> lookup x V = None -> ~ reserved IM x -> 0 <= z < pow2 w ->
-  srel IM E (V ++ [(x, Some (ty_int sg w))]) (CSem.set_var cs x ((sg, w), z)) (set_local ms x (VBv w z)).
+(* a fresh local is declared with a value:  T x = e;   EA = e; *)
+Lemma srel_decl IM E D V cs ms x sg w z : srel IM E D V cs ms -> lookup x D = None -> ~ reserved IM x -> 0 <= z < pow2 w ->
+  srel IM E (D ++ [(x, Some (ty_int sg w))]) (V ++ [(x, Some (ty_int sg w))])
+       (CSem.set_var cs x ((sg, w), z)) (set_local ms x (VBv w z)).
 Proof.
-  intros [[R1 [R2 [R3 [R4 [R5 R6]]]]] [H2 [H3 [H4 [H5 [H6 H7]]]]]] Hx Hnr Hz.
+  intros [R [H2 [H3 [H4 [H5 [H6 [H7 [H8 H9]]]]]]]] HxD Hnr Hz.
+  pose proof (vext_none V D x H9 HxD) as Hx.
   destruct (not_reserved_imm IM x Hnr) as [Hil Hic].
   split; [|split].
-  - unfold rel. cbn [cs_vars cs_regw CSem.set_var locals rnew rold rnew0 imms set_local fst snd]. split; [|split; [exact R2|split; [exact R3|split; [exact R4|split; [exact R5|]]]]].
-    + intros y sg' w' Hy Hw'. cbn [lookup].
-      rewrite lookup_app in Hy. destruct (lookup y V) as [r|] eqn:Ely.
-      * injection Hy as ->. destruct (String.eqb_spec y x) as [->|Hne]; [congruence|]. exact (R1 y sg' w' Ely Hw').
-      * cbn [lookup] in Hy. destruct (String.eqb_spec y x) as [->|Hne]; [|discriminate].
-        assert (Hy' : ty_int sg w = ty_int sg' w') by congruence.
-        apply ty_int_inj in Hy'. destruct Hy' as [<- <-]. exists z. auto.
-    + intros l Hl. cbn [lookup]. rewrite (imm_cname_neq x l Hic). exact (R6 l Hl).
+  - apply (rel_vars_set IM E V cs ms x sg w z (sg, w) _ R Hic); [|exact Hz | reflexivity].
+    intros y sg' w' Hy Hw'. rewrite lookup_app in Hy. destruct (lookup y V) as [r|] eqn:Ely.
+    + injection Hy as ->. right. split; [intros ->; congruence | reflexivity].
+    + cbn [lookup] in Hy. destruct (String.eqb_spec y x) as [->|Hne]; [|discriminate].
+      left. assert (Hy' : ty_int sg w = ty_int sg' w') by congruence. apply ty_int_inj in Hy'. destruct Hy' as [<- <-]. auto.
   - intros y Hy Hyr. rewrite lookup_app in Hy. cbn [locals set_local lookup] in *.
     destruct (lookup y V) eqn:Ely; [discriminate|].
     destruct (String.eqb_spec y x) as [->|Hne]; [discriminate | exact (H2 y Ely Hyr)].
@@ -312,18 +434,130 @@ Proof.
     split; [|split; [apply (jrel_set IM); assumption|]].
     + intros y Hyr. rewrite lookup_app, (H5 y Hyr). cbn [lookup].
       destruct (String.eqb_spec y x) as [->|_]; [contradiction | reflexivity].
-    + intros l Hl. cbn [locals set_local lookup imms]. rewrite (imm_letter_neq IM x l Hil Hl). exact (H7 l Hl).
+    + split; [|split; [|apply vext_app; assumption]].
+      * intros l Hl. cbn [locals set_local lookup imms]. rewrite (imm_letter_neq IM x l Hil Hl), (cimm_set_var E cs x _ l Hic). exact (H7 l Hl).
+      * intros y Hy Hyr. rewrite lookup_app in Hy. unfold CSem.set_var. cbn [cs_vars lookup] in *.
+        destruct (lookup y V) eqn:Ely; [discriminate|].
+        destruct (String.eqb_spec y x) as [->|Hne]; [discriminate|].
+        specialize (H8 y Ely Hyr). rewrite lookup_app. destruct (lookup y D) as [[t|]|]; try exact H8.
+        cbn [lookup]. destruct (String.eqb_spec y x) as [->|_]; [contradiction | exact H8].
+Qed.
+
+(* a fresh local is declared without a value:  T x; *)
+Lemma srel_decl0 IM E D V cs ms x sg w : srel IM E D V cs ms -> lookup x D = None -> ~ reserved IM x ->
+  srel IM E (D ++ [(x, Some (ty_int sg w))]) V
+       (mkcs ((x, ((sg, w), None)) :: cs_vars cs) (cs_regw cs) (cs_mem cs) (cs_jump cs) (cs_ret cs) (cs_events cs)) ms.
+Proof.
+  intros [[R1 [R2 [R3 [R4 [R5 [R6 R7]]]]]] [H2 [H3 [H4 [H5 [H6 [H7 [H8 H9]]]]]]]] HxD Hnr.
+  pose proof (vext_none V D x H9 HxD) as Hx.
+  destruct (not_reserved_imm IM x Hnr) as [Hil Hic].
+  split; [|split; [exact H2|]].
+  - unfold rel. cbn [cs_vars cs_regw cs_mem lookup]. split; [|split; [exact R2|split; [exact R3|split; [exact R4|split; [exact R5|split; [|exact R7]]]]]].
+    + intros y sg' w' Hy Hw'. destruct (String.eqb_spec y x) as [->|_]; [congruence|]. exact (R1 y sg' w' Hy Hw').
+    + intros l Hl. unfold cimm. cbn [cs_vars lookup]. rewrite (imm_cname_neq x l Hic). exact (R6 l Hl).
+  - cbn [cs_mem cs_ret]. repeat (split; [assumption|]).
+    split; [|split; [exact H6|split; [|split; [|apply vext_app_r; exact H9]]]].
+    2:{ intros l Hl. unfold cimm. cbn [cs_vars lookup]. rewrite (imm_cname_neq x l Hic). exact (H7 l Hl). }
+    + intros y Hyr. rewrite lookup_app, (H5 y Hyr). cbn [lookup].
+      destruct (String.eqb_spec y x) as [->|_]; [contradiction | reflexivity].
+    + intros y Hy Hyr. cbn [cs_vars lookup]. rewrite lookup_app.
+      destruct (String.eqb_spec y x) as [->|Hne].
+      * rewrite HxD. cbn [lookup]. rewrite String.eqb_refl. reflexivity.
+      * specialize (H8 y Hy Hyr). destruct (lookup y D) as [[t|]|]; try exact H8.
+        cbn [lookup]. destruct (String.eqb_spec y x) as [->|_]; [contradiction | exact H8].
+Qed.
+
+(* a declared local without value gets its first value:  x = e; *)
+Lemma srel_first IM E D V cs ms x sg w z : srel IM E D V cs ms ->
+  lookup x D = Some (Some (ty_int sg w)) -> lookup x V = None -> 0 <= z < pow2 w ->
+  srel IM E D (V ++ [(x, Some (ty_int sg w))]) (CSem.set_var cs x ((sg, w), z)) (set_local ms x (VBv w z)).
+Proof.
+  intros [R [H2 [H3 [H4 [H5 [H6 [H7 [H8 H9]]]]]]]] HxD Hx Hz.
+  assert (Hnr : ~ reserved IM x) by (intros Hr; rewrite (H5 x Hr) in HxD; discriminate HxD).
+  destruct (not_reserved_imm IM x Hnr) as [Hil Hic].
+  split; [|split].
+  - apply (rel_vars_set IM E V cs ms x sg w z (sg, w) _ R Hic); [|exact Hz | reflexivity].
+    intros y sg' w' Hy Hw'. rewrite lookup_app in Hy. destruct (lookup y V) as [r|] eqn:Ely.
+    + injection Hy as ->. right. split; [intros ->; congruence | reflexivity].
+    + cbn [lookup] in Hy. destruct (String.eqb_spec y x) as [->|Hne]; [|discriminate].
+      left. assert (Hy' : ty_int sg w = ty_int sg' w') by congruence. apply ty_int_inj in Hy'. destruct Hy' as [<- <-]. auto.
+  - intros y Hy Hyr. rewrite lookup_app in Hy. cbn [locals set_local lookup] in *.
+    destruct (lookup y V) eqn:Ely; [discriminate|].
+    destruct (String.eqb_spec y x) as [->|Hne]; [discriminate | exact (H2 y Ely Hyr)].
+  - cbn [CSem.set_var cs_mem mem set_local cs_ret]. repeat (split; [assumption|]).
+    split; [apply (jrel_set IM); assumption|]. split; [|split; [|apply vext_app_l; assumption]].
+    + intros l Hl. cbn [locals set_local lookup imms]. rewrite (imm_letter_neq IM x l Hil Hl), (cimm_set_var E cs x _ l Hic). exact (H7 l Hl).
+    + apply (drel_set_var IM D V _ cs x _ H8). intros y Hy. rewrite lookup_app in Hy.
+      destruct (lookup y V) eqn:Ely; [discriminate|]. cbn [lookup] in Hy.
+      destruct (String.eqb_spec y x) as [->|Hne]; [discriminate | auto].
+Qed.
+
+(* an immediate is assigned:  riV = e;  (CSem keeps the value in the C local "imm:r", the IL in the local r of the prologue) *)
+Lemma imm_name_eqb l' l : String.eqb ("imm:" +++ l') ("imm:" +++ l) = String.eqb l' l.
+Proof. reflexivity. Qed.
+Lemma cimm_asg E cs l sg z l' :
+  cimm E (CSem.set_var cs ("imm:" +++ l) ((sg, 32%N), z)) l' = if String.eqb l' l then z else cimm E cs l'.
+Proof. unfold cimm. cbn [CSem.set_var cs_vars lookup fst snd]. rewrite imm_name_eqb. destruct (String.eqb l' l); reflexivity. Qed.
+
+Lemma srel_asg_imm IM E D V cs ms l sg z : im_ok IM -> srel IM E D V cs ms -> IM l = true -> 0 <= z < pow2 32 ->
+  srel IM E D V (CSem.set_var cs ("imm:" +++ l) ((sg, 32%N), z)) (set_local ms l (VBv 32 z)).
+Proof.
+  intros [HI1 HI2] Hrel Hl Hz. pose proof Hrel as [[R1 [R2 [R3 [R4 [R5 [R6 R7]]]]]] [H2 [H3 [H4 [H5 [H6 [H7 [H8 H9]]]]]]]].
+  assert (Hr : reserved IM l) by (right; right; left; exact Hl).
+  assert (Hrc : reserved IM ("imm:" +++ l)) by (right; right; right; apply imm_cname_imm).
+  split; [|split].
+  - unfold rel. cbn [cs_vars cs_regw cs_mem CSem.set_var locals rnew rold rnew0 imms mem mem0 pktaddr set_local fst snd].
+    split; [|split; [exact R2|split; [exact R3|split; [exact R4|split; [exact R5|split; [|exact R7]]]]]].
+    + intros y sg' w' Hy Hw'. pose proof (srel_nr _ _ _ _ _ _ _ _ Hrel Hy) as Hnr. destruct (not_reserved_imm IM y Hnr) as [Hyi Hyc].
+      cbn [lookup]. rewrite (String.eqb_sym y), (imm_cname_neq y l Hyc), (String.eqb_sym y l), (imm_letter_neq IM y l Hyi Hl).
+      exact (R1 y sg' w' Hy Hw').
+    + intros l' Hl'. rewrite (cimm_asg E cs l sg z l'). destruct (String.eqb l' l); [exact Hz | exact (R6 l' Hl')].
+  - intros y Hy Hyr. cbn [locals set_local lookup].
+    destruct (String.eqb_spec y l) as [->|_]; [contradiction | exact (H2 y Hy Hyr)].
+  - cbn [CSem.set_var cs_mem mem set_local cs_ret]. repeat (split; [assumption|]). split.
+    + unfold jrel in *. cbn [cs_jump locals set_local lookup].
+      destruct (String.eqb_spec "jump_flag" l) as [<-|_]; [congruence|].
+      destruct (String.eqb_spec "jump_target" l) as [<-|_]; [congruence|]. exact H6.
+    + split; [|split; [|exact H9]].
+      * intros l' Hl'. cbn [locals set_local lookup]. rewrite (cimm_asg E cs l sg z l').
+        destruct (String.eqb l' l); [right; reflexivity | exact (H7 l' Hl')].
+      * intros y Hy Hyr. specialize (H8 y Hy Hyr). unfold CSem.set_var. cbn [cs_vars lookup].
+        destruct (String.eqb_spec y ("imm:" +++ l)) as [->|_]; [contradiction | exact H8].
+Qed.
+
+Lemma imms_done_asg_imm IM E J cs ms l sg z : imms_done IM E J cs ms ->
+  imms_done IM E J (CSem.set_var cs ("imm:" +++ l) ((sg, 32%N), z)) (set_local ms l (VBv 32 z)).
+Proof.
+  intros H l' Hl' Hin. cbn [locals set_local lookup]. rewrite (cimm_asg E cs l sg z l').
+  destruct (String.eqb l' l); [reflexivity | exact (H l' Hl' Hin)].
 Qed.
 
 (* the prologue entries that have been executed stay executed *)
-Lemma imms_done_set_local IM J ms x v : IM x = false -> imms_done IM J ms -> imms_done IM J (set_local ms x v).
+Lemma imms_done_gen IM E J cs cs' ms ms' :
+  (forall l, IM l = true -> cimm E cs' l = cimm E cs l) ->
+  (forall l, IM l = true -> lookup l (locals ms') = lookup l (locals ms)) ->
+  imms_done IM E J cs ms -> imms_done IM E J cs' ms'.
+Proof. intros Hc Hm H l Hl Hin. rewrite (Hc l Hl), (Hm l Hl). exact (H l Hl Hin). Qed.
+
+Lemma imms_done_set_local IM E J cs ms x cv v : ~ reserved IM x -> imms_done IM E J cs ms ->
+  imms_done IM E J (CSem.set_var cs x cv) (set_local ms x v).
 Proof.
-  intros Hx H l Hl Hin. cbn [locals set_local lookup imms]. rewrite (imm_letter_neq IM x l Hx Hl). exact (H l Hl Hin).
+  intros Hx. destruct (not_reserved_imm IM x Hx) as [Hi Hc]. apply imms_done_gen.
+  - intros l _. apply cimm_set_var. exact Hc.
+  - intros l Hl. cbn [locals set_local lookup]. rewrite (imm_letter_neq IM x l Hi Hl). reflexivity.
 Qed.
-Lemma imms_done_set_reg IM J ms r z : imms_done IM J ms -> imms_done IM J (set_reg ms r z).
-Proof. intros H l Hl Hin. exact (H l Hl Hin). Qed.
-Lemma imms_done_set_mem IM J ms m : imms_done IM J ms -> imms_done IM J (set_mem ms m).
-Proof. intros H l Hl Hin. exact (H l Hl Hin). Qed.
+(* a local of the IL alone (jump_flag / jump_target) *)
+Lemma imms_done_il_local IM E J cs cs' ms x v : IM x = false -> cs_vars cs' = cs_vars cs -> imms_done IM E J cs ms ->
+  imms_done IM E J cs' (set_local ms x v).
+Proof.
+  intros Hi Hv. apply imms_done_gen.
+  - intros l _. apply cimm_vars. exact Hv.
+  - intros l Hl. cbn [locals set_local lookup]. rewrite (imm_letter_neq IM x l Hi Hl). reflexivity.
+Qed.
+Lemma imms_done_set_reg IM E J cs ms r z : imms_done IM E J cs ms -> imms_done IM E J (set_regw cs r z) (set_reg ms r z).
+Proof. apply imms_done_gen; intros; reflexivity. Qed.
+Lemma imms_done_set_mem IM E J cs ms a v n m : imms_done IM E J cs ms -> imms_done IM E J (c_store cs a v n) (set_mem ms m).
+Proof. apply imms_done_gen; intros; reflexivity. Qed.
 
 (* ================================================================== Layer 4: the fragment *)
 (* the declaration specifiers of the fragment: the cast types of ExprCorrect (intN_t / uintN_t / int /
@@ -331,48 +565,115 @@ Proof. intros H l Hl Hin. exact (H l Hl Hin). Qed.
 Definition decl_ty (ts : tyspec) (sg : bool) (w : N) : Prop :=
   cast_ty ts sg w \/ (exists b, ts = [TS_sizeN b sg] /\ w = (b * 8)%N /\ okw w).
 
-(* [sfrag rw IM V s V']: statement s of the fragment, lowered with declared variables V, leaves V'.
+(* the names the dialect declares implicitly as 32-bit unsigned locals (Lower.lower_operand, CSem.operand_lval) *)
+Definition implicit_name (x : string) : Prop := x = "EA" \/ x = "i" \/ x = "j" \/ x = "k".
+
+(* a plain name that is neither a declared local, an immediate letter nor an implicitly declared local: the compiler
+   passes it on as text (pkt, slot, ...) *)
+Definition raw_name (IM : string -> bool) (D : list (string * option vtype)) (x : string) : Prop :=
+  lookup x D = None /\ IM x = false /\ ~ implicit_name x.
+(* an argument of the call statement STORE_SLOT_CANCELLED: such a name, or an expression of the fragment *)
+Inductive carg (rw : regwidth) (IM : string -> bool) (D V : list (string * option vtype)) : cexpr -> Prop :=
+| ca_raw x : raw_name IM D x -> carg rw IM D V (EOp (OIdent x))
+| ca_expr e : pfrag rw IM V e -> carg rw IM D V e.
+(* (the theorems assume that neither sub-routine table knows this name: ExprCorrect.subs_ext / csub_ext) *)
+Definition ssc_name : string := "STORE_SLOT_CANCELLED".
+Lemma ssc_ext : In ssc_name ext_calls.
+Proof. left. reflexivity. Qed.
+
+(* [sfrag rw IM D V s D' V']: statement s of the fragment, lowered with DECLARED locals D of which V have a value
+   (expressions may read the locals of V only), leaves D' / V'.
    rw is the register-width environment of the IL semantics: a destination register operand must
    have the width the machine gives its operand handle. *)
-Inductive sfrag (rw : regwidth) (IM : string -> bool) : list (string * option vtype) -> cstmt -> list (string * option vtype) -> Prop :=
-| sf_asg_reg V cls letters acc e :                    (* RdV = e;  RxxV = e;  PdV = e; ... *)
+Inductive sfrag (rw : regwidth) (IM : string -> bool) :
+  list (string * option vtype) -> list (string * option vtype) -> cstmt ->
+  list (string * option vtype) -> list (string * option vtype) -> Prop :=
+| sf_asg_reg D V cls letters acc e :                  (* RdV = e;  RxxV = e;  PdV = e; ... *)
     dest_cls cls -> access_of_letters letters = Some acc ->
     rw (RIsa cls (substring 0 1 letters) false) = dest_w cls acc ->
-    pfrag rw IM V e -> sfrag rw IM V (SExpr (EAssign AAssign (EOp (OReg cls letters)) e)) V
-| sf_asg_var V x sg w e :                             (* x = e;  for a declared local *)
+    pfrag rw IM V e -> sfrag rw IM D V (SExpr (EAssign AAssign (EOp (OReg cls letters)) e)) D V
+| sf_asg_alias D V name new e :                       (* HEX_REG_ALIAS_LC0 = e;  HEX_REG_ALIAS_USR = e; ... *)
+    In name alias_names -> rw (alias_op name new) = alias_w name ->
+    pfrag rw IM V e -> sfrag rw IM D V (SExpr (EAssign AAssign (EOp (OAlias name new)) e)) D V
+| sf_asg_imm D V l e :                                (* riV = e;  an immediate is assigned (fPCALIGN: riV = riV & ~3) *)
+    IM l = true -> pfrag rw IM V e -> sfrag rw IM D V (SExpr (EAssign AAssign (EOp (OImm l)) e)) D V
+| sf_asg_var D V x sg w e :                           (* x = e;  for a declared local that has a value *)
     lookup x V = Some (Some (ty_int sg w)) -> okw w ->
-    pfrag rw IM V e -> sfrag rw IM V (SExpr (EAssign AAssign (EOp (OIdent x)) e)) V
-| sf_casg_var V a x sg w e :                          (* x += e;  x -= e;  x *= e;  for a declared local *)
+    pfrag rw IM V e -> sfrag rw IM D V (SExpr (EAssign AAssign (EOp (OIdent x)) e)) D V
+| sf_asg_first D V x sg w e :                         (* x = e;  the FIRST assignment of a local declared without initialiser *)
+    lookup x D = Some (Some (ty_int sg w)) -> lookup x V = None -> okw w ->
+    pfrag rw IM V e -> sfrag rw IM D V (SExpr (EAssign AAssign (EOp (OIdent x)) e)) D (V ++ [(x, Some (ty_int sg w))])
+| sf_asg_implicit D V x e :                           (* EA = e;  the FIRST assignment of EA (i, j, k): declares it, uint32_t *)
+    implicit_name x -> lookup x D = None -> lookup x V = None -> ~ reserved IM x ->
+    pfrag rw IM V e ->
+    sfrag rw IM D V (SExpr (EAssign AAssign (EOp (OIdent x)) e)) (D ++ [(x, Some (ty_int false 32))]) (V ++ [(x, Some (ty_int false 32))])
+| sf_casg_var D V a x sg w e :                        (* x += e;  x -= e;  x *= e;  for a declared local that has a value *)
     (a = AAdd \/ a = ASub \/ a = AMul) ->
     lookup x V = Some (Some (ty_int sg w)) -> okw w ->
-    pfrag rw IM V e -> sfrag rw IM V (SExpr (EAssign a (EOp (OIdent x)) e)) V
-| sf_casg_reg V a cls letters acc e :                 (* RxV += e;  RxV -= e;  RxV *= e;  (also RdV, PxV, RxxV ...) *)
+    pfrag rw IM V e -> sfrag rw IM D V (SExpr (EAssign a (EOp (OIdent x)) e)) D V
+| sf_basg_var D V a x sg w e :                        (* x &= e;  x |= e;  x ^= e;  for a declared local that has a value *)
+    (a = AAnd \/ a = AOr \/ a = AXor) ->
+    lookup x V = Some (Some (ty_int sg w)) -> okw w ->
+    pfrag rw IM V e -> sfrag rw IM D V (SExpr (EAssign a (EOp (OIdent x)) e)) D V
+| sf_basg_reg D V a cls letters acc e :               (* RxV &= e;  RxV |= e;  RxV ^= e; *)
+    (a = AAnd \/ a = AOr \/ a = AXor) ->
+    dest_cls cls -> access_of_letters letters = Some acc ->
+    rw (RIsa cls (substring 0 1 letters) false) = dest_w cls acc ->
+    pfrag rw IM V e -> sfrag rw IM D V (SExpr (EAssign a (EOp (OReg cls letters)) e)) D V
+| sf_casg_reg D V a cls letters acc e :               (* RxV += e;  RxV -= e;  RxV *= e;  (also RdV, PxV, RxxV ...) *)
     (a = AAdd \/ a = ASub \/ a = AMul) ->
     dest_cls cls -> access_of_letters letters = Some acc ->
     rw (RIsa cls (substring 0 1 letters) false) = dest_w cls acc ->
-    pfrag rw IM V e -> sfrag rw IM V (SExpr (EAssign a (EOp (OReg cls letters)) e)) V
-| sf_decl V ts sg w x e :                             (* T x = e;  for a fresh name *)
-    decl_ty ts sg w -> lookup x V = None -> ~ reserved IM x ->
-    pfrag rw IM V e -> sfrag rw IM V (SDecl ts x (Some e)) (V ++ [(x, Some (ty_int sg w))])
-| sf_empty V : sfrag rw IM V SEmpty V                    (* ; *)
-| sf_nop V : sfrag rw IM V SNop V
-| sf_store V sg w a v :                               (* mem_store_<s|u><w>(a, v); *)
-    okw w -> pfrag rw IM V a -> pfrag rw IM V v -> sfrag rw IM V (SStore sg w (ECons a (ECons v ENil))) V
-| sf_jump V e : pfrag rw IM V e -> sfrag rw IM V (SJump e) V   (* JUMP(e); *)
-| sf_block V l V' : sfrags rw IM V l V' -> sfrag rw IM V (SBlock l) V'      (* { ... } *)
-| sf_if V c t : pfrag rw IM V c -> sfrag rw IM V t V -> sfrag rw IM V (SIf c t None) V
-| sf_ifelse V c t f : pfrag rw IM V c -> sfrag rw IM V t V -> sfrag rw IM V f V -> sfrag rw IM V (SIf c t (Some f)) V
-with sfrags (rw : regwidth) (IM : string -> bool) : list (string * option vtype) -> cstmts -> list (string * option vtype) -> Prop :=
-| sfs_nil V : sfrags rw IM V SNil V
-| sfs_cons V s V1 l V2 : sfrag rw IM V s V1 -> sfrags rw IM V1 l V2 -> sfrags rw IM V (SCons s l) V2.
+    pfrag rw IM V e -> sfrag rw IM D V (SExpr (EAssign a (EOp (OReg cls letters)) e)) D V
+| sf_decl D V ts sg w x e :                           (* T x = e;  for a fresh name *)
+    decl_ty ts sg w -> lookup x D = None -> ~ reserved IM x ->
+    pfrag rw IM V e ->
+    sfrag rw IM D V (SDecl ts x (Some e)) (D ++ [(x, Some (ty_int sg w))]) (V ++ [(x, Some (ty_int sg w))])
+| sf_decl0 D V ts sg w x :                            (* T x;  for a fresh name: declared, no value yet *)
+    decl_ty ts sg w -> lookup x D = None -> ~ reserved IM x ->
+    sfrag rw IM D V (SDecl ts x None) (D ++ [(x, Some (ty_int sg w))]) V
+| sf_empty D V : sfrag rw IM D V SEmpty D V              (* ; *)
+| sf_nop D V : sfrag rw IM D V SNop D V
+| sf_cancel D V : sfrag rw IM D V SCancel D V           (* cancel_slot;  (CSem prescribes no result for it: see sinv_cancel) *)
+| sf_ssc D V a b :                                    (* STORE_SLOT_CANCELLED(a, b);  (CSem prescribes no result for it: see sinv_ssc) *)
+    carg rw IM D V a -> carg rw IM D V b ->
+    sfrag rw IM D V (SExpr (Ast.ECall ssc_name (ECons a (ECons b ENil)))) D V
+| sf_store D V sg w a v :                             (* mem_store_<s|u><w>(a, v); *)
+    okw w -> pfrag rw IM V a -> pfrag rw IM V v -> sfrag rw IM D V (SStore sg w (ECons a (ECons v ENil))) D V
+| sf_jump D V e : pfrag rw IM V e -> sfrag rw IM D V (SJump e) D V   (* JUMP(e); *)
+| sf_block D V l D' V' : sfrags rw IM D V l D' V' -> sfrag rw IM D V (SBlock l) D' V'      (* { ... } *)
+| sf_if D V c t : pfrag rw IM V c -> sfrag rw IM D V t D V -> sfrag rw IM D V (SIf c t None) D V
+| sf_ifelse D V c t f V1 :                            (* both branches may give the same declared locals their first value *)
+    pfrag rw IM V c -> sfrag rw IM D V t D V1 -> sfrag rw IM D V f D V1 -> sfrag rw IM D V (SIf c t (Some f)) D V1
+with sfrags (rw : regwidth) (IM : string -> bool) :
+  list (string * option vtype) -> list (string * option vtype) -> cstmts ->
+  list (string * option vtype) -> list (string * option vtype) -> Prop :=
+| sfs_nil D V : sfrags rw IM D V SNil D V
+| sfs_cons D V s D1 V1 l D2 V2 : sfrag rw IM D V s D1 V1 -> sfrags rw IM D1 V1 l D2 V2 -> sfrags rw IM D V (SCons s l) D2 V2.
 
 Scheme sfrag_mut := Minimality for sfrag Sort Prop
 with sfrags_mut := Minimality for sfrags Sort Prop.
 Combined Scheme sfrag_mutind from sfrag_mut, sfrags_mut.
 
+(* the locals with a value stay among the declared ones *)
+Lemma sfrag_vext_both rw IM :
+  (forall D V s D' V', sfrag rw IM D V s D' V' -> vext V D -> vext V' D') /\
+  (forall D V l D' V', sfrags rw IM D V l D' V' -> vext V D -> vext V' D').
+Proof.
+  apply sfrag_mutind; intros; auto using vext_app, vext_app_r, vext_app_l.
+Qed.
+Lemma sfrag_vext rw IM D V s D' V' : sfrag rw IM D V s D' V' -> vext V D -> vext V' D'.
+Proof. apply (proj1 (sfrag_vext_both rw IM)). Qed.
+Lemma sfrags_vext rw IM D V l D' V' : sfrags rw IM D V l D' V' -> vext V D -> vext V' D'.
+Proof. apply (proj2 (sfrag_vext_both rw IM)). Qed.
+
 (* ================================================================== Layer 5: the simulation *)
 Section StmtCorrect.
   Variables (subsigs : list subsig) (macs : list macsig) (cret : option vtype) (hstart : N).
+  (* the macro table gives QEMU's bit-field macros their standard signatures (ExprCorrect.macs_std) *)
+  Hypothesis Hmacs : macs_std macs.
+  (* STORE_SLOT_CANCELLED is not a compiled sub-routine (only sinv_ssc uses this) *)
+  Hypothesis Hssc : subs_ext subsigs.
   Local Notation cfg := (mkcfg all_fixes subsigs macs [] cret hstart).
   Variable rw : regwidth.
   (* the immediates the behaviour uses *)
@@ -383,6 +684,8 @@ Section StmtCorrect.
   Variable ilsubs : subenv.
   Variable E : cenv.
   Variable csub : csubs.
+  (* ... and CSem's sub-routine table gives it no body (only sinv_ssc uses this) *)
+  Hypothesis Hcssc : csub_ext csub.
   Variable xi : string -> bool -> option (regop * N).
 
   (* ------------------------------------------------------------------ model-side helpers *)
@@ -438,7 +741,7 @@ Section StmtCorrect.
   Proof.
     intros [H | [b [-> [-> Hw]]]].
     - destruct (cast_ty_ok ts sg w st H) as [_ [H2 H3]]. split; [|auto].
-      destruct H as [[-> Hw] | [[-> [-> ->]] | [[-> [-> ->]] | [-> [-> ->]]]]]; reflexivity.
+      destruct H as [[-> Hw] | [[-> [-> ->]] | [[-> [-> ->]] | [[-> [-> ->]] | [b [-> [-> Hw]]]]]]]; reflexivity.
     - repeat split; auto.
   Qed.
 
@@ -603,30 +906,31 @@ Section StmtCorrect.
   Proof. reflexivity. Qed.
 
   (* ------------------------------------------------------------------ the invariant *)
-  Definition plain_item (i : item) : Prop := match i with IEff _ | IAsg _ _ => True | _ => False end.
+  Definition plain_item (i : item) : Prop := match i with IEff _ | IAsg _ _ | IVoid _ => True | _ => False end.
 
   (* the simulation diagram, for the C executor cex (cexec on a statement / cexecs on a list); J is the
      immediate prologue that has been executed (any list containing the entries the model has created) *)
-  Definition sim (V V' : list (string * option vtype)) (eff : effect) (cex : nat -> cstate -> option cstate) : Prop :=
-    forall cs ms fuel cs', srel IM E V cs ms -> imms_done IM J ms -> cex fuel cs = Some cs' ->
-      exists ms', runs rw ilsubs eff ms ms' /\ srel IM E V' cs' ms' /\ imms_done IM J ms'.
+  Definition sim (D V D' V' : list (string * option vtype)) (eff : effect) (cex : nat -> cstate -> option cstate) : Prop :=
+    forall cs ms fuel cs', srel IM E D V cs ms -> imms_done IM E J cs ms -> cex fuel cs = Some cs' ->
+      exists ms', runs rw ilsubs eff ms ms' /\ srel IM E D' V' cs' ms' /\ imms_done IM E J cs' ms'.
 
-  Definition post (V V' : list (string * option vtype)) (st st' : lstate) (items : list item)
+  Definition post (D V D' V' : list (string * option vtype)) (st st' : lstate) (items : list item)
                   (cex : nat -> cstate -> option cstate) : Prop :=
-    lst_ok IM V' st' /\ st_ext st st' /\ Forall plain_item items /\
+    lst_ok IM D' st' /\ st_ext st st' /\ Forall plain_item items /\
     (regs_le (st_regs st') R -> norem rem -> incl (st_imms st') J ->
-      sim V V' (fin_eff R rem (seqn (flat_map item_effects items))) cex).
+      sim D V D' V' (fin_eff R rem (seqn (flat_map item_effects items))) cex).
 
-  Definition SInv (V : list (string * option vtype)) (s : cstmt) (V' : list (string * option vtype)) : Prop :=
-    forall st, lst_ok IM V st -> st_pending st = [] ->
+  (* (D is the model's variable table, V the locals the run-time states are related on; vext V D) *)
+  Definition SInv (D V : list (string * option vtype)) (s : cstmt) (D' V' : list (string * option vtype)) : Prop :=
+    forall st, vext V D -> lst_ok IM D st -> st_pending st = [] ->
       exists items st', lower_stmt cfg s st = OK (items, st') /\
-        post V V' st st' items (fun fuel cs => cexec E csub xi fuel cs s) /\
+        post D V D' V' st st' items (fun fuel cs => cexec E csub xi fuel cs s) /\
         (started st -> st_nonempty st' = true).
 
-  Definition SsInv (V : list (string * option vtype)) (l : cstmts) (V' : list (string * option vtype)) : Prop :=
-    forall st, lst_ok IM V st -> st_pending st = [] ->
+  Definition SsInv (D V : list (string * option vtype)) (l : cstmts) (D' V' : list (string * option vtype)) : Prop :=
+    forall st, vext V D -> lst_ok IM D st -> st_pending st = [] ->
       exists items st', lower_stmts cfg l st = OK (items, st') /\
-        post V V' st st' items (fun fuel cs => cexecs E csub xi fuel cs l) /\
+        post D V D' V' st st' items (fun fuel cs => cexecs E csub xi fuel cs l) /\
         (started st -> l <> SNil -> st_nonempty st' = true).
 
   Lemma mk_assign_reg dest src st st' name : vt_const (pv_ty dest) = false -> pv_kind dest = KReg name ->
@@ -643,37 +947,38 @@ Section StmtCorrect.
 
   (* the expression of a statement: ExprCorrect.expr_inv, with the premises of its semantic half discharged
      from those of the statement's simulation *)
-  Lemma expr_sim V e st : pfrag rw IM V e -> lst_ok IM V st ->
-    exists pv st2, lower_expr cfg e st = OK (IPure pv, st2) /\ st_ext st st2 /\ lst_ok IM V st2 /\ goodpv pv /\
+  (* (the model state may know more declared locals, Vl, than the run-time states are related on: ExprCorrect.vext) *)
+  Lemma expr_sim_ext V Vl e st : pfrag rw IM V e -> vext V Vl -> lst_ok IM Vl st ->
+    exists pv st2, lower_expr cfg e st = OK (IPure pv, st2) /\ st_ext st st2 /\ lst_ok IM Vl st2 /\ goodpv pv /\
       forall st3, st_ext st2 st3 -> regs_le (st_regs st3) R -> norem rem -> incl (st_imms st3) J ->
-      forall cs ms, rel IM E V cs ms -> imms_done IM J ms ->
+      forall cs ms, rel IM E V cs ms -> imms_done IM E J cs ms ->
         exists ilv, sem rw R rem ms pv ilv /\
           forall fuel cs' cv, ceval E csub xi fuel cs e = Some (cs', cv) -> cs' = cs /\ cv = cval_of (pv_ty pv) ilv.
   Proof.
-    intros Hfrag Hok.
-    destruct (expr_inv subsigs macs cret hstart rw R rem IM E csub xi V e Hfrag st Hok) as [pv [st2 [L2 [X2 [K2 [G2 [_ [_ Hsem]]]]]]]].
+    intros Hfrag Hext Hok.
+    destruct (expr_inv subsigs macs cret hstart Hmacs Hssc rw R rem IM E csub Hcssc xi V e Hfrag Vl st Hext Hok) as [pv [st2 [L2 [X2 [K2 [G2 [_ [_ Hsem]]]]]]]].
     exists pv, st2. repeat (split; [assumption|]).
     intros st3 X3 HR Hrem HJ cs ms Hrel Himm.
     destruct (Hsem (regs_le_trans _ _ _ (st_ext_regs _ _ X3) HR) Hrem cs ms Hrel
-                   (imms_done_incl _ _ _ _ (incl_tran (st_ext_imms _ _ X3) HJ) Himm)) as [ilv [Sv Hcv]].
+                   (imms_done_incl _ _ _ _ _ _ (incl_tran (st_ext_imms _ _ X3) HJ) Himm)) as [ilv [Sv Hcv]].
     exists ilv. split; [exact Sv|]. intros fuel cs' cv Hce. exact (Hcv fuel cs' cv Hce I).
   Qed.
 
   (* ------------------------------------------------------------------ RdV = e; *)
-  Lemma sinv_asg_reg V cls letters acc e :
+  Lemma sinv_asg_reg D V cls letters acc e :
     dest_cls cls -> access_of_letters letters = Some acc ->
     rw (RIsa cls (substring 0 1 letters) false) = dest_w cls acc ->
-    pfrag rw IM V e -> SInv V (SExpr (EAssign AAssign (EOp (OReg cls letters)) e)) V.
+    pfrag rw IM V e -> SInv D V (SExpr (EAssign AAssign (EOp (OReg cls letters)) e)) D V.
   Proof.
-    intros Hc Ha Hrw Hfrag st Hok Hp.
+    intros Hc Ha Hrw Hfrag st Hext Hok Hp.
     destruct (lower_reg_ok cls letters acc false st (or_introl Hc) Ha (lst_ok_regs_ok _ _ _ Hok)) as [st1 [L1 [V1 [I1 [X1 [R1 [N1 [ri1 Lk1]]]]]]]].
-    assert (Hok1 : lst_ok IM V st1) by (eapply lst_ok_regs; eassumption).
-    destruct (expr_sim V e st1 Hfrag Hok1) as [pv [st2 [L2 [X2 [Hok2 [G2 Hsem]]]]]].
+    assert (Hok1 : lst_ok IM D st1) by (eapply lst_ok_regs; eassumption).
+    destruct (expr_sim_ext V D e st1 Hfrag Hext Hok1) as [pv [st2 [L2 [X2 [Hok2 [G2 Hsem]]]]]].
     set (n := rname cls letters false) in *.
     pose (dest := mkpv (PRaw ("$reg:" +++ n)) (ty_int true (dest_w cls acc)) (KReg n) []).
     destruct (cast_imm_ok dest pv st2 true (dest_w cls acc) (dest_w_okw cls acc Hc) eq_refl G2) as [src' [C1 [T1 Hc1]]].
-    destruct (add_write_property_ok n st2 (lst_ok_regs_ok _ _ _ Hok2)) as [st3 [W1 [V3 [I3 [X3 R3]]]]].
-    assert (Hok3 : lst_ok IM V st3) by (eapply lst_ok_regs; eassumption).
+    destruct (add_write_property_ok n st2 (lst_ok_regs_ok _ _ _ Hok2) (isa_not_pcname cls letters false (reg_cls_any false _ (or_introl Hc)) (access_in_table _ _ Ha))) as [st3 [W1 [V3 [I3 [X3 R3]]]]].
+    assert (Hok3 : lst_ok IM D st3) by (eapply lst_ok_regs; eassumption).
     assert (X13 : st_ext st st3) by (eapply st_ext_trans; [exact X1|]; eapply st_ext_trans; eassumption).
     assert (P3 : st_pending st3 = []) by (eapply st_ext_pending; eassumption).
     exists [IAsg (mkle (EWriteReg (RParam ("$reg:" +++ n)) (rd src')) (pv_tmps dest ++ pv_tmps src') false) src'], st3.
@@ -685,14 +990,14 @@ Section StmtCorrect.
     split.
     { split; [exact Hok3|]. split; [exact X13|]. split; [repeat constructor|].
       intros HR Hrem HJ cs ms fuel cs' Hrel Himm Hce.
-      pose proof Hrel as [Hrel0 [Hloc [Hmem [Hret [Hres [Hj Himl]]]]]].
+      pose proof Hrel as [Hrel0 [Hloc [Hmem [Hret [Hres [Hj [Himl [Hcloc Hvx]]]]]]]].
       destruct (Hsem st3 X3 HR Hrem HJ cs ms Hrel0 Himm) as [ilv [Sv Hcv]].
       destruct (Hc1 ms ilv Sv) as [z [Hz [Ez Cz]]].
       destruct (cexec_asg_inv fuel cs _ e cs' Hret Hce) as [k [s1 [vr [lv [Ee [Eo ->]]]]]].
       destruct (Hcv k s1 vr Ee) as [-> ->].
       destruct (operand_lval_reg cs cls letters acc Hc Ha) as [fb Eo']. rewrite Eo' in Eo. injection Eo as <-.
       cbn [write_lval]. rewrite Cz. cbn [snd].
-      exists (set_reg ms (RIsa cls (substring 0 1 letters) false) z). split; [|split; [apply srel_set_reg; exact Hrel | apply imms_done_set_reg; exact Himm]].
+      exists (set_reg ms (RIsa cls (substring 0 1 letters) false) z). split; [|split; [apply srel_set_reg; [exact Hrel | reflexivity] | apply imms_done_set_reg; exact Himm]].
       cbn [flat_map item_effects le_empty le_term app seqn fin_eff].
       assert (Lk3 : exists ri3, lookup_reg_info n (st_regs st3) = Some ri3).
       { destruct (st_ext_regs _ _ X2 _ _ Lk1) as [ri2 [H2 _]]. destruct (st_ext_regs _ _ X3 _ _ H2) as [ri3 [H3 _]]. eauto. }
@@ -702,14 +1007,91 @@ Section StmtCorrect.
     intros Hst. eapply st_ext_nonempty; [exact X3|]. eapply st_ext_nonempty; [exact X2|]. exact (N1 Hst).
   Qed.
 
-  (* ------------------------------------------------------------------ x = e; *)
-  Lemma sinv_asg_var V x sg w e :
-    lookup x V = Some (Some (ty_int sg w)) -> okw w ->
-    pfrag rw IM V e -> SInv V (SExpr (EAssign AAssign (EOp (OIdent x)) e)) V.
+
+  (* ------------------------------------------------------------------ HEX_REG_ALIAS_<name> = e; *)
+  Lemma sinv_asg_alias D V name new e :
+    In name alias_names -> rw (alias_op name new) = alias_w name ->
+    pfrag rw IM V e -> SInv D V (SExpr (EAssign AAssign (EOp (OAlias name new)) e)) D V.
   Proof.
-    intros Hx Hw Hfrag st Hok Hp.
-    destruct (lst_ok_local IM V st x _ Hok Hx) as [Hxi Hxs].
-    destruct (expr_sim V e st Hfrag Hok) as [pv [st2 [L2 [X2 [Hok2 [G2 Hsem]]]]]].
+    intros Hin Hrw Hfrag st Hext Hok Hp. destruct (alias_facts name Hin) as [_ [_ Hw]].
+    destruct (lower_alias_ok cfg name new st Hin (lst_ok_regs_ok _ _ _ Hok)) as [st1 [L1 [V1 [I1 [X1 [R1 [N1 [ri1 Lk1]]]]]]]].
+    assert (Hok1 : lst_ok IM D st1) by (eapply lst_ok_regs; eassumption).
+    destruct (expr_sim_ext V D e st1 Hfrag Hext Hok1) as [pv [st2 [L2 [X2 [Hok2 [G2 Hsem]]]]]].
+    set (n := alias_tname name new) in *.
+    pose (dest := mkpv (PRaw ("$reg:" +++ n)) (ty_int false (alias_w name)) (KReg n) []).
+    destruct (cast_imm_ok dest pv st2 false (alias_w name) Hw eq_refl G2) as [src' [C1 [T1 Hc1]]].
+    destruct (add_write_property_ok n st2 (lst_ok_regs_ok _ _ _ Hok2) (alias_not_pcname name new Hin)) as [st3 [W1 [V3 [I3 [X3 R3]]]]].
+    assert (Hok3 : lst_ok IM D st3) by (eapply lst_ok_regs; eassumption).
+    assert (X13 : st_ext st st3) by (eapply st_ext_trans; [exact X1|]; eapply st_ext_trans; eassumption).
+    assert (P3 : st_pending st3 = []) by (eapply st_ext_pending; eassumption).
+    exists [IAsg (mkle (EWriteReg (RParam ("$reg:" +++ n)) (rd src')) (pv_tmps dest ++ pv_tmps src') false) src'], st3.
+    split.
+    { rewrite lower_stmt_expr, lower_expr_asg, lower_expr_op. unfold asg_tail, bind, ret.
+      step L1. step L2. fold dest. step C1. cbn [compound_src]. unfold ret.
+      rewrite (mk_assign_reg dest src' st2 st3 n eq_refl eq_refl W1).
+      rewrite ?hyb_nil by exact P3; rewrite chk_nil by exact P3. reflexivity. }
+    split.
+    { split; [exact Hok3|]. split; [exact X13|]. split; [repeat constructor|].
+      intros HR Hrem HJ cs ms fuel cs' Hrel Himm Hce.
+      pose proof Hrel as [Hrel0 [Hloc [Hmem [Hret [Hres [Hj [Himl [Hcloc Hvx]]]]]]]].
+      destruct (Hsem st3 X3 HR Hrem HJ cs ms Hrel0 Himm) as [ilv [Sv Hcv]].
+      destruct (Hc1 ms ilv Sv) as [z [Hz [Ez Cz]]].
+      destruct (cexec_asg_inv fuel cs _ e cs' Hret Hce) as [k [s1 [vr [lv [Ee [Eo ->]]]]]].
+      destruct (Hcv k s1 vr Ee) as [-> ->].
+      cbn [operand_lval] in Eo. injection Eo as <-.
+      change (RAlias ("HEX_REG_ALIAS_" ++ name)%string new) with (alias_op name new).
+      cbn [write_lval]. fold (alias_w name). rewrite Cz. cbn [snd].
+      exists (set_reg ms (alias_op name new) z). split; [|split; [apply srel_set_reg; [exact Hrel | apply alias_op_not_pc; exact Hin] | apply imms_done_set_reg; exact Himm]].
+      cbn [flat_map item_effects le_empty le_term app seqn fin_eff].
+      assert (Lk3 : exists ri3, lookup_reg_info n (st_regs st3) = Some ri3).
+      { destruct (st_ext_regs _ _ X2 _ _ Lk1) as [ri2 [H2 _]]. destruct (st_ext_regs _ _ X3 _ _ H2) as [ri3 [H3 _]]. eauto. }
+      destruct Lk3 as [ri3 Lk3]. unfold n in *.
+      rewrite (fin_op_alias R rem (st_regs st3) name new ri3 Hin R3 Lk3 HR Hrem).
+      eapply runs_writereg; [exact Ez | exact Hrw]. }
+    intros Hst. eapply st_ext_nonempty; [exact X3|]. eapply st_ext_nonempty; [exact X2|]. exact (N1 Hst).
+  Qed.
+
+
+  (* ------------------------------------------------------------------ riV = e;  (an immediate is assigned) *)
+  Lemma sinv_asg_imm D V l e : IM l = true -> pfrag rw IM V e -> SInv D V (SExpr (EAssign AAssign (EOp (OImm l)) e)) D V.
+  Proof.
+    intros Hl Hfrag st Hext Hok Hp.
+    destruct (imm_low subsigs macs cret hstart IM D l st Hl Hok) as [st1 [L1 [X1 [Hok1 [In1 N1]]]]].
+    destruct (expr_sim_ext V D e st1 Hfrag Hext Hok1) as [pv [st2 [L2 [X2 [Hok2 [G2 Hsem]]]]]].
+    assert (Hp2 : st_pending st2 = []) by (eapply st_ext_pending; [exact X2|]; eapply st_ext_pending; eassumption).
+    pose (dest := mkpv (PVarL l) (imm_ty l) (KVar l) []).
+    destruct (cast_imm_ok dest pv st2 (imm_signed l) 32 okw32 eq_refl G2) as [src' [C1 [T1 Hc1]]].
+    exists [IAsg (mkle (ESetL l (rd src')) (pv_tmps dest ++ pv_tmps src') false) src'], st2.
+    split.
+    { rewrite lower_stmt_expr, lower_expr_asg, lower_expr_op. unfold bind at 1. unfold bind at 1. rewrite L1.
+      unfold bind at 1. rewrite L2. unfold asg_tail, bind, ret. fold dest. step C1. cbn [compound_src]. unfold ret.
+      rewrite (mk_assign_var dest src' st2 l eq_refl) by (left; reflexivity).
+      rewrite ?hyb_nil by exact Hp2; rewrite chk_nil by exact Hp2. reflexivity. }
+    split.
+    { split; [exact Hok2|]. split; [eapply st_ext_trans; eassumption|]. split; [repeat constructor|].
+      intros HR Hrem HJ cs ms fuel cs' Hrel Himm Hce.
+      pose proof Hrel as [Hrel0 [Hloc [Hmem [Hret _]]]].
+      destruct (Hsem st2 (st_ext_refl _) HR Hrem HJ cs ms Hrel0 Himm) as [ilv [Sv Hcv]].
+      destruct (Hc1 ms ilv Sv) as [z [Hz [Ez Cz]]].
+      destruct (cexec_asg_inv fuel cs _ e cs' Hret Hce) as [k [s1 [vr [lv [Ee [Eo ->]]]]]].
+      destruct (Hcv k s1 vr Ee) as [-> ->].
+      cbn [operand_lval] in Eo. injection Eo as <-. cbn [write_lval].
+      unfold imm_signed in Cz. cbn [existsb] in Cz. rewrite Cz.
+      exists (set_local ms l (VBv 32 z)). split; [|split; [apply srel_asg_imm; assumption | apply imms_done_asg_imm; exact Himm]].
+      cbn [flat_map item_effects le_empty le_term app seqn fin_eff].
+      eapply runs_setl; [exact Ez|].
+      right. exists (VBv 32 (cimm E cs l)). split; [|reflexivity]. apply (Himm l Hl). apply HJ. apply (st_ext_imms _ _ X2). exact In1. }
+    intros Hst. eapply st_ext_nonempty; [exact X2|]. exact (N1 Hst).
+  Qed.
+
+  (* ------------------------------------------------------------------ x = e; *)
+  Lemma sinv_asg_var D V x sg w e :
+    lookup x V = Some (Some (ty_int sg w)) -> okw w ->
+    pfrag rw IM V e -> SInv D V (SExpr (EAssign AAssign (EOp (OIdent x)) e)) D V.
+  Proof.
+    intros Hx Hw Hfrag st Hext Hok Hp.
+    destruct (lst_ok_local IM D st x _ Hok (Hext _ _ Hx)) as [Hxi Hxs].
+    destruct (expr_sim_ext V D e st Hfrag Hext Hok) as [pv [st2 [L2 [X2 [Hok2 [G2 Hsem]]]]]].
     pose (dest := mkpv (PVarL x) (ty_int sg w) (if String.eqb (substring 0 5 x) "h_tmp" then KTmp x false else KVar x) []).
     destruct (cast_imm_ok dest pv st2 sg w Hw eq_refl G2) as [src' [C1 [T1 Hc1]]].
     exists [IAsg (mkle (ESetL x (rd src')) (pv_tmps dest ++ pv_tmps src') false) src'], st2.
@@ -723,7 +1105,7 @@ Section StmtCorrect.
     split.
     { split; [exact Hok2|]. split; [exact X2|]. split; [repeat constructor|].
       intros HR Hrem HJ cs ms fuel cs' Hrel Himm Hce.
-      pose proof Hrel as [Hrel0 [Hloc [Hmem [Hret [Hres [Hj Himl]]]]]].
+      pose proof Hrel as [Hrel0 [Hloc [Hmem [Hret [Hres [Hj [Himl [Hcloc Hvx]]]]]]]].
       destruct (Hsem st2 (st_ext_refl _) HR Hrem HJ cs ms Hrel0 Himm) as [ilv [Sv Hcv]].
       destruct (Hc1 ms ilv Sv) as [z [Hz [Ez Cz]]].
       destruct (cexec_asg_inv fuel cs _ e cs' Hret Hce) as [k [s1 [vr [lv [Ee [Eo ->]]]]]].
@@ -731,7 +1113,7 @@ Section StmtCorrect.
       destruct (proj1 Hrel0 x sg w Hx Hw) as [v [Hcx [Hv Hmx]]].
       cbn [operand_lval] in Eo. rewrite Hcx in Eo. injection Eo as <-.
       cbn [write_lval]. rewrite Cz.
-      exists (set_local ms x (VBv w z)). split; [|split; [apply srel_set_var; assumption | apply imms_done_set_local; assumption]].
+      exists (set_local ms x (VBv w z)). split; [|split; [apply srel_set_var; assumption | apply imms_done_set_local; [exact (srel_nr _ _ _ _ _ _ _ _ Hrel Hx) | exact Himm]]].
       cbn [flat_map item_effects le_empty le_term app seqn fin_eff].
       eapply runs_setl; [exact Ez|].
       right. exists (VBv w v). split; [exact Hmx | reflexivity]. }
@@ -817,14 +1199,14 @@ Section StmtCorrect.
     (do b' <- (do eq <- ty_eq (pv_ty a) (pv_ty b); if eq then ret b else init_a_cast cfg (pv_ty a) b); ret (a, b')) st.
   Proof. unfold cast_operands, bind. destruct (ty_eq (pv_ty a) (pv_ty b) st) as [[[|] s1]|]; reflexivity. Qed.
 
-  Lemma sinv_casg_var V a x sg w e :
+  Lemma sinv_casg_var D V a x sg w e :
     (a = AAdd \/ a = ASub \/ a = AMul) ->
     lookup x V = Some (Some (ty_int sg w)) -> okw w ->
-    pfrag rw IM V e -> SInv V (SExpr (EAssign a (EOp (OIdent x)) e)) V.
+    pfrag rw IM V e -> SInv D V (SExpr (EAssign a (EOp (OIdent x)) e)) D V.
   Proof.
-    intros Ha Hx Hw Hfrag st Hok Hp.
-    destruct (lst_ok_local IM V st x _ Hok Hx) as [Hxi Hxs].
-    destruct (expr_sim V e st Hfrag Hok) as [pv [st2 [L2 [X2 [Hok2 [G2 Hsem]]]]]].
+    intros Ha Hx Hw Hfrag st Hext Hok Hp.
+    destruct (lst_ok_local IM D st x _ Hok (Hext _ _ Hx)) as [Hxi Hxs].
+    destruct (expr_sim_ext V D e st Hfrag Hext Hok) as [pv [st2 [L2 [X2 [Hok2 [G2 Hsem]]]]]].
     assert (Hp2 : st_pending st2 = []) by (eapply st_ext_pending; eassumption).
     pose (kx := if String.eqb (substring 0 5 x) "h_tmp" then KTmp x false else KVar x).
     pose (dest := mkpv (PVarL x) (ty_int sg w) kx []).
@@ -862,7 +1244,7 @@ Section StmtCorrect.
     split.
     { split; [exact Hok2|]. split; [exact X2|]. split; [repeat constructor|].
       intros HR Hrem HJ cs ms fuel cs' Hrel Himm Hce.
-      pose proof Hrel as [Hrel0 [Hloc [Hmem [Hret [Hres [Hj Himl]]]]]].
+      pose proof Hrel as [Hrel0 [Hloc [Hmem [Hret [Hres [Hj [Himl [Hcloc Hvx]]]]]]]].
       destruct (proj1 Hrel0 x sg w Hx Hw) as [v0 [Hcx [Hv0 Hmx]]].
       assert (Sd : sem rw R rem ms dest (VBv w v0)) by (split; [exact Hmx | apply shape_int; exact Hv0]).
       destruct (Hsem st2 (st_ext_refl _) HR Hrem HJ cs ms Hrel0 Himm) as [ilv [Sv Hcv]].
@@ -891,7 +1273,7 @@ Section StmtCorrect.
         fold tp. rewrite Cz1. rewrite <- Cd, <- Cs. cbn [snd]. destruct tp as [sp wp]. exact Cz. }
       assert (Hcs' : cs' = CSem.set_var cs x ((sg, w), z)) by (injection Hce as <-; f_equal; exact Hval).
       subst cs'. clear Hce.
-      exists (set_local ms x (VBv w z)). split; [|split; [apply srel_set_var; assumption | apply imms_done_set_local; assumption]].
+      exists (set_local ms x (VBv w z)). split; [|split; [apply srel_set_var; assumption | apply imms_done_set_local; [exact (srel_nr _ _ _ _ _ _ _ _ Hrel Hx) | exact Himm]]].
       cbn [flat_map item_effects le_empty le_term app seqn fin_eff].
       eapply runs_setl; [exact Ez|].
       right. exists (VBv w v0). split; [exact Hmx | reflexivity]. }
@@ -931,18 +1313,18 @@ Section StmtCorrect.
     destruct (lookup_reg _ (cs_regw cs)); [reflexivity|]. destruct (write_only acc); reflexivity.
   Qed.
 
-  Lemma sinv_casg_reg V a cls letters acc e :
+  Lemma sinv_casg_reg D V a cls letters acc e :
     (a = AAdd \/ a = ASub \/ a = AMul) ->
     dest_cls cls -> access_of_letters letters = Some acc ->
     rw (RIsa cls (substring 0 1 letters) false) = dest_w cls acc ->
-    pfrag rw IM V e -> SInv V (SExpr (EAssign a (EOp (OReg cls letters)) e)) V.
+    pfrag rw IM V e -> SInv D V (SExpr (EAssign a (EOp (OReg cls letters)) e)) D V.
   Proof.
-    intros Ha Hc Hacc Hrw Hfrag st Hok Hp.
+    intros Ha Hc Hacc Hrw Hfrag st Hext Hok Hp.
     set (w := dest_w cls acc) in *. assert (Hw : okw w) by (apply dest_w_okw; exact Hc).
     set (r := RIsa cls (substring 0 1 letters) false) in *.
     destruct (lower_reg_ok cls letters acc false st (or_introl Hc) Hacc (lst_ok_regs_ok _ _ _ Hok)) as [st1 [L1 [V1 [I1 [X1 [R1 [N1 [ri1 Lk1]]]]]]]].
-    assert (Hok1 : lst_ok IM V st1) by (eapply lst_ok_regs; eassumption).
-    destruct (expr_sim V e st1 Hfrag Hok1) as [pv [st2 [L2 [X2 [Hok2 [G2 Hsem]]]]]].
+    assert (Hok1 : lst_ok IM D st1) by (eapply lst_ok_regs; eassumption).
+    destruct (expr_sim_ext V D e st1 Hfrag Hext Hok1) as [pv [st2 [L2 [X2 [Hok2 [G2 Hsem]]]]]].
     assert (Hp2 : st_pending st2 = []) by (eapply st_ext_pending; [exact X2|]; eapply st_ext_pending; eassumption).
     set (n := rname cls letters false) in *.
     pose (dest := mkpv (PRaw ("$reg:" +++ n)) (ty_int true w) (KReg n) []).
@@ -959,8 +1341,8 @@ Section StmtCorrect.
     assert (G0 : goodpv src0).
     { right. exists (fst tp), (snd tp). split; [exact A4|]. split; [exact A3 | exact I]. }
     destruct (conv_back_ok src0 st2 true w Hw G0) as [src2 [D1 [T2 [_ Hd1]]]].
-    destruct (add_write_property_ok n st2 (lst_ok_regs_ok _ _ _ Hok2)) as [st3 [W1 [V3 [I3 [X3 R3]]]]].
-    assert (Hok3 : lst_ok IM V st3) by (eapply lst_ok_regs; eassumption).
+    destruct (add_write_property_ok n st2 (lst_ok_regs_ok _ _ _ Hok2) (isa_not_pcname cls letters false (reg_cls_any false _ (or_introl Hc)) (access_in_table _ _ Hacc))) as [st3 [W1 [V3 [I3 [X3 R3]]]]].
+    assert (Hok3 : lst_ok IM D st3) by (eapply lst_ok_regs; eassumption).
     assert (P3 : st_pending st3 = []) by (eapply st_ext_pending; eassumption).
     exists [IAsg (mkle (EWriteReg (RParam ("$reg:" +++ n)) (rd src2)) (pv_tmps dest ++ pv_tmps src2) false) src2], st3.
     split.
@@ -978,7 +1360,7 @@ Section StmtCorrect.
     split.
     { split; [exact Hok3|]. split; [eapply st_ext_trans; [exact X1|]; eapply st_ext_trans; eassumption|]. split; [repeat constructor|].
       intros HR Hrem HJ cs ms fuel cs' Hrel Himm Hce.
-      pose proof Hrel as [Hrel0 [Hloc [Hmem [Hret [Hres [Hj Himl]]]]]].
+      pose proof Hrel as [Hrel0 [Hloc [Hmem [Hret [Hres [Hj [Himl [Hcloc Hvx]]]]]]]].
       pose proof Hrel0 as [_ [Hregw [Hrold _]]].
       (* the old value of the register, read on the IL side *)
       set (v0 := wrap w (match lookup_reg r (rnew ms) with Some v => v | None => if write_only acc then 0 else rold ms r end)).
@@ -1018,7 +1400,173 @@ Section StmtCorrect.
       assert (Hcs' : cs' = set_regw cs r z).
       { injection Hce as <-. apply (f_equal (set_regw cs r)). exact (f_equal snd Hval). }
       subst cs'. clear Hce.
-      exists (set_reg ms r z). split; [|split; [apply srel_set_reg; exact Hrel | apply imms_done_set_reg; exact Himm]].
+      exists (set_reg ms r z). split; [|split; [apply srel_set_reg; [exact Hrel | reflexivity] | apply imms_done_set_reg; exact Himm]].
+      cbn [flat_map item_effects le_empty le_term app seqn fin_eff].
+      assert (Lk3 : exists ri3, lookup_reg_info n (st_regs st3) = Some ri3).
+      { destruct (st_ext_regs _ _ X2 _ _ Lk1) as [ri2 [H2 _]]. destruct (st_ext_regs _ _ X3 _ _ H2) as [ri3 [H3 _]]. eauto. }
+      destruct Lk3 as [ri3 Lk3]. unfold n in *.
+      rewrite (fin_op_dest R rem (st_regs st3) cls letters acc ri3 Hc Hacc R3 Lk3 HR Hrem).
+      eapply runs_writereg; [exact Ez | exact Hrw]. }
+    intros Hst. eapply st_ext_nonempty; [exact X3|]. eapply st_ext_nonempty; [exact X2|]. exact (N1 Hst).
+  Qed.
+
+
+  (* ------------------------------------------------------------------ x &= e;  x |= e;  x ^= e;  RxV &= e; ... *)
+  Definition bfun (a : asgop) : Z -> Z -> Z := match a with AAnd => Z.land | AOr => Z.lor | _ => Z.lxor end.
+  Definition bop (a : asgop) : RzIL.binop := match a with AAnd => BLogAnd | AOr => BLogOr | _ => BLogXor end.
+  Definition is_basg (a : asgop) : Prop := a = AAnd \/ a = AOr \/ a = AXor.
+  Lemma bfun_bit a : bit_fun3 (bfun a).
+  Proof. unfold bit_fun3. destruct a; cbn; auto. Qed.
+
+  Lemma ceval_basg k s a o e : is_basg a ->
+    ceval E csub xi (S k) s (EAssign a (EOp o) e) =
+    match ceval E csub xi k s e with
+    | Some (s1, vr) =>
+        match operand_lval E xi s1 o with
+        | Some lv => match read_lval E s1 lv with
+                     | Some old => Some (write_lval s1 lv (c_bitop (bfun a) old vr), conv (lval_ty lv) (c_bitop (bfun a) old vr))
+                     | None => None end
+        | None => None end
+    | None => None end.
+  Proof. intros [-> | [-> | ->]]; reflexivity. Qed.
+
+  (* the tail of the model's assignment callback for the bitwise compound operators: no promotion, the operation is done
+     at the type of the destination, and the conversion back (D14) is the identity *)
+  Lemma basg_tail_ok a dest pv src' asg st2 st3 sg w : is_basg a -> pv_ty dest = ty_int sg w ->
+    cast_operands cfg true dest pv st2 = OK ((dest, src'), st2) ->
+    mk_assign dest (mkpv (PBin (bop a) (rd dest) (rd src')) (ty_int sg w) KExec (pv_tmps dest ++ pv_tmps src')) st2 = OK (asg, st3) ->
+    st_pending st3 = [] ->
+    casg_tail a (IPure dest) (IPure pv) st2 =
+    OK (IAsg asg (mkpv (PBin (bop a) (rd dest) (rd src')) (ty_int sg w) KExec (pv_tmps dest ++ pv_tmps src')), st3).
+  Proof.
+    intros Ha Hd Hco Hm Hp. unfold casg_tail.
+    unfold bind at 1. unfold ret at 1. unfold bind at 1. unfold ret at 1. cbv beta iota.
+    destruct Ha as [-> | [-> | ->]]; unfold bind at 1; rewrite Hco; cbv beta iota; cbn [compound_src];
+    unfold bind at 1; unfold bind at 1; unfold need_numeric; rewrite Hd; cbn [is_numeric ty_int vt_void vt_ext negb andb];
+    unfold ret at 1; unfold ret at 1; cbn [fx cfg_fx fx_compound_conv all_fixes pv_ty];
+    unfold bind at 1; unfold bind at 1; unfold ty_eq; cbn [is_numeric ty_int vt_void vt_ext negb andb]; unfold ret at 1;
+    rewrite vtype_eqb_refl; unfold ret at 1;
+    unfold bitop_il_exec; cbn [String.eqb Ascii.eqb Bool.eqb bop] in *;
+    unfold bind; rewrite Hm; rewrite ?hyb_nil by exact Hp; rewrite chk_nil by exact Hp; reflexivity.
+  Qed.
+
+  Lemma sinv_basg_var D V a x sg w e :
+    is_basg a -> lookup x V = Some (Some (ty_int sg w)) -> okw w ->
+    pfrag rw IM V e -> SInv D V (SExpr (EAssign a (EOp (OIdent x)) e)) D V.
+  Proof.
+    intros Ha Hx Hw Hfrag st Hext Hok Hp.
+    destruct (lst_ok_local IM D st x _ Hok (Hext _ _ Hx)) as [Hxi Hxs].
+    destruct (expr_sim_ext V D e st Hfrag Hext Hok) as [pv [st2 [L2 [X2 [Hok2 [G2 Hsem]]]]]].
+    assert (Hp2 : st_pending st2 = []) by (eapply st_ext_pending; eassumption).
+    pose (kx := if String.eqb (substring 0 5 x) "h_tmp" then KTmp x false else KVar x).
+    pose (dest := mkpv (PVarL x) (ty_int sg w) kx []).
+    destruct (conv_back_ok pv st2 sg w Hw G2) as [src' [C1 [T1 [G1 Hc1]]]].
+    pose (src0 := mkpv (PBin (bop a) (rd dest) (rd src')) (ty_int sg w) KExec (pv_tmps dest ++ pv_tmps src')).
+    exists [IAsg (mkle (ESetL x (rd src0)) (pv_tmps dest ++ pv_tmps src0) false) src0], st2.
+    split.
+    { rewrite lower_stmt_expr, lower_expr_casg, lower_expr_op. cbn [lower_operand cfg_params lookup].
+      unfold bind at 1. unfold bind at 1. unfold bind at 1. unfold get. rewrite Hxs. unfold ret at 1.
+      unfold bind at 1. rewrite L2. fold kx. fold dest.
+      assert (Hco : cast_operands cfg true dest pv st2 = OK ((dest, src'), st2)).
+      { rewrite cast_operands_imm. unfold bind at 1. change (pv_ty dest) with (ty_int sg w). rewrite C1. reflexivity. }
+      rewrite (basg_tail_ok a dest pv src' _ st2 st2 sg w Ha eq_refl Hco (mk_assign_var dest src0 st2 x eq_refl
+                 ltac:(unfold dest, kx; cbn [pv_kind]; destruct (String.eqb (substring 0 5 x) "h_tmp"); eauto)) Hp2).
+      reflexivity. }
+    split.
+    { split; [exact Hok2|]. split; [exact X2|]. split; [repeat constructor|].
+      intros HR Hrem HJ cs ms fuel cs' Hrel Himm Hce.
+      pose proof Hrel as [Hrel0 [Hloc [Hmem [Hret [Hres [Hj [Himl [Hcloc Hvx]]]]]]]].
+      destruct (proj1 Hrel0 x sg w Hx Hw) as [v0 [Hcx [Hv0 Hmx]]].
+      destruct (Hsem st2 (st_ext_refl _) HR Hrem HJ cs ms Hrel0 Himm) as [ilv [Sv Hcv]].
+      destruct (Hc1 ms ilv Sv) as [z1 [Hz1 [Ez1 Cz1]]].
+      pose proof (bit_fun3_range (bfun a) w v0 z1 (bfun_bit a) Hw Hv0 Hz1) as Hz.
+      assert (Ez : eval rw ms [] (fin_pure R rem (pv_term src0)) = Some (VBv w (bfun a v0 z1))).
+      { unfold src0. cbn [pv_term fin_pure eval]. unfold rd at 1. cbn [pv_term dest fin_pure eval]. unfold rd. rewrite Hmx, Ez1, N.eqb_refl.
+        destruct Ha as [-> | [-> | ->]]; reflexivity. }
+      destruct fuel as [|[|k]]; [rewrite cexec_0 in Hce; discriminate Hce| |]; rewrite cexec_expr in Hce by exact Hret.
+      { rewrite ceval_0 in Hce. discriminate Hce. }
+      rewrite (ceval_basg k cs a (OIdent x) e Ha) in Hce.
+      destruct (ceval E csub xi k cs e) as [[s1 vr]|] eqn:Ee; [|discriminate Hce].
+      destruct (Hcv k s1 vr Ee) as [-> ->].
+      cbn [operand_lval] in Hce. rewrite Hcx in Hce. cbn [read_lval] in Hce. rewrite Hcx in Hce.
+      cbn [option_map fst write_lval] in Hce.
+      assert (Hval : conv (sg, w) (c_bitop (bfun a) ((sg, w), v0) (cval_of (pv_ty pv) ilv)) = ((sg, w), bfun a v0 z1)).
+      { rewrite bit_compound_value; [| exact Hw | apply wfc_cval_of; [exact G2 | apply Sv] | apply bfun_bit | exact Hv0].
+        rewrite Cz1. reflexivity. }
+      assert (Hcs' : cs' = CSem.set_var cs x ((sg, w), bfun a v0 z1)) by (injection Hce as <-; f_equal; exact Hval).
+      subst cs'. clear Hce.
+      exists (set_local ms x (VBv w (bfun a v0 z1))). split; [|split; [apply srel_set_var; assumption | apply imms_done_set_local; [exact (srel_nr _ _ _ _ _ _ _ _ Hrel Hx) | exact Himm]]].
+      cbn [flat_map item_effects le_empty le_term app seqn fin_eff].
+      eapply runs_setl; [exact Ez|].
+      right. exists (VBv w v0). split; [exact Hmx | reflexivity]. }
+    intros [Hst | [Hst _]]; [exact (st_ext_nonempty _ _ X2 Hst)|]. rewrite Hst in Hxs. discriminate Hxs.
+  Qed.
+
+  Lemma sinv_basg_reg D V a cls letters acc e :
+    is_basg a -> dest_cls cls -> access_of_letters letters = Some acc ->
+    rw (RIsa cls (substring 0 1 letters) false) = dest_w cls acc ->
+    pfrag rw IM V e -> SInv D V (SExpr (EAssign a (EOp (OReg cls letters)) e)) D V.
+  Proof.
+    intros Ha Hc Hacc Hrw Hfrag st Hext Hok Hp.
+    set (w := dest_w cls acc) in *. assert (Hw : okw w) by (apply dest_w_okw; exact Hc).
+    set (r := RIsa cls (substring 0 1 letters) false) in *.
+    destruct (lower_reg_ok cls letters acc false st (or_introl Hc) Hacc (lst_ok_regs_ok _ _ _ Hok)) as [st1 [L1 [V1 [I1 [X1 [R1 [N1 [ri1 Lk1]]]]]]]].
+    assert (Hok1 : lst_ok IM D st1) by (eapply lst_ok_regs; eassumption).
+    destruct (expr_sim_ext V D e st1 Hfrag Hext Hok1) as [pv [st2 [L2 [X2 [Hok2 [G2 Hsem]]]]]].
+    assert (Hp2 : st_pending st2 = []) by (eapply st_ext_pending; [exact X2|]; eapply st_ext_pending; eassumption).
+    set (n := rname cls letters false) in *.
+    pose (dest := mkpv (PRaw ("$reg:" +++ n)) (ty_int true w) (KReg n) []).
+    destruct (conv_back_ok pv st2 true w Hw G2) as [src' [C1 [T1 [G1 Hc1]]]].
+    pose (src0 := mkpv (PBin (bop a) (rd dest) (rd src')) (ty_int true w) KExec (pv_tmps dest ++ pv_tmps src')).
+    destruct (add_write_property_ok n st2 (lst_ok_regs_ok _ _ _ Hok2) (isa_not_pcname cls letters false (reg_cls_any false _ (or_introl Hc)) (access_in_table _ _ Hacc))) as [st3 [W1 [V3 [I3 [X3 R3]]]]].
+    assert (Hok3 : lst_ok IM D st3) by (eapply lst_ok_regs; eassumption).
+    assert (P3 : st_pending st3 = []) by (eapply st_ext_pending; eassumption).
+    exists [IAsg (mkle (EWriteReg (RParam ("$reg:" +++ n)) (rd src0)) (pv_tmps dest ++ pv_tmps src0) false) src0], st3.
+    split.
+    { rewrite lower_stmt_expr, lower_expr_casg, lower_expr_op. cbn [lower_operand].
+      unfold bind at 1. unfold bind at 1. unfold bind at 1. rewrite L1. unfold ret at 1. unfold bind at 1. rewrite L2.
+      fold dest.
+      assert (Hco : cast_operands cfg true dest pv st2 = OK ((dest, src'), st2)).
+      { rewrite cast_operands_imm. unfold bind at 1. change (pv_ty dest) with (ty_int true w). rewrite C1. reflexivity. }
+      change (mkpv (PRaw ("$reg:" +++ n)) (ty_int true (dest_w cls acc)) (KReg n) []) with dest.
+      rewrite (basg_tail_ok a dest pv src' _ st2 st3 true w Ha eq_refl Hco (mk_assign_reg dest src0 st2 st3 n eq_refl eq_refl W1) P3).
+      reflexivity. }
+    split.
+    { split; [exact Hok3|]. split; [eapply st_ext_trans; [exact X1|]; eapply st_ext_trans; eassumption|]. split; [repeat constructor|].
+      intros HR Hrem HJ cs ms fuel cs' Hrel Himm Hce.
+      pose proof Hrel as [Hrel0 [Hloc [Hmem [Hret [Hres [Hj [Himl [Hcloc Hvx]]]]]]]].
+      pose proof Hrel0 as [_ [Hregw [Hrold _]]].
+      set (v0 := wrap w (match lookup_reg r (rnew ms) with Some v => v | None => if write_only acc then 0 else rold ms r end)).
+      assert (Hv0 : 0 <= v0 < pow2 w) by apply wrap_range.
+      assert (Hle2 : regs_le (st_regs st1) R).
+      { eapply regs_le_trans; [exact (st_ext_regs _ _ X2)|]. eapply regs_le_trans; [exact (st_ext_regs _ _ X3) | exact HR]. }
+      assert (Ed : eval rw ms [] (fin_pure R rem (pv_term dest)) = Some (VBv w v0)).
+      { unfold dest. cbn [pv_term]. unfold n.
+        rewrite (fin_reg_read R rem (st_regs st1) cls letters acc false ri1 (or_introl Hc) Hacc R1 Lk1 Hle2 Hrem).
+        cbn [eval]. rewrite orb_false_r, (rop_dest cls letters false Hc), (read_reg_src rw ms cls letters acc Hacc).
+        fold r. rewrite Hrw. reflexivity. }
+      destruct (Hsem st3 X3 HR Hrem HJ cs ms Hrel0 Himm) as [ilv [Sv Hcv]].
+      destruct (Hc1 ms ilv Sv) as [z1 [Hz1 [Ez1 Cz1]]].
+      pose proof (bit_fun3_range (bfun a) w v0 z1 (bfun_bit a) Hw Hv0 Hz1) as Hz.
+      assert (Ez : eval rw ms [] (fin_pure R rem (pv_term src0)) = Some (VBv w (bfun a v0 z1))).
+      { unfold src0. cbn [pv_term fin_pure eval]. unfold rd at 1. rewrite Ed. unfold rd. rewrite Ez1, N.eqb_refl.
+        destruct Ha as [-> | [-> | ->]]; reflexivity. }
+      destruct fuel as [|[|k]]; [rewrite cexec_0 in Hce; discriminate Hce| |]; rewrite cexec_expr in Hce by exact Hret.
+      { rewrite ceval_0 in Hce. discriminate Hce. }
+      rewrite (ceval_basg k cs a (OReg cls letters) e Ha) in Hce.
+      destruct (ceval E csub xi k cs e) as [[s1 vr]|] eqn:Ee; [|discriminate Hce].
+      destruct (Hcv k s1 vr Ee) as [-> ->].
+      destruct (operand_lval E xi cs (OReg cls letters)) as [lv|] eqn:Eo; [|discriminate Hce].
+      destruct (read_lval_reg cs cls letters acc lv Hc Hacc Eo) as [-> Erd]. rewrite Erd in Hce.
+      cbn [option_map fst write_lval] in Hce. fold r w in Hce. rewrite Hregw, Hrold in Hce.
+      unfold mkval in Hce. cbn [snd] in Hce. fold v0 in Hce.
+      assert (Hval : conv (true, w) (c_bitop (bfun a) ((true, w), v0) (cval_of (pv_ty pv) ilv)) = ((true, w), bfun a v0 z1)).
+      { rewrite bit_compound_value; [| exact Hw | apply wfc_cval_of; [exact G2 | apply Sv] | apply bfun_bit | exact Hv0].
+        rewrite Cz1. reflexivity. }
+      assert (Hcs' : cs' = set_regw cs r (bfun a v0 z1)).
+      { injection Hce as <-. apply (f_equal (set_regw cs r)). exact (f_equal snd Hval). }
+      subst cs'. clear Hce.
+      exists (set_reg ms r (bfun a v0 z1)). split; [|split; [apply srel_set_reg; [exact Hrel | reflexivity] | apply imms_done_set_reg; exact Himm]].
       cbn [flat_map item_effects le_empty le_term app seqn fin_eff].
       assert (Lk3 : exists ri3, lookup_reg_info n (st_regs st3) = Some ri3).
       { destruct (st_ext_regs _ _ X2 _ _ Lk1) as [ri2 [H2 _]]. destruct (st_ext_regs _ _ X3 _ _ H2) as [ri3 [H3 _]]. eauto. }
@@ -1045,14 +1593,14 @@ Section StmtCorrect.
       apply lookup_snoc_some. exact C.
   Qed.
 
-  Lemma sinv_decl V ts sg w x e :
-    decl_ty ts sg w -> lookup x V = None -> ~ reserved IM x ->
-    pfrag rw IM V e -> SInv V (SDecl ts x (Some e)) (V ++ [(x, Some (ty_int sg w))]).
+  Lemma sinv_decl D V ts sg w x e :
+    decl_ty ts sg w -> lookup x D = None -> ~ reserved IM x ->
+    pfrag rw IM V e -> SInv D V (SDecl ts x (Some e)) (D ++ [(x, Some (ty_int sg w))]) (V ++ [(x, Some (ty_int sg w))]).
   Proof.
-    intros Hts Hx Hnr Hfrag st Hok Hp.
+    intros Hts Hx Hnr Hfrag st Hext Hok Hp. pose proof (vext_none V D x Hext Hx) as HxV.
     destruct (not_reserved_imm IM x Hnr) as [Hxi _].
     destruct (decl_ty_ok ts sg w st Hts) as [Hdt [Hrc Hw]].
-    destruct (expr_sim V e st Hfrag Hok) as [pv [st2 [L2 [X2 [Hok2 [G2 Hsem]]]]]].
+    destruct (expr_sim_ext V D e st Hfrag Hext Hok) as [pv [st2 [L2 [X2 [Hok2 [G2 Hsem]]]]]].
     assert (Hp2 : st_pending st2 = []) by (eapply st_ext_pending; eassumption).
     assert (Hx2 : lookup x (st_vars st2) = None) by (rewrite (proj1 Hok2 x Hxi); exact Hx).
     set (st3 := mkst (st_vars st2 ++ [(x, Some (ty_int sg w))]) (st_regs st2) (st_pending st2) (st_hcount st2) (st_imms st2) true (st_removed st2)).
@@ -1069,7 +1617,7 @@ Section StmtCorrect.
     split.
     { split; [apply lst_ok_decl; assumption|]. split; [eapply st_ext_trans; eassumption|]. split; [repeat constructor|].
       intros HR Hrem HJ cs ms fuel cs' Hrel Himm Hce.
-      pose proof Hrel as [Hrel0 [Hloc [Hmem [Hret [Hres [Hj Himl]]]]]].
+      pose proof Hrel as [Hrel0 [Hloc [Hmem [Hret [Hres [Hj [Himl [Hcloc Hvx]]]]]]]].
       destruct (Hsem st3 X3 HR Hrem HJ cs ms Hrel0 Himm) as [ilv [Sv Hcv]].
       destruct (Hc2 ms ilv Sv) as [z [Hz [Ez Cz]]].
       destruct fuel as [|k]; [rewrite cexec_0 in Hce; discriminate Hce|].
@@ -1078,38 +1626,166 @@ Section StmtCorrect.
       destruct (Hcv k s1 vr Ee) as [-> ->]. injection Hce as <-. rewrite Cz.
       exists (set_local ms x (VBv w z)). split; [|split; [apply srel_decl; assumption | apply imms_done_set_local; assumption]].
       cbn [flat_map item_effects le_empty le_term app seqn fin_eff].
-      eapply runs_setl; [exact Ez|]. left. exact (Hloc x Hx Hnr). }
+      eapply runs_setl; [exact Ez|]. left. exact (Hloc x HxV Hnr). }
     intros _. reflexivity.
   Qed.
 
-  (* ------------------------------------------------------------------ ; , NOP, {} *)
-  Definition touched (st : lstate) : lstate :=
-    mkst (st_vars st) (st_regs st) (st_pending st) (st_hcount st) (st_imms st) true (st_removed st).
-  Lemma touch_eq st : touch st = OK (tt, touched st).
+  (* ------------------------------------------------------------------ T x;   (declared, no value yet) *)
+  Lemma lower_stmt_decl0 ts x :
+    lower_stmt cfg (SDecl ts x None) =
+    (do ty <- decl_type ts;
+     do s0 <- get;
+     do _ <- (match lookup x (cfg_params cfg) with Some _ => fail "already defined as parameter" | None => ret tt end);
+     do _ <- (if existsb (fun p => String.eqb (fst p) x) (st_vars s0) then ret tt else set_var x (Some ty));
+     do _ <- touch;
+     do r <- chk_hybrid_dep empty_eff false false; ret [IEff r]).
   Proof. reflexivity. Qed.
-  Lemma st_ext_touched st : st_ext st (touched st).
-  Proof. unfold st_ext, touched; cbn. repeat split; auto using incl_refl, regs_le_refl. Qed.
+  Lemma cexec_decl0 k s t x : cs_ret s = None ->
+    cexec E csub xi (S k) s (SDecl t x None) =
+    match resolve_ty_c t with
+    | Some ty => Some (mkcs ((x, (ty, None)) :: cs_vars s) (cs_regw s) (cs_mem s) (cs_jump s) (cs_ret s) (cs_events s))
+    | None => None end.
+  Proof. intros H. cbn [cexec]. rewrite H. reflexivity. Qed.
+
+  Lemma sinv_decl0 D V ts sg w x :
+    decl_ty ts sg w -> lookup x D = None -> ~ reserved IM x ->
+    SInv D V (SDecl ts x None) (D ++ [(x, Some (ty_int sg w))]) V.
+  Proof.
+    intros Hts Hx Hnr st Hext Hok Hp.
+    destruct (not_reserved_imm IM x Hnr) as [Hxi _].
+    destruct (decl_ty_ok ts sg w st Hts) as [Hdt [Hrc Hw]].
+    assert (Hx2 : lookup x (st_vars st) = None) by (rewrite (proj1 Hok x Hxi); exact Hx).
+    set (st3 := mkst (st_vars st ++ [(x, Some (ty_int sg w))]) (st_regs st) (st_pending st) (st_hcount st) (st_imms st) true (st_removed st)).
+    exists [IEff empty_eff], st3.
+    split.
+    { rewrite lower_stmt_decl0. unfold bind at 1. rewrite Hdt. unfold bind at 1. unfold get. cbn [cfg_params lookup].
+      unfold bind at 1. unfold ret at 1. unfold bind at 1.
+      rewrite (lookup_none_existsb x _ Hx2). rewrite (set_var_fresh x _ st Hx2). fold st3.
+      unfold bind at 1. rewrite touch_eq. change (touched st3) with st3.
+      unfold bind. rewrite chk_nil by (unfold st3; cbn [st_pending]; exact Hp). reflexivity. }
+    split; [|intros _; reflexivity].
+    split; [apply lst_ok_decl; assumption|].
+    split. { unfold st_ext, st3; cbn [st_pending st_hcount st_imms st_removed st_nonempty st_regs]. repeat split; auto using incl_refl, regs_le_refl. }
+    split; [repeat constructor|].
+    intros HR Hrem HJ cs ms fuel cs' Hrel Himm Hce.
+    destruct fuel as [|k]; [rewrite cexec_0 in Hce; discriminate Hce|].
+    rewrite cexec_decl0 in Hce by (apply (srel_ret _ _ _ _ _ _ Hrel)). rewrite Hrc in Hce. injection Hce as <-.
+    exists ms. split; [|split; [apply srel_decl0; assumption|]].
+    2:{ revert Himm. apply imms_done_gen; [|reflexivity]. intros l _.
+        destruct (not_reserved_imm IM x Hnr) as [_ Hic]. unfold cimm. cbn [cs_vars lookup]. rewrite (imm_cname_neq x l Hic). reflexivity. }
+    cbn [flat_map item_effects le_empty empty_eff app seqn fin_eff]. apply runs_empty. reflexivity.
+  Qed.
+
+  (* ------------------------------------------------------------------ x = e;   (the first assignment of a local declared without initialiser) *)
+  Lemma sinv_asg_first D V x sg w e :
+    lookup x D = Some (Some (ty_int sg w)) -> lookup x V = None -> okw w ->
+    pfrag rw IM V e -> SInv D V (SExpr (EAssign AAssign (EOp (OIdent x)) e)) D (V ++ [(x, Some (ty_int sg w))]).
+  Proof.
+    intros Hx HxV Hw Hfrag st Hext Hok Hp.
+    destruct (lst_ok_local IM D st x _ Hok Hx) as [Hxi Hxs].
+    destruct (expr_sim_ext V D e st Hfrag Hext Hok) as [pv [st2 [L2 [X2 [Hok2 [G2 Hsem]]]]]].
+    pose (dest := mkpv (PVarL x) (ty_int sg w) (if String.eqb (substring 0 5 x) "h_tmp" then KTmp x false else KVar x) []).
+    destruct (cast_imm_ok dest pv st2 sg w Hw eq_refl G2) as [src' [C1 [T1 Hc1]]].
+    exists [IAsg (mkle (ESetL x (rd src')) (pv_tmps dest ++ pv_tmps src') false) src'], st2.
+    split.
+    { rewrite lower_stmt_expr, lower_expr_asg, lower_expr_op. cbn [lower_operand cfg_params lookup].
+      unfold asg_tail, bind, ret, get. rewrite Hxs. cbv beta iota. step L2. fold dest. step C1.
+      cbn [compound_src]. unfold ret.
+      rewrite (mk_assign_var dest src' st2 x eq_refl).
+      2:{ unfold dest. cbn [pv_kind]. destruct (String.eqb (substring 0 5 x) "h_tmp"); eauto. }
+      rewrite ?hyb_nil by (eapply st_ext_pending; eassumption); rewrite chk_nil by (eapply st_ext_pending; eassumption). reflexivity. }
+    split.
+    { split; [exact Hok2|]. split; [exact X2|]. split; [repeat constructor|].
+      intros HR Hrem HJ cs ms fuel cs' Hrel Himm Hce.
+      pose proof Hrel as [Hrel0 [Hloc [Hmem [Hret [Hres [Hj [Himl [Hcloc Hvx]]]]]]]].
+      assert (Hnr : ~ reserved IM x) by (intros Hr; rewrite (Hres x Hr) in Hx; discriminate Hx).
+      destruct (Hsem st2 (st_ext_refl _) HR Hrem HJ cs ms Hrel0 Himm) as [ilv [Sv Hcv]].
+      destruct (Hc1 ms ilv Sv) as [z [Hz [Ez Cz]]].
+      destruct (cexec_asg_inv fuel cs _ e cs' Hret Hce) as [k [s1 [vr [lv [Ee [Eo ->]]]]]].
+      destruct (Hcv k s1 vr Ee) as [-> ->].
+      pose proof (Hcloc x HxV Hnr) as Hcx. rewrite Hx in Hcx. cbn [vt_sg vt_w ty_int] in Hcx.
+      cbn [operand_lval] in Eo. rewrite Hcx in Eo. injection Eo as <-.
+      cbn [write_lval]. rewrite Cz.
+      exists (set_local ms x (VBv w z)). split; [|split; [apply srel_first; assumption | apply imms_done_set_local; assumption]].
+      cbn [flat_map item_effects le_empty le_term app seqn fin_eff].
+      eapply runs_setl; [exact Ez|]. left. exact (Hloc x HxV Hnr). }
+    intros [Hst | [Hst _]]; [exact (st_ext_nonempty _ _ X2 Hst)|]. rewrite Hst in Hxs. discriminate Hxs.
+  Qed.
+
+
+  (* ------------------------------------------------------------------ EA = e;  (first assignment: implicit declaration) *)
+  Lemma lower_operand_implicit x st : implicit_name x -> lookup x (st_vars st) = None ->
+    lower_operand cfg (OIdent x) st =
+    OK (IPure (mkpv (PVarL x) (ty_int false 32) (KVar x) []),
+        mkst (st_vars st ++ [(x, Some (ty_int false 32))]) (st_regs st) (st_pending st) (st_hcount st) (st_imms st) true (st_removed st)).
+  Proof.
+    intros [-> | [-> | [-> | ->]]] H; cbn [lower_operand cfg_params lookup]; unfold bind, get; rewrite H; reflexivity.
+  Qed.
+  Lemma operand_lval_implicit cs x : implicit_name x -> lookup x (cs_vars cs) = None ->
+    operand_lval E xi cs (OIdent x) = Some (LVar x (false, 32%N)).
+  Proof. intros [-> | [-> | [-> | ->]]] H; cbn [operand_lval]; rewrite H; reflexivity. Qed.
+
+  Lemma sinv_asg_implicit D V x e : implicit_name x -> lookup x D = None -> ~ reserved IM x ->
+    pfrag rw IM V e ->
+    SInv D V (SExpr (EAssign AAssign (EOp (OIdent x)) e)) (D ++ [(x, Some (ty_int false 32))]) (V ++ [(x, Some (ty_int false 32))]).
+  Proof.
+    intros Hi Hx Hnr Hfrag st Hext Hok Hp. pose proof (vext_none V D x Hext Hx) as HxV.
+    destruct (not_reserved_imm IM x Hnr) as [Hxi _].
+    assert (Hxs : lookup x (st_vars st) = None) by (rewrite (proj1 Hok x Hxi); exact Hx).
+    set (st1 := mkst (st_vars st ++ [(x, Some (ty_int false 32))]) (st_regs st) (st_pending st) (st_hcount st) (st_imms st) true (st_removed st)).
+    assert (Hok1 : lst_ok IM (D ++ [(x, Some (ty_int false 32))]) st1) by (apply lst_ok_decl; assumption).
+    assert (X1 : st_ext st st1).
+    { unfold st_ext, st1; cbn [st_pending st_hcount st_imms st_removed st_nonempty st_regs]. repeat split; auto using incl_refl, regs_le_refl. }
+    destruct (expr_sim_ext V (D ++ [(x, Some (ty_int false 32))]) e st1 Hfrag (vext_app_r V D x _ Hext) Hok1) as [pv [st2 [L2 [X2 [Hok2 [G2 Hsem]]]]]].
+    assert (Hp2 : st_pending st2 = []) by (eapply st_ext_pending; [exact X2|]; eapply st_ext_pending; eassumption).
+    pose (dest := mkpv (PVarL x) (ty_int false 32) (KVar x) []).
+    destruct (cast_imm_ok dest pv st2 false 32 okw32 eq_refl G2) as [src' [C1 [T1 Hc1]]].
+    exists [IAsg (mkle (ESetL x (rd src')) (pv_tmps dest ++ pv_tmps src') false) src'], st2.
+    split.
+    { rewrite lower_stmt_expr, lower_expr_asg, lower_expr_op. unfold bind at 1. unfold bind at 1.
+      rewrite (lower_operand_implicit x st Hi Hxs). fold st1. unfold bind at 1. rewrite L2.
+      unfold asg_tail, bind, ret. fold dest. step C1. cbn [compound_src]. unfold ret.
+      rewrite (mk_assign_var dest src' st2 x eq_refl) by (left; reflexivity).
+      rewrite ?hyb_nil by exact Hp2; rewrite chk_nil by exact Hp2. reflexivity. }
+    split.
+    { split; [exact Hok2|]. split; [eapply st_ext_trans; eassumption|]. split; [repeat constructor|].
+      intros HR Hrem HJ cs ms fuel cs' Hrel Himm Hce.
+      pose proof Hrel as [Hrel0 [Hloc [Hmem [Hret [Hres [Hj [Himl [Hcloc Hvx]]]]]]]].
+      destruct (Hsem st2 (st_ext_refl _) HR Hrem HJ cs ms Hrel0 Himm) as [ilv [Sv Hcv]].
+      destruct (Hc1 ms ilv Sv) as [z [Hz [Ez Cz]]].
+      destruct (cexec_asg_inv fuel cs _ e cs' Hret Hce) as [k [s1 [vr [lv [Ee [Eo ->]]]]]].
+      destruct (Hcv k s1 vr Ee) as [-> ->].
+      pose proof (Hcloc x HxV Hnr) as Hcx. rewrite Hx in Hcx.
+      rewrite (operand_lval_implicit cs x Hi Hcx) in Eo. injection Eo as <-.
+      cbn [write_lval]. rewrite Cz.
+      exists (set_local ms x (VBv 32 z)). split; [|split; [apply srel_decl; assumption | apply imms_done_set_local; assumption]].
+      cbn [flat_map item_effects le_empty le_term app seqn fin_eff].
+      eapply runs_setl; [exact Ez|]. left. exact (Hloc x HxV Hnr). }
+    intros _. eapply st_ext_nonempty; [exact X2 | reflexivity].
+  Qed.
+
+  (* ------------------------------------------------------------------ ; , NOP, {} *)
   Lemma lst_ok_touched V st : lst_ok IM V st -> lst_ok IM V (touched st).
   Proof. intros H. eapply lst_ok_regs; [exact H | reflexivity | reflexivity | apply H]. Qed.
 
-  Lemma sinv_skip V s items eff :
+  Lemma sinv_skip D V s items eff :
     (forall st, st_pending st = [] -> lower_stmt cfg s st = OK (items, touched st)) ->
     Forall plain_item items -> seqn (flat_map item_effects items) = eff -> (eff = EEmpty \/ eff = ENop) ->
     (forall fuel cs cs', cs_ret cs = None -> cexec E csub xi fuel cs s = Some cs' -> cs' = cs) ->
-    SInv V s V.
+    SInv D V s D V.
   Proof.
-    intros Hlow Hplain Heff Hskip Hc st Hok Hp.
+    intros Hlow Hplain Heff Hskip Hc st Hext Hok Hp.
     exists items, (touched st). split; [apply Hlow; exact Hp|]. split; [|reflexivity].
     split; [apply lst_ok_touched; exact Hok|]. split; [apply st_ext_touched|]. split; [exact Hplain|].
     intros HR Hrem HJ cs ms fuel cs' Hrel Himm Hce.
-    rewrite (Hc fuel cs cs' (srel_ret _ _ _ _ _ Hrel) Hce).
+    rewrite (Hc fuel cs cs' (srel_ret _ _ _ _ _ _ Hrel) Hce).
     exists ms. split; [|split; [exact Hrel | exact Himm]]. rewrite Heff.
     destruct Hskip as [-> | ->]; cbn [fin_eff]; [apply runs_empty | apply runs_nop]; reflexivity.
   Qed.
 
-  Lemma sinv_empty V : SInv V SEmpty V.
+  Lemma sinv_empty D V : SInv D V SEmpty D V.
   Proof.
-    apply (sinv_skip V SEmpty [IEff empty_eff] EEmpty).
+    apply (sinv_skip D V SEmpty [IEff empty_eff] EEmpty).
     - intros st Hp. rewrite lower_stmt_empty. unfold bind. rewrite touch_eq.
       rewrite ?hyb_nil by exact Hp; rewrite chk_nil by exact Hp. reflexivity.
     - repeat constructor.
@@ -1119,9 +1795,9 @@ Section StmtCorrect.
       rewrite cexec_empty in H by exact Hret. congruence.
   Qed.
 
-  Lemma sinv_nop V : SInv V SNop V.
+  Lemma sinv_nop D V : SInv D V SNop D V.
   Proof.
-    apply (sinv_skip V SNop [IEff (mkle ENop [] false)] ENop).
+    apply (sinv_skip D V SNop [IEff (mkle ENop [] false)] ENop).
     - intros st Hp. rewrite lower_stmt_nop. unfold bind. rewrite touch_eq. reflexivity.
     - repeat constructor.
     - reflexivity.
@@ -1130,9 +1806,28 @@ Section StmtCorrect.
       rewrite cexec_nop in H by exact Hret. congruence.
   Qed.
 
-  Lemma sinv_block_nil V : SInv V (SBlock SNil) V.
+  (* cancel_slot: the compiler emits NOP.  CSem gives the statement no meaning at all (cexec = None: the field
+     cs_events that was meant to record it is never written), so the simulation holds vacuously on every path
+     that executes it; what the theorem does give for a behaviour containing it is the lowering itself and the
+     simulation of all the paths that do NOT reach the cancel_slot. *)
+  Lemma lower_stmt_cancel : lower_stmt cfg SCancel = (do _ <- touch; do r <- chk_hybrid_dep (mkle ENop [] false) false false; ret [IEff r]).
+  Proof. reflexivity. Qed.
+  Lemma cexec_cancel fuel s : cexec E csub xi fuel s SCancel = match fuel with O => None | S _ => match cs_ret s with Some _ => Some s | None => None end end.
+  Proof. destruct fuel; reflexivity. Qed.
+  Lemma sinv_cancel D V : SInv D V SCancel D V.
   Proof.
-    apply (sinv_skip V (SBlock SNil) [IEff empty_eff] EEmpty).
+    apply (sinv_skip D V SCancel [IEff (mkle ENop [] false)] ENop).
+    - intros st Hp. rewrite lower_stmt_cancel. unfold bind. rewrite touch_eq.
+      rewrite ?hyb_nil by exact Hp; rewrite chk_nil by exact Hp. reflexivity.
+    - repeat constructor.
+    - reflexivity.
+    - auto.
+    - intros fuel cs cs' Hret H. rewrite cexec_cancel, Hret in H. destruct fuel; discriminate H.
+  Qed.
+
+  Lemma sinv_block_nil D V : SInv D V (SBlock SNil) D V.
+  Proof.
+    apply (sinv_skip D V (SBlock SNil) [IEff empty_eff] EEmpty).
     - intros st Hp. rewrite lower_stmt_block_nil. unfold bind. rewrite touch_eq.
       rewrite ?hyb_nil by exact Hp; rewrite chk_nil by exact Hp. reflexivity.
     - repeat constructor.
@@ -1209,53 +1904,25 @@ Section StmtCorrect.
         destruct (sg && sg0); cbn [fin_pure eval]; rewrite He; f_equal; f_equal; apply cast_narrow; auto; lia.
   Qed.
 
-  (* the address: converted to the 32-bit address type (D20 repaired) *)
-  Lemma addr_ok p st : goodpv p ->
-    exists p', addr_of cfg p st = OK (p', st) /\
-      forall ms v, sem rw R rem ms p v ->
-        exists w1 z, eval rw ms [] (fin_pure R rem (pv_term p')) = Some (VBv w1 z) /\
-                     snd (conv (false, 32%N) (cval_of (pv_ty p) v)) = z.
+  Lemma srel_store D V cs ms a v n : srel IM E D V cs ms -> srel IM E D V (c_store cs a v n) (set_mem ms (write_bytes (mem ms) a v n)).
   Proof.
-    intros Hg.
-    destruct (int_of_bool_ok subsigs macs cret hstart rw R rem p st Hg) as [p1 [s1 [w1 [I1 [G1 [T1 [W1 I5]]]]]]].
-    unfold addr_of. unfold bind at 1. rewrite I1. cbn [fx cfg_fx fx_addr all_fixes].
-    unfold bind, ty_eq, ret. rewrite T1. cbn [is_numeric ty_int vt_void vt_ext negb andb vt_w vt_tok].
-    destruct (vtype_eqb (ty_int s1 w1) (ty_int false 32)) eqn:Eeq; [|destruct (w1 =? 32)%N eqn:Ew].
-    - apply vtype_eqb_int in Eeq. destruct Eeq as [-> ->].
-      exists p1. split; [reflexivity|]. intros ms v Hs. destruct (I5 ms v Hs) as [v1 [S1 C1]].
-      destruct (sem_int rw R rem ms p1 v1 false 32 T1 S1) as [z [-> [Hz He]]].
-      exists 32%N, z. split; [exact He|]. rewrite <- C1, T1. cbn [cval_of vt_sg ty_int].
-      unfold conv, mkval, vint. cbn [fst snd]. rewrite wrap_interp. apply wrap_small. exact Hz.
-    - apply N.eqb_eq in Ew. subst w1. cbn [andb].
-      exists p1. split; [reflexivity|]. intros ms v Hs. destruct (I5 ms v Hs) as [v1 [S1 C1]].
-      destruct (sem_int rw R rem ms p1 v1 s1 32 T1 S1) as [z [-> [Hz He]]].
-      exists 32%N, z. split; [exact He|]. rewrite <- C1, T1. cbn [cval_of vt_sg ty_int].
-      unfold conv, mkval, vint. cbn [fst snd]. rewrite wrap_interp. apply wrap_small. exact Hz.
-    - cbn [andb].
-      destruct (init_a_cast_ok subsigs macs cret hstart rw R rem false 32 p1 st okw32 G1) as [p2 [H1 [_ [H3 [_ H5]]]]].
-      rewrite H1. exists p2. split; [reflexivity|]. intros ms v Hs. destruct (I5 ms v Hs) as [v1 [S1 C1]].
-      destruct (H5 ms v1 S1) as [v2 [S2 C2]].
-      destruct (sem_int rw R rem ms p2 v2 false 32 H3 S2) as [z [-> [Hz He]]].
-      exists 32%N, z. split; [exact He|]. rewrite <- C1, <- C2, H3. reflexivity.
-  Qed.
-
-  Lemma srel_store V cs ms a v n : srel IM E V cs ms -> srel IM E V (c_store cs a v n) (set_mem ms (write_bytes (mem ms) a v n)).
-  Proof.
-    intros [H1 [H2 [H3 [H4 [H5 [H6 H7]]]]]]. split; [exact H1|]. split; [exact H2|].
-    cbn [c_store cs_mem mem set_mem cs_ret]. rewrite H3. auto 10.
+    intros [H1 [H2 [H3 [H4 [H5 [H6 [H7 [H8 H9]]]]]]]]. split; [|split; [exact H2|]].
+    - destruct H1 as [R1 [R2 [R3 [R4 [R5 [R6 [R7 R8]]]]]]]. unfold rel.
+      cbn [c_store cs_vars cs_regw cs_mem locals rnew rold rnew0 imms mem mem0 set_mem]. rewrite R7. auto 10.
+    - cbn [c_store cs_mem mem set_mem cs_ret]. rewrite H3. auto 10.
   Qed.
 
   Lemma runs_store a v ms w1 x w y : eval rw ms [] a = Some (VBv w1 x) -> eval rw ms [] v = Some (VBv w y) ->
     runs rw ilsubs (EStore a v) ms (set_mem ms (write_bytes (mem ms) x y (N.to_nat (w / 8)))).
   Proof. intros Ha Hv. exists 1%nat. cbn [exec]. rewrite Ha, Hv. reflexivity. Qed.
 
-  Lemma sinv_store V sg w a v : okw w -> pfrag rw IM V a -> pfrag rw IM V v -> SInv V (SStore sg w (ECons a (ECons v ENil))) V.
+  Lemma sinv_store D V sg w a v : okw w -> pfrag rw IM V a -> pfrag rw IM V v -> SInv D V (SStore sg w (ECons a (ECons v ENil))) D V.
   Proof.
-    intros Hw Hfa Hfv st Hok Hp.
-    destruct (expr_sim V a st Hfa Hok) as [pa [st1 [L1 [X1 [Hok1 [G1 Hsema]]]]]].
-    destruct (expr_sim V v st1 Hfv Hok1) as [pd [st2 [L2 [X2 [Hok2 [G2 Hsemv]]]]]].
+    intros Hw Hfa Hfv st Hext Hok Hp.
+    destruct (expr_sim_ext V D a st Hfa Hext Hok) as [pa [st1 [L1 [X1 [Hok1 [G1 Hsema]]]]]].
+    destruct (expr_sim_ext V D v st1 Hfv Hext Hok1) as [pd [st2 [L2 [X2 [Hok2 [G2 Hsemv]]]]]].
     assert (Hp2 : st_pending st2 = []) by (eapply st_ext_pending; [exact X2|]; eapply st_ext_pending; eassumption).
-    destruct (addr_ok pa st2 G1) as [va [A1 A2]].
+    destruct (addr_ok subsigs macs cret hstart rw R rem pa st2 G1) as [va [A1 A2]].
     destruct (tok_cast_ok sg w pd st2 Hw G2) as [d [D1 D2]].
     exists [IEff (mkle (EStore (rd va) (rd d)) (pv_tmps va ++ pv_tmps d) false)], (touched st2).
     split.
@@ -1284,6 +1951,67 @@ Section StmtCorrect.
     split; [|split; [apply srel_store; exact Hrel | apply imms_done_set_mem; exact Himm]].
     cbn [flat_map item_effects le_empty le_term app seqn fin_eff].
     eapply runs_store; eassumption.
+  Qed.
+
+
+  (* ------------------------------------------------------------------ STORE_SLOT_CANCELLED(a, b); *)
+  (* The compiler emits the plugin effect HEX_STORE_SLOT_CANCELLED(pkt, hi->slot) (a void hybrid, whatever the two
+     arguments are).  CSem gives a call to a routine without body no meaning (ceval = None): as for cancel_slot the
+     simulation holds vacuously on the paths that execute the call; the theorem gives the lowering and the simulation of
+     the other paths. *)
+  Lemma carg_low D V e st : carg rw IM D V e -> vext V D -> lst_ok IM D st ->
+    exists i st', lower_expr cfg e st = OK (i, st') /\ st_ext st st' /\ lst_ok IM D st'.
+  Proof.
+    intros [x [Hx [Hi Hn]] | e0 Hf] Hext Hok.
+    - exists (IStr x), st. split; [|split; [apply st_ext_refl | exact Hok]].
+      rewrite lower_expr_op. cbn [lower_operand cfg_params lookup]. unfold bind, get.
+      rewrite (proj1 Hok x Hi), Hx.
+      assert (He : existsb (String.eqb x) ["EA"; "i"; "k"; "j"] = false).
+      { cbn [existsb]. rewrite !orb_false_r. unfold implicit_name in Hn.
+        destruct (String.eqb_spec x "EA"); [tauto|]. destruct (String.eqb_spec x "i"); [tauto|].
+        destruct (String.eqb_spec x "k"); [tauto|]. destruct (String.eqb_spec x "j"); [tauto|]. reflexivity. }
+      rewrite He. reflexivity.
+    - destruct (expr_sim_ext V D e0 st Hf Hext Hok) as [pv [st2 [L2 [X2 [Hok2 _]]]]].
+      exists (IPure pv), st2. auto.
+  Qed.
+
+  Lemma lower_expr_ssc args st ia ib st' : lower_exprs cfg args st = OK ([ia; ib], st') ->
+    lower_expr cfg (Ast.ECall ssc_name args) st =
+    OK (IVoid (mkle (EPlugin "HEX_STORE_SLOT_CANCELLED" [ARaw "pkt"; ARaw "hi->slot"]) (flat_map item_tmps [ia; ib]) false), touched st').
+  Proof.
+    intros H. cbn [lower_expr].
+    match goal with |- bind ?m _ _ = _ => change m with (lower_exprs cfg args) end.
+    unfold bind at 1. rewrite H.
+    change (String.eqb ssc_name "fatal") with false. change (String.eqb ssc_name "MEM_STORE0") with false. cbv iota.
+    unfold find_sub. cbn [cfg_subs]. rewrite (Hssc ssc_name ssc_ext).
+    change (String.eqb ssc_name "sizeof") with false. change (String.eqb ssc_name "STORE_SLOT_CANCELLED") with true. cbv iota.
+    unfold bind at 1. rewrite touch_eq. reflexivity.
+  Qed.
+
+  Lemma cexec_ssc fuel cs args cs' : cs_ret cs = None -> cexec E csub xi fuel cs (SExpr (Ast.ECall ssc_name args)) = Some cs' -> False.
+  Proof.
+    intros Hr H. destruct fuel as [|[|k]]; [rewrite cexec_0 in H; discriminate H| |]; rewrite cexec_expr in H by exact Hr.
+    - rewrite ceval_0 in H. discriminate H.
+    - cbn [ceval] in H. rewrite (Hcssc ssc_name ssc_ext) in H. discriminate H.
+  Qed.
+
+  Lemma sinv_ssc D V a b : carg rw IM D V a -> carg rw IM D V b ->
+    SInv D V (SExpr (Ast.ECall ssc_name (ECons a (ECons b ENil)))) D V.
+  Proof.
+    intros Ha Hb st Hext Hok Hp.
+    destruct (carg_low D V a st Ha Hext Hok) as [ia [st1 [L1 [X1 Hok1]]]].
+    destruct (carg_low D V b st1 Hb Hext Hok1) as [ib [st2 [L2 [X2 Hok2]]]].
+    eexists _, (touched st2).
+    split.
+    { rewrite lower_stmt_expr. unfold bind at 1.
+      rewrite (lower_expr_ssc _ st ia ib st2); [reflexivity|].
+      rewrite lower_exprs_two. unfold bind at 1. rewrite L1. unfold bind at 1. unfold bind at 1. rewrite L2. reflexivity. }
+    split; [|reflexivity].
+    split; [apply lst_ok_touched; exact Hok2|].
+    split; [eapply st_ext_trans; [exact X1|]; eapply st_ext_trans; [exact X2 | apply st_ext_touched]|].
+    split; [repeat constructor|].
+    intros HR Hrem HJ cs ms fuel cs' Hrel Himm Hce. exfalso.
+    exact (cexec_ssc fuel cs _ cs' (srel_ret _ _ _ _ _ _ Hrel) Hce).
   Qed.
 
   (* ------------------------------------------------------------------ JUMP(e); *)
@@ -1343,15 +2071,15 @@ Section StmtCorrect.
     exact (R1 y sg w Hy Hw).
   Qed.
 
-  Lemma srel_jump V cs ms z : srel IM E V cs ms -> 0 <= z < pow2 32 ->
-    srel IM E V (mkcs (cs_vars cs) (cs_regw cs) (cs_mem cs) (Some z) (cs_ret cs) (cs_events cs))
+  Lemma srel_jump D V cs ms z : srel IM E D V cs ms -> 0 <= z < pow2 32 ->
+    srel IM E D V (mkcs (cs_vars cs) (cs_regw cs) (cs_mem cs) (Some z) (cs_ret cs) (cs_events cs))
            (set_local (set_local ms "jump_flag" (VB true)) "jump_target" (VBv 32 z)).
   Proof.
-    intros [[R1 [R2 [R3 [R4 [R5 R6]]]]] [H2 [H3 [H4 [H5 [H6 H7]]]]]] Hz. split; [|split].
+    intros [[R1 [R2 [R3 [R4 [R5 R6]]]]] [H2 [H3 [H4 [H5 [H6 [H7 [H8 H9]]]]]]]] Hz. split; [|split].
     - unfold rel. cbn [cs_vars cs_regw locals rnew rold rnew0 imms set_local]. split; [|auto 10].
-      intros y sg w Hy Hw. cbn [lookup].
-      destruct (String.eqb_spec y "jump_target") as [->|_]; [rewrite H5 in Hy by (right; left; reflexivity); discriminate Hy|].
-      destruct (String.eqb_spec y "jump_flag") as [->|_]; [rewrite H5 in Hy by (left; reflexivity); discriminate Hy|].
+      intros y sg w Hy Hw. cbn [lookup]. apply H9 in Hy as HyD.
+      destruct (String.eqb_spec y "jump_target") as [->|_]; [rewrite H5 in HyD by (right; left; reflexivity); discriminate HyD|].
+      destruct (String.eqb_spec y "jump_flag") as [->|_]; [rewrite H5 in HyD by (left; reflexivity); discriminate HyD|].
       exact (R1 y sg w Hy Hw).
     - intros y Hy Hyr. cbn [locals set_local lookup].
       destruct (String.eqb_spec y "jump_target") as [->|_]; [exfalso; apply Hyr; right; left; reflexivity|].
@@ -1359,16 +2087,17 @@ Section StmtCorrect.
       exact (H2 y Hy Hyr).
     - cbn [cs_mem mem set_local cs_ret]. repeat (split; [assumption|]).
       split; [unfold jrel; cbn [cs_jump locals set_local]; repeat split; try reflexivity; apply Hz|].
+      split; [|split; [exact H8 | exact H9]].
       intros l Hl. cbn [locals set_local lookup imms].
       destruct (String.eqb_spec l "jump_target") as [->|_]; [rewrite (proj2 HIM) in Hl; discriminate Hl|].
       destruct (String.eqb_spec l "jump_flag") as [->|_]; [rewrite (proj1 HIM) in Hl; discriminate Hl|].
       exact (H7 l Hl).
   Qed.
 
-  Lemma sinv_jump V e : pfrag rw IM V e -> SInv V (SJump e) V.
+  Lemma sinv_jump D V e : pfrag rw IM V e -> SInv D V (SJump e) D V.
   Proof.
-    intros Hfrag st Hok Hp.
-    destruct (expr_sim V e st Hfrag Hok) as [pv [st2 [L2 [X2 [Hok2 [G2 Hsem]]]]]].
+    intros Hfrag st Hext Hok Hp.
+    destruct (expr_sim_ext V D e st Hfrag Hext Hok) as [pv [st2 [L2 [X2 [Hok2 [G2 Hsem]]]]]].
     assert (Hp2 : st_pending st2 = []) by (eapply st_ext_pending; eassumption).
     destruct (jump_cast_ok pv st2 G2) as [ta [J1 J2]].
     exists [IEff (mkle (ESeq (ESetL "jump_flag" (PBool true)) (ESetL "jump_target" (rd ta))) (pv_tmps ta) false)], (touched st2).
@@ -1385,8 +2114,9 @@ Section StmtCorrect.
     pose proof Hrel as [Hrel0 [_ [_ [Hret [Hres [Hj _]]]]]].
     (* the target is evaluated after jump_flag was set: it does not depend on it *)
     set (ms1 := set_local ms "jump_flag" (VB true)).
-    assert (Hrel1 : rel IM E V cs ms1) by (apply rel_jump_flag; assumption).
-    assert (Himm1 : imms_done IM J ms1) by (apply imms_done_set_local; [exact (proj1 HIM) | exact Himm]).
+    assert (Hrel1 : rel IM E V cs ms1).
+    { apply rel_jump_flag; [|exact Hrel0]. intros y Hy. apply (vext_none V D y (srel_vext _ _ _ _ _ _ Hrel)). exact (Hres y Hy). }
+    assert (Himm1 : imms_done IM E J cs ms1) by (apply (imms_done_il_local IM E J cs cs ms); [exact (proj1 HIM) | reflexivity | exact Himm]).
     destruct (Hsem (touched st2) (st_ext_touched st2) HR Hrem HJ cs ms1 Hrel1 Himm1) as [ilv [Sv Hcv]].
     destruct (J2 ms1 ilv Sv) as [z [Hz [Ez Cz]]].
     destruct fuel as [|k]; [rewrite cexec_0 in Hce; discriminate Hce|].
@@ -1396,7 +2126,7 @@ Section StmtCorrect.
     assert (Hcs : mkcs (cs_vars cs) (cs_regw cs) (cs_mem cs) (Some z) (cs_ret cs) (cs_events cs) = cs') by congruence.
     rewrite <- Hcs.
     exists (set_local ms1 "jump_target" (VBv 32 z)).
-    split; [|split; [apply srel_jump; assumption | apply imms_done_set_local; [exact (proj2 HIM) | exact Himm1]]].
+    split; [|split; [apply srel_jump; assumption | apply (imms_done_il_local IM E J cs _ ms1); [exact (proj2 HIM) | reflexivity | exact Himm1]]].
     cbn [flat_map item_effects le_empty le_term app seqn fin_eff fin_pure].
     apply runs_seq. exists ms1. split.
     - apply runs_setl; [reflexivity|]. unfold jrel in Hj. destruct (cs_jump cs) as [t|].
@@ -1410,30 +2140,31 @@ Section StmtCorrect.
   Qed.
 
   (* ------------------------------------------------------------------ sequences and blocks *)
-  Lemma post_cex V V' st st' items (cex cex' : nat -> cstate -> option cstate) :
+  Lemma post_cex D V D' V' st st' items (cex cex' : nat -> cstate -> option cstate) :
     (forall fuel cs cs', cex' fuel cs = Some cs' -> exists fuel', cex fuel' cs = Some cs') ->
-    post V V' st st' items cex -> post V V' st st' items cex'.
+    post D V D' V' st st' items cex -> post D V D' V' st st' items cex'.
   Proof.
     intros Hc [H1 [H2 [H3 H6]]]. repeat (split; [assumption|]).
     intros HR Hrem HJ cs ms fuel cs' Hrel Himm Hce. destruct (Hc fuel cs cs' Hce) as [fuel' Hce'].
     exact (H6 HR Hrem HJ cs ms fuel' cs' Hrel Himm Hce').
   Qed.
 
-  Lemma ssinv_nil V : SsInv V SNil V.
+  Lemma ssinv_nil D V : SsInv D V SNil D V.
   Proof.
-    intros st Hok Hp. exists [], st. split; [reflexivity|]. split; [|intros _ H; congruence].
+    intros st Hext Hok Hp. exists [], st. split; [reflexivity|]. split; [|intros _ H; congruence].
     split; [exact Hok|]. split; [apply st_ext_refl|]. split; [constructor|].
     intros HR Hrem HJ cs ms fuel cs' Hrel Himm Hce.
     destruct fuel as [|k]; [rewrite cexecs_0 in Hce; discriminate Hce|]. rewrite cexecs_nil in Hce. injection Hce as <-.
     exists ms. split; [|split; [exact Hrel | exact Himm]]. cbn [flat_map seqn fin_eff]. apply runs_empty. reflexivity.
   Qed.
 
-  Lemma ssinv_cons V s V1 l V2 : SInv V s V1 -> SsInv V1 l V2 -> SsInv V (SCons s l) V2.
+  Lemma ssinv_cons D V s D1 V1 l D2 V2 : (vext V D -> vext V1 D1) ->
+    SInv D V s D1 V1 -> SsInv D1 V1 l D2 V2 -> SsInv D V (SCons s l) D2 V2.
   Proof.
-    intros IH1 IH2 st Hok Hp.
-    destruct (IH1 st Hok Hp) as [a [st1 [L1 [[Hok1 [X1 [Pl1 S1]]] N1]]]].
+    intros Hv1 IH1 IH2 st Hext Hok Hp.
+    destruct (IH1 st Hext Hok Hp) as [a [st1 [L1 [[Hok1 [X1 [Pl1 S1]]] N1]]]].
     assert (P1 : st_pending st1 = []) by (eapply st_ext_pending; eassumption).
-    destruct (IH2 st1 Hok1 P1) as [b [st2 [L2 [[Hok2 [X2 [Pl2 S2]]] N2]]]].
+    destruct (IH2 st1 (Hv1 Hext) Hok1 P1) as [b [st2 [L2 [[Hok2 [X2 [Pl2 S2]]] N2]]]].
     exists (a ++ b), st2.
     split. { rewrite lower_stmts_cons. unfold bind. rewrite L1, L2. reflexivity. }
     split.
@@ -1450,20 +2181,20 @@ Section StmtCorrect.
     intros Hst _. eapply st_ext_nonempty; [exact X2|]. exact (N1 Hst).
   Qed.
 
-  Lemma sinv_block V l V' : sfrags rw IM V l V' -> SsInv V l V' -> SInv V (SBlock l) V'.
+  Lemma sinv_block D V l D' V' : sfrags rw IM D V l D' V' -> SsInv D V l D' V' -> SInv D V (SBlock l) D' V'.
   Proof.
     destruct l as [|s t].
     - intros H _. inversion H; subst. apply sinv_block_nil.
-    - intros _ IH st Hok Hp. destruct (IH st Hok Hp) as [items [st' [L [Post N]]]].
+    - intros _ IH st Hext Hok Hp. destruct (IH st Hext Hok Hp) as [items [st' [L [Post N]]]].
       exists items, st'. split; [rewrite lower_stmt_block_cons; exact L|].
       split; [|intros Hst; apply N; [exact Hst | discriminate]].
-      assert (Hpost : post V V' st st' items (fun fuel cs => match cs_ret cs with Some _ => None | None => cexec E csub xi fuel cs (SBlock (SCons s t)) end)).
+      assert (Hpost : post D V D' V' st st' items (fun fuel cs => match cs_ret cs with Some _ => None | None => cexec E csub xi fuel cs (SBlock (SCons s t)) end)).
       { eapply post_cex; [|exact Post]. intros fuel cs cs' H. cbv beta in H.
         destruct (cs_ret cs) eqn:Hret; [discriminate H|].
         destruct fuel as [|k]; [rewrite cexec_0 in H; discriminate H|]. rewrite cexec_block in H by exact Hret. eauto. }
       destruct Hpost as [H1 [H2 [H3 H6]]]. repeat (split; [assumption|]).
       intros HR Hrem HJ cs ms fuel cs' Hrel Himm Hce. apply (H6 HR Hrem HJ cs ms fuel cs' Hrel Himm).
-      rewrite (srel_ret _ _ _ _ _ Hrel). exact Hce.
+      rewrite (srel_ret _ _ _ _ _ _ Hrel). exact Hce.
   Qed.
 
   (* ------------------------------------------------------------------ if (c) t   and   if (c) t else f *)
@@ -1471,27 +2202,27 @@ Section StmtCorrect.
   Proof. reflexivity. Qed.
 
   (* the condition: lowered by ExprCorrect, evaluated on both sides *)
-  Lemma cond_sim V c st : pfrag rw IM V c -> lst_ok IM V st ->
-    exists pc st1, lower_expr cfg c st = OK (IPure pc, st1) /\ st_ext st st1 /\ lst_ok IM V st1 /\
+  Lemma cond_sim D V c st : pfrag rw IM V c -> vext V D -> lst_ok IM D st ->
+    exists pc st1, lower_expr cfg c st = OK (IPure pc, st1) /\ st_ext st st1 /\ lst_ok IM D st1 /\
       forall st3, st_ext st1 st3 -> regs_le (st_regs st3) R -> norem rem -> incl (st_imms st3) J ->
-      forall cs ms, rel IM E V cs ms -> imms_done IM J ms ->
+      forall cs ms, rel IM E V cs ms -> imms_done IM E J cs ms ->
         exists b, eval rw ms [] (fin_pure R rem (cond_of cfg pc)) = Some (VB b) /\
           forall k s1 vc, ceval E csub xi k cs c = Some (s1, vc) -> s1 = cs /\ negb (snd vc =? 0) = b.
   Proof.
-    intros Hfrag Hok.
-    destruct (expr_sim V c st Hfrag Hok) as [pc [st1 [L1 [X1 [Hok1 [G1 Hsem]]]]]].
+    intros Hfrag Hext Hok.
+    destruct (expr_sim_ext V D c st Hfrag Hext Hok) as [pc [st1 [L1 [X1 [Hok1 [G1 Hsem]]]]]].
     exists pc, st1. split; [exact L1|]. split; [exact X1|]. split; [exact Hok1|].
     intros st3 X3 HR Hrem HJ cs ms Hrel Himm. destruct (Hsem st3 X3 HR Hrem HJ cs ms Hrel Himm) as [ilv [Sv Hcv]].
     exists (truth (cval_of (pv_ty pc) ilv)). split; [apply cond_ok; assumption|].
     intros k s1 vc Hce. destruct (Hcv k s1 vc Hce) as [-> ->]. split; reflexivity.
   Qed.
 
-  Lemma sinv_if V c t : pfrag rw IM V c -> SInv V t V -> SInv V (SIf c t None) V.
+  Lemma sinv_if D V c t : pfrag rw IM V c -> SInv D V t D V -> SInv D V (SIf c t None) D V.
   Proof.
-    intros Hc IHt st Hok Hp.
-    destruct (cond_sim V c st Hc Hok) as [pc [st1 [L1 [X1 [Hok1 Hcond]]]]].
+    intros Hc IHt st Hext Hok Hp.
+    destruct (cond_sim D V c st Hc Hext Hok) as [pc [st1 [L1 [X1 [Hok1 Hcond]]]]].
     assert (Hp1 : st_pending st1 = []) by (eapply st_ext_pending; eassumption).
-    destruct (IHt st1 Hok1 Hp1) as [it [st2 [L2 [[Hok2 [X2 [Pl2 S2]]] N2]]]].
+    destruct (IHt st1 Hext Hok1 Hp1) as [it [st2 [L2 [[Hok2 [X2 [Pl2 S2]]] N2]]]].
     assert (Hp2 : st_pending st2 = []) by (eapply st_ext_pending; eassumption).
     destruct (mk_sequence it) as [tseq ttree] eqn:Emk.
     assert (Ht : le_term tseq = seqn (flat_map item_effects it)) by (rewrite <- mk_sequence_term, Emk; reflexivity).
@@ -1506,7 +2237,7 @@ Section StmtCorrect.
     intros HR Hrem HJ cs ms fuel cs' Hrel Himm Hce.
     destruct (Hcond (touched st2) (st_ext_trans _ _ _ X2 (st_ext_touched st2)) HR Hrem HJ cs ms (proj1 Hrel) Himm) as [b [Ec Hcb]].
     destruct fuel as [|k]; [rewrite cexec_0 in Hce; discriminate Hce|].
-    rewrite cexec_if in Hce by (apply (srel_ret _ _ _ _ _ Hrel)).
+    rewrite cexec_if in Hce by (apply (srel_ret _ _ _ _ _ _ Hrel)).
     destruct (ceval E csub xi k cs c) as [[s1 vc]|] eqn:Ece; [|discriminate Hce].
     destruct (Hcb k s1 vc Ece) as [-> Hb]. rewrite Hb in Hce.
     cbn [flat_map item_effects le_empty le_term app seqn fin_eff].
@@ -1518,14 +2249,14 @@ Section StmtCorrect.
       split; [exact Ec | apply runs_empty; reflexivity].
   Qed.
 
-  Lemma sinv_ifelse V c t f : pfrag rw IM V c -> SInv V t V -> SInv V f V -> SInv V (SIf c t (Some f)) V.
+  Lemma sinv_ifelse D V c t f V1 : pfrag rw IM V c -> SInv D V t D V1 -> SInv D V f D V1 -> SInv D V (SIf c t (Some f)) D V1.
   Proof.
-    intros Hc IHt IHf st Hok Hp.
-    destruct (cond_sim V c st Hc Hok) as [pc [st1 [L1 [X1 [Hok1 Hcond]]]]].
+    intros Hc IHt IHf st Hext Hok Hp.
+    destruct (cond_sim D V c st Hc Hext Hok) as [pc [st1 [L1 [X1 [Hok1 Hcond]]]]].
     assert (Hp1 : st_pending st1 = []) by (eapply st_ext_pending; eassumption).
-    destruct (IHt st1 Hok1 Hp1) as [it [st2 [L2 [[Hok2 [X2 [Pl2 S2]]] N2]]]].
+    destruct (IHt st1 Hext Hok1 Hp1) as [it [st2 [L2 [[Hok2 [X2 [Pl2 S2]]] N2]]]].
     assert (Hp2 : st_pending st2 = []) by (eapply st_ext_pending; eassumption).
-    destruct (IHf (touched st2) (lst_ok_touched _ _ Hok2) Hp2) as [ie [st3 [L3 [[Hok3 [X3 [Pl3 S3]]] N3]]]].
+    destruct (IHf (touched st2) Hext (lst_ok_touched _ _ Hok2) Hp2) as [ie [st3 [L3 [[Hok3 [X3 [Pl3 S3]]] N3]]]].
     assert (Hp3 : st_pending st3 = []) by (eapply st_ext_pending; [exact X3 | exact Hp2]).
     assert (X23 : st_ext st2 st3) by (eapply st_ext_trans; [apply st_ext_touched | exact X3]).
     destruct (mk_sequence it) as [tseq ttree] eqn:Emk.
@@ -1545,7 +2276,7 @@ Section StmtCorrect.
     intros HR Hrem HJ cs ms fuel cs' Hrel Himm Hce.
     destruct (Hcond st3 (st_ext_trans _ _ _ X2 X23) HR Hrem HJ cs ms (proj1 Hrel) Himm) as [b [Ec Hcb]].
     destruct fuel as [|k]; [rewrite cexec_0 in Hce; discriminate Hce|].
-    rewrite cexec_if in Hce by (apply (srel_ret _ _ _ _ _ Hrel)).
+    rewrite cexec_if in Hce by (apply (srel_ret _ _ _ _ _ _ Hrel)).
     destruct (ceval E csub xi k cs c) as [[s1 vc]|] eqn:Ece; [|discriminate Hce].
     destruct (Hcb k s1 vc Ece) as [-> Hb]. rewrite Hb in Hce.
     cbn [flat_map item_effects le_empty le_term app seqn fin_eff].
@@ -1560,23 +2291,35 @@ Section StmtCorrect.
   Qed.
 
   (* ------------------------------------------------------------------ the fragment satisfies the invariant *)
-  Theorem stmt_inv : (forall V s V', sfrag rw IM V s V' -> SInv V s V') /\ (forall V l V', sfrags rw IM V l V' -> SsInv V l V').
+  Theorem stmt_inv :
+    (forall D V s D' V', sfrag rw IM D V s D' V' -> SInv D V s D' V') /\
+    (forall D V l D' V', sfrags rw IM D V l D' V' -> SsInv D V l D' V').
   Proof.
     apply sfrag_mutind.
-    - intros. apply (sinv_asg_reg V cls letters acc e); assumption.
-    - intros. apply (sinv_asg_var V x sg w e); assumption.
-    - intros. apply (sinv_casg_var V a x sg w e); assumption.
-    - intros. apply (sinv_casg_reg V a cls letters acc e); assumption.
+    - intros. apply (sinv_asg_reg D V cls letters acc e); assumption.
+    - intros. apply sinv_asg_alias; assumption.
+    - intros. apply sinv_asg_imm; assumption.
+    - intros. apply (sinv_asg_var D V x sg w e); assumption.
+    - intros. apply sinv_asg_first; assumption.
+    - intros. apply sinv_asg_implicit; assumption.
+    - intros. apply (sinv_casg_var D V a x sg w e); assumption.
+    - intros. apply (sinv_basg_var D V a x sg w e); assumption.
+    - intros. apply (sinv_basg_reg D V a cls letters acc e); assumption.
+    - intros. apply (sinv_casg_reg D V a cls letters acc e); assumption.
     - intros. apply sinv_decl; assumption.
-    - apply sinv_empty.
-    - apply sinv_nop.
+    - intros. apply sinv_decl0; assumption.
+    - intros. apply sinv_empty.
+    - intros. apply sinv_nop.
+    - intros. apply sinv_cancel.
+    - intros. apply sinv_ssc; assumption.
     - intros. apply sinv_store; assumption.
     - intros. apply sinv_jump; assumption.
     - intros. apply sinv_block; assumption.
     - intros. apply sinv_if; assumption.
     - intros. apply sinv_ifelse; assumption.
-    - apply ssinv_nil.
-    - intros. eapply ssinv_cons; eassumption.
+    - intros. apply ssinv_nil.
+    - intros D V s D1 V1 l D2 V2 Hs IHs Hl IHl. eapply ssinv_cons; [|exact IHs | exact IHl].
+      exact (sfrag_vext rw IM D V s D1 V1 Hs).
   Qed.
 End StmtCorrect.
 
@@ -1597,26 +2340,26 @@ Qed.
    effect is the sequence of the returned items' effects (exactly what mk_sequence / tlower_info build),
    finalised against ANY later register table R, run in a state in which ANY later immediate prologue J
    has been executed. *)
-Theorem stmt_correct : forall (cfg : config) (rw : regwidth) (IM : string -> bool) (ilsubs : subenv) (E : cenv) (csub : csubs) xi V s V' st,
-  cfg_fx cfg = all_fixes -> cfg_params cfg = [] -> im_ok IM ->
-  lst_ok IM V st -> st_pending st = [] ->
-  sfrag rw IM V s V' ->
+Theorem stmt_correct : forall (cfg : config) (rw : regwidth) (IM : string -> bool) (ilsubs : subenv) (E : cenv) (csub : csubs) xi D V s D' V' st,
+  cfg_fx cfg = all_fixes -> cfg_params cfg = [] -> macs_std (cfg_macros cfg) -> subs_ext (cfg_subs cfg) -> csub_ext csub -> im_ok IM ->
+  vext V D -> lst_ok IM D st -> st_pending st = [] ->
+  sfrag rw IM D V s D' V' ->
   exists items st', lower_stmt cfg s st = OK (items, st') /\
-    lst_ok IM V' st' /\ st_ext st st' /\ Forall plain_item items /\
+    lst_ok IM D' st' /\ st_ext st st' /\ Forall plain_item items /\
     forall R rem J, regs_le (st_regs st') R -> norem rem -> incl (st_imms st') J ->
-    forall cs ms fuel cs', srel IM E V cs ms -> imms_done IM J ms -> cexec E csub xi fuel cs s = Some cs' ->
-      exists ms', runs rw ilsubs (fin_eff R rem (seqn (flat_map item_effects items))) ms ms' /\ srel IM E V' cs' ms' /\ imms_done IM J ms'.
+    forall cs ms fuel cs', srel IM E D V cs ms -> imms_done IM E J cs ms -> cexec E csub xi fuel cs s = Some cs' ->
+      exists ms', runs rw ilsubs (fin_eff R rem (seqn (flat_map item_effects items))) ms ms' /\ srel IM E D' V' cs' ms' /\ imms_done IM E J cs' ms'.
 Proof.
-  intros cfg rw IM ilsubs E csub xi V s V' st Hfx Hpar HIM Hok Hp Hfrag.
-  destruct cfg as [fx0 subs macs params cret hstart]. cbn in Hfx, Hpar. subst fx0 params.
+  intros cfg rw IM ilsubs E csub xi D V s D' V' st Hfx Hpar Hmacs Hssc Hcssc HIM Hext Hok Hp Hfrag.
+  destruct cfg as [fx0 subs macs params cret hstart]. cbn in Hfx, Hpar, Hmacs, Hssc. subst fx0 params.
   destruct (exists_forall_swap3 (lower_stmt (mkcfg all_fixes subs macs [] cret hstart) s st)
-              (fun R rem J items st' => lst_ok IM V' st' /\ st_ext st st' /\ Forall plain_item items /\
+              (fun R rem J items st' => lst_ok IM D' st' /\ st_ext st st' /\ Forall plain_item items /\
                  (regs_le (st_regs st') R -> norem rem -> incl (st_imms st') J ->
-                  forall cs ms fuel cs', srel IM E V cs ms -> imms_done IM J ms -> cexec E csub xi fuel cs s = Some cs' ->
-                    exists ms', runs rw ilsubs (fin_eff R rem (seqn (flat_map item_effects items))) ms ms' /\ srel IM E V' cs' ms' /\ imms_done IM J ms'))
+                  forall cs ms fuel cs', srel IM E D V cs ms -> imms_done IM E J cs ms -> cexec E csub xi fuel cs s = Some cs' ->
+                    exists ms', runs rw ilsubs (fin_eff R rem (seqn (flat_map item_effects items))) ms ms' /\ srel IM E D' V' cs' ms' /\ imms_done IM E J cs' ms'))
               (@nil (string * reginfo)) (@nil string) (@nil effect)) as [items [st' [L H]]].
   - intros R rem J.
-    destruct (proj1 (stmt_inv subs macs cret hstart rw IM HIM R rem J ilsubs E csub xi) V s V' Hfrag st Hok Hp)
+    destruct (proj1 (stmt_inv subs macs cret hstart Hmacs Hssc rw IM HIM R rem J ilsubs E csub Hcssc xi) D V s D' V' Hfrag st Hext Hok Hp)
       as [items [st' [L [[H1 [H2 [H3 H6]]] _]]]].
     exists items, st'. split; [exact L|]. repeat (split; [assumption|]). exact H6.
   - exists items, st'. split; [exact L|]. destruct (H [] [] []) as [H1 [H2 [H3 _]]]. repeat (split; [assumption|]).
@@ -1625,27 +2368,27 @@ Qed.
 Print Assumptions stmt_correct.
 
 (* Statement lists, function Lower.lower_stmts: sequences of any length *)
-Theorem stmts_correct : forall (cfg : config) (rw : regwidth) (IM : string -> bool) (ilsubs : subenv) (E : cenv) (csub : csubs) xi V l V' st,
-  cfg_fx cfg = all_fixes -> cfg_params cfg = [] -> im_ok IM ->
-  lst_ok IM V st -> st_pending st = [] ->
-  sfrags rw IM V l V' ->
+Theorem stmts_correct : forall (cfg : config) (rw : regwidth) (IM : string -> bool) (ilsubs : subenv) (E : cenv) (csub : csubs) xi D V l D' V' st,
+  cfg_fx cfg = all_fixes -> cfg_params cfg = [] -> macs_std (cfg_macros cfg) -> subs_ext (cfg_subs cfg) -> csub_ext csub -> im_ok IM ->
+  vext V D -> lst_ok IM D st -> st_pending st = [] ->
+  sfrags rw IM D V l D' V' ->
   exists items st', lower_stmts cfg l st = OK (items, st') /\
-    lst_ok IM V' st' /\ st_ext st st' /\ Forall plain_item items /\ (started st -> l <> SNil -> st_nonempty st' = true) /\
+    lst_ok IM D' st' /\ st_ext st st' /\ Forall plain_item items /\ (started st -> l <> SNil -> st_nonempty st' = true) /\
     forall R rem J, regs_le (st_regs st') R -> norem rem -> incl (st_imms st') J ->
-    forall cs ms fuel cs', srel IM E V cs ms -> imms_done IM J ms -> cexecs E csub xi fuel cs l = Some cs' ->
-      exists ms', runs rw ilsubs (fin_eff R rem (seqn (flat_map item_effects items))) ms ms' /\ srel IM E V' cs' ms' /\ imms_done IM J ms'.
+    forall cs ms fuel cs', srel IM E D V cs ms -> imms_done IM E J cs ms -> cexecs E csub xi fuel cs l = Some cs' ->
+      exists ms', runs rw ilsubs (fin_eff R rem (seqn (flat_map item_effects items))) ms ms' /\ srel IM E D' V' cs' ms' /\ imms_done IM E J cs' ms'.
 Proof.
-  intros cfg rw IM ilsubs E csub xi V l V' st Hfx Hpar HIM Hok Hp Hfrag.
-  destruct cfg as [fx0 subs macs params cret hstart]. cbn in Hfx, Hpar. subst fx0 params.
+  intros cfg rw IM ilsubs E csub xi D V l D' V' st Hfx Hpar Hmacs Hssc Hcssc HIM Hext Hok Hp Hfrag.
+  destruct cfg as [fx0 subs macs params cret hstart]. cbn in Hfx, Hpar, Hmacs, Hssc. subst fx0 params.
   destruct (exists_forall_swap3 (lower_stmts (mkcfg all_fixes subs macs [] cret hstart) l st)
-              (fun R rem J items st' => lst_ok IM V' st' /\ st_ext st st' /\ Forall plain_item items /\
+              (fun R rem J items st' => lst_ok IM D' st' /\ st_ext st st' /\ Forall plain_item items /\
                  (started st -> l <> SNil -> st_nonempty st' = true) /\
                  (regs_le (st_regs st') R -> norem rem -> incl (st_imms st') J ->
-                  forall cs ms fuel cs', srel IM E V cs ms -> imms_done IM J ms -> cexecs E csub xi fuel cs l = Some cs' ->
-                    exists ms', runs rw ilsubs (fin_eff R rem (seqn (flat_map item_effects items))) ms ms' /\ srel IM E V' cs' ms' /\ imms_done IM J ms'))
+                  forall cs ms fuel cs', srel IM E D V cs ms -> imms_done IM E J cs ms -> cexecs E csub xi fuel cs l = Some cs' ->
+                    exists ms', runs rw ilsubs (fin_eff R rem (seqn (flat_map item_effects items))) ms ms' /\ srel IM E D' V' cs' ms' /\ imms_done IM E J cs' ms'))
               (@nil (string * reginfo)) (@nil string) (@nil effect)) as [items [st' [L H]]].
   - intros R rem J.
-    destruct (proj2 (stmt_inv subs macs cret hstart rw IM HIM R rem J ilsubs E csub xi) V l V' Hfrag st Hok Hp)
+    destruct (proj2 (stmt_inv subs macs cret hstart Hmacs Hssc rw IM HIM R rem J ilsubs E csub Hcssc xi) D V l D' V' Hfrag st Hext Hok Hp)
       as [items [st' [L [[H1 [H2 [H3 H6]]] N]]]].
     exists items, st'. split; [exact L|]. repeat (split; [assumption|]). exact H6.
   - exists items, st'. split; [exact L|]. destruct (H [] [] []) as [H1 [H2 [H3 [H4 _]]]]. repeat (split; [assumption|]).
@@ -1669,79 +2412,90 @@ Proof.
   rewrite (lookup_some_existsb x vars _ Hx), IH. reflexivity.
 Qed.
 
-Lemma srel_set_imm IM E V cs ms x : im_ok IM -> srel IM E V cs ms -> IM x = true ->
-  srel IM E V cs (set_local ms x (VBv 32 (wrap 32 (imms ms x)))).
+(* no immediate has been assigned: the state of the C side when the instruction starts *)
+Definition imm_fresh (IM : string -> bool) (cs : cstate) : Prop :=
+  forall l, IM l = true -> lookup ("imm:" +++ l) (cs_vars cs) = None.
+Lemma cimm_fresh IM E cs l : imm_fresh IM cs -> IM l = true -> cimm E cs l = wrap 32 (ce_imms E l).
+Proof. intros H Hl. unfold cimm. rewrite (H l Hl). reflexivity. Qed.
+
+Lemma srel_set_imm IM E D V cs ms x : im_ok IM -> imm_fresh IM cs -> srel IM E D V cs ms -> IM x = true ->
+  srel IM E D V cs (set_local ms x (VBv 32 (wrap 32 (imms ms x)))).
 Proof.
-  intros [HI1 HI2] [[R1 [R2 [R3 [R4 [R5 R6]]]]] [H2 [H3 [H4 [H5 [H6 H7]]]]]] Hx.
+  intros [HI1 HI2] Hfr [[R1 [R2 [R3 [R4 [R5 R6]]]]] [H2 [H3 [H4 [H5 [H6 [H7 [H8 H9]]]]]]]] Hx.
   assert (Hr : reserved IM x) by (right; right; left; exact Hx).
   split; [|split].
   - unfold rel. cbn [locals rnew rold rnew0 imms set_local]. split; [|auto 10].
     intros y sg w Hy Hw. cbn [lookup].
-    destruct (String.eqb_spec y x) as [->|_]; [rewrite (H5 x Hr) in Hy; discriminate Hy|]. exact (R1 y sg w Hy Hw).
+    destruct (String.eqb_spec y x) as [->|_]; [rewrite (vext_none V D x H9 (H5 x Hr)) in Hy; discriminate Hy|]. exact (R1 y sg w Hy Hw).
   - intros y Hy Hyr. cbn [locals set_local lookup].
     destruct (String.eqb_spec y x) as [->|_]; [contradiction | exact (H2 y Hy Hyr)].
   - cbn [mem set_local]. repeat (split; [assumption|]). split.
     + unfold jrel in *. cbn [locals set_local lookup].
       destruct (String.eqb_spec "jump_flag" x) as [<-|_]; [congruence|].
       destruct (String.eqb_spec "jump_target" x) as [<-|_]; [congruence|]. exact H6.
-    + intros l Hl. cbn [locals set_local lookup imms].
-      destruct (String.eqb_spec l x) as [->|_]; [right; reflexivity | exact (H7 l Hl)].
+    + split; [|split; [exact H8 | exact H9]]. intros l Hl. cbn [locals set_local lookup imms].
+      destruct (String.eqb_spec l x) as [->|_]; [|exact (H7 l Hl)].
+      right. rewrite (cimm_fresh IM E cs x Hfr Hx), R5. reflexivity.
 Qed.
 
-Lemma imms_done_set_imm IM J ms x : imms_done IM J ms -> imms_done IM J (set_local ms x (VBv 32 (wrap 32 (imms ms x)))).
+Lemma imms_done_set_imm IM E J cs ms x : imm_fresh IM cs -> (forall l, ce_imms E l = imms ms l) -> IM x = true ->
+  imms_done IM E J cs ms -> imms_done IM E J cs (set_local ms x (VBv 32 (wrap 32 (imms ms x)))).
 Proof.
-  intros H l Hl Hin. cbn [locals set_local lookup imms].
-  destruct (String.eqb_spec l x) as [->|_]; [reflexivity | exact (H l Hl Hin)].
+  intros Hfr R5 Hx H l Hl Hin. cbn [locals set_local lookup imms].
+  destruct (String.eqb_spec l x) as [->|_]; [|exact (H l Hl Hin)].
+  rewrite (cimm_fresh IM E cs x Hfr Hx), R5. reflexivity.
 Qed.
 
 Lemma imm_entry_inj x y : imm_entry x = imm_entry y -> x = y.
 Proof. unfold imm_entry. intros H. injection H. auto. Qed.
 
-(* running the prologue from a related state: the immediates' locals get their encoded values *)
-Lemma run_prologue rw IM ilsubs E R rem V cs (l : list effect) : im_ok IM ->
+(* running the prologue from a related state in which no immediate has been assigned: the immediates' locals get their
+   encoded values *)
+Lemma run_prologue rw IM ilsubs E R rem D V cs (l : list effect) : im_ok IM -> imm_fresh IM cs ->
   Forall (fun e => exists x, IM x = true /\ e = imm_entry x) l ->
-  forall ms, srel IM E V cs ms ->
-    exists ms1, runs rw ilsubs (seqn (map (fin_eff R rem) l)) ms ms1 /\ srel IM E V cs ms1 /\ imms_done IM l ms1 /\
-                (forall J, imms_done IM J ms -> imms_done IM J ms1).
+  forall ms, srel IM E D V cs ms ->
+    exists ms1, runs rw ilsubs (seqn (map (fin_eff R rem) l)) ms ms1 /\ srel IM E D V cs ms1 /\ imms_done IM E l cs ms1 /\
+                (forall J, imms_done IM E J cs ms -> imms_done IM E J cs ms1).
 Proof.
-  intros HIM. induction 1 as [|e t [x [Hx ->]] _ IH]; intros ms Hrel.
+  intros HIM Hfr. induction 1 as [|e t [x [Hx ->]] _ IH]; intros ms Hrel.
   - exists ms. split; [apply runs_empty; reflexivity|]. split; [exact Hrel|]. split; [intros l0 _ []|auto].
   - set (ms0 := set_local ms x (VBv 32 (wrap 32 (imms ms x)))).
-    assert (Hrel0 : srel IM E V cs ms0) by (apply srel_set_imm; assumption).
+    assert (Hrel0 : srel IM E D V cs ms0) by (apply srel_set_imm; assumption).
+    assert (R5 : forall l, ce_imms E l = imms ms l) by (apply Hrel).
     destruct (IH ms0 Hrel0) as [ms1 [Run [Rel1 [Done1 Pres1]]]].
     exists ms1. split; [|split; [exact Rel1|split]].
     + cbn [map]. apply runs_seqn_cons. exists ms0. split; [|exact Run].
       cbn [imm_entry fin_eff fin_pure]. exists 1%nat. cbn [exec eval].
-      destruct Hrel as [_ [_ [_ [_ [_ [_ H7]]]]]]. destruct (H7 x Hx) as [-> | ->]; reflexivity.
+      destruct Hrel as [_ [_ [_ [_ [_ [_ [H7 _]]]]]]]. destruct (H7 x Hx) as [-> | ->]; reflexivity.
     + intros y Hy [Hin | Hin].
       * apply imm_entry_inj in Hin. subst y.
         apply (Pres1 [imm_entry x]); [|exact Hy | left; reflexivity].
         intros z _ [Hz | []]. apply imm_entry_inj in Hz. subst z. unfold ms0. cbn [locals set_local lookup imms].
-        rewrite String.eqb_refl. reflexivity.
+        rewrite String.eqb_refl. rewrite (cimm_fresh IM E cs x Hfr Hx), R5. reflexivity.
       * exact (Done1 y Hy Hin).
-    + intros J0 HJ0. apply Pres1. apply imms_done_set_imm. exact HJ0.
+    + intros J0 HJ0. apply Pres1. apply imms_done_set_imm; assumption.
 Qed.
 
 (* Top level, functions Lower.tlower_info / Lower.tlower INCLUDING the final wrapping (immediate
    prologue, hoisted leftovers, the emptiness test, finalisation of register operands against the
    final register table): a whole behaviour of the fragment, started in the initial model state.
    Besides the simulation: the hybrid counter is untouched, nothing is left over, nothing is dropped. *)
-Theorem tlower_correct : forall (cfg : config) (rw : regwidth) (IM : string -> bool) (ilsubs : subenv) (E : cenv) (csub : csubs) xi prog V',
-  cfg_fx cfg = all_fixes -> cfg_params cfg = [] -> im_ok IM ->
-  sfrags rw IM [] prog V' ->
+Theorem tlower_correct : forall (cfg : config) (rw : regwidth) (IM : string -> bool) (ilsubs : subenv) (E : cenv) (csub : csubs) xi prog D' V',
+  cfg_fx cfg = all_fixes -> cfg_params cfg = [] -> macs_std (cfg_macros cfg) -> subs_ext (cfg_subs cfg) -> csub_ext csub -> im_ok IM ->
+  sfrags rw IM [] [] prog D' V' ->
   exists eff, tlower_info cfg prog = OK (mkti eff (cfg_hstart cfg) 0 false []) /\
     tlower cfg prog = OK (eff, cfg_hstart cfg) /\
-    forall cs ms fuel cs', srel IM E [] cs ms -> cexecs E csub xi fuel cs prog = Some cs' ->
-      exists ms', runs rw ilsubs eff ms ms' /\ srel IM E V' cs' ms'.
+    forall cs ms fuel cs', srel IM E [] [] cs ms -> imm_fresh IM cs -> cexecs E csub xi fuel cs prog = Some cs' ->
+      exists ms', runs rw ilsubs eff ms ms' /\ srel IM E D' V' cs' ms'.
 Proof.
-  intros cfg rw IM ilsubs E csub xi prog V' Hfx Hpar HIM Hfrag.
-  destruct (stmts_correct cfg rw IM ilsubs E csub xi [] prog V' (init_state cfg) Hfx Hpar HIM (lst_ok_init IM cfg) eq_refl Hfrag)
+  intros cfg rw IM ilsubs E csub xi prog D' V' Hfx Hpar Hmacs Hssc Hcssc HIM Hfrag.
+  destruct (stmts_correct cfg rw IM ilsubs E csub xi [] [] prog D' V' (init_state cfg) Hfx Hpar Hmacs Hssc Hcssc HIM (vext_refl _) (lst_ok_init IM cfg) eq_refl Hfrag)
     as [items [st' [L [Hok [X [H5 [N H6]]]]]]].
   destruct X as [Fp [Fh [_ [Fr _]]]]. cbn [init_state st_pending st_hcount st_removed] in Fp, Fh, Fr.
   destruct prog as [|s t].
   - (* the empty behaviour *)
     inversion Hfrag; subst. exists ENop. split; [reflexivity|]. split; [reflexivity|].
-    intros cs ms fuel cs' Hrel Hce. destruct fuel as [|k]; [discriminate Hce|]. cbn in Hce. injection Hce as <-.
+    intros cs ms fuel cs' Hrel Hfr Hce. destruct fuel as [|k]; [discriminate Hce|]. cbn in Hce. injection Hce as <-.
     exists ms. split; [apply runs_nop; reflexivity | exact Hrel].
   - assert (Hne : st_nonempty st' = true) by (apply N; [right; split; reflexivity | discriminate]).
     exists (fin_eff (st_regs st') [] (seqn (st_imms st' ++ flat_map item_effects items))).
@@ -1750,10 +2504,10 @@ Proof.
     { unfold tlower_info. rewrite L. rewrite (plain_not_dropped items H5), Hne, Fp, Fh, Fr. cbn [negb map app List.length].
       rewrite (imms_kept IM (st_vars st') (st_imms st') (proj1 (proj2 (proj2 (proj2 Hok))))). reflexivity. }
     split; [exact Hinfo|]. split; [unfold tlower; rewrite Hinfo; reflexivity|].
-    intros cs ms fuel cs' Hrel Hce.
+    intros cs ms fuel cs' Hrel Hfr Hce.
     assert (Hwf : Forall (fun e => exists x, IM x = true /\ e = imm_entry x) (st_imms st')).
     { eapply Forall_impl; [|exact (proj1 (proj2 (proj2 (proj2 Hok))))]. intros e [x [A [B _]]]. eauto. }
-    destruct (run_prologue rw IM ilsubs E (st_regs st') [] [] cs (st_imms st') HIM Hwf ms Hrel) as [ms1 [Run1 [Rel1 [Done1 _]]]].
+    destruct (run_prologue rw IM ilsubs E (st_regs st') [] [] [] cs (st_imms st') HIM Hfr Hwf ms Hrel) as [ms1 [Run1 [Rel1 [Done1 _]]]].
     destruct (H6 (st_regs st') [] (st_imms st') (regs_le_refl _) norem_nil (incl_refl _) cs ms1 fuel cs' Rel1 Done1 Hce)
       as [ms' [Run2 [Rel2 _]]].
     exists ms'. split; [|exact Rel2].
@@ -1762,16 +2516,16 @@ Qed.
 Print Assumptions tlower_correct.
 
 (* the same with the fuel of the IL interpreter made explicit: every sufficiently large fuel works *)
-Corollary tlower_correct_fuel : forall (cfg : config) (rw : regwidth) (IM : string -> bool) (ilsubs : subenv) (E : cenv) (csub : csubs) xi prog V' eff h,
-  cfg_fx cfg = all_fixes -> cfg_params cfg = [] -> im_ok IM ->
-  sfrags rw IM [] prog V' -> tlower cfg prog = OK (eff, h) ->
-  forall cs ms fuel cs', srel IM E [] cs ms -> cexecs E csub xi fuel cs prog = Some cs' ->
-    exists n ms', (forall fuel', (n <= fuel')%nat -> exec rw ilsubs fuel' eff ms = Some ms') /\ srel IM E V' cs' ms'.
+Corollary tlower_correct_fuel : forall (cfg : config) (rw : regwidth) (IM : string -> bool) (ilsubs : subenv) (E : cenv) (csub : csubs) xi prog D' V' eff h,
+  cfg_fx cfg = all_fixes -> cfg_params cfg = [] -> macs_std (cfg_macros cfg) -> subs_ext (cfg_subs cfg) -> csub_ext csub -> im_ok IM ->
+  sfrags rw IM [] [] prog D' V' -> tlower cfg prog = OK (eff, h) ->
+  forall cs ms fuel cs', srel IM E [] [] cs ms -> imm_fresh IM cs -> cexecs E csub xi fuel cs prog = Some cs' ->
+    exists n ms', (forall fuel', (n <= fuel')%nat -> exec rw ilsubs fuel' eff ms = Some ms') /\ srel IM E D' V' cs' ms'.
 Proof.
-  intros cfg rw IM ilsubs E csub xi prog V' eff h Hfx Hpar HIM Hfrag Hlow cs ms fuel cs' Hrel Hce.
-  destruct (tlower_correct cfg rw IM ilsubs E csub xi prog V' Hfx Hpar HIM Hfrag) as [eff0 [_ [Hlow0 Hsim]]].
+  intros cfg rw IM ilsubs E csub xi prog D' V' eff h Hfx Hpar Hmacs Hssc Hcssc HIM Hfrag Hlow cs ms fuel cs' Hrel Hfr Hce.
+  destruct (tlower_correct cfg rw IM ilsubs E csub xi prog D' V' Hfx Hpar Hmacs Hssc Hcssc HIM Hfrag) as [eff0 [_ [Hlow0 Hsim]]].
   rewrite Hlow0 in Hlow. injection Hlow as <- _.
-  destruct (Hsim cs ms fuel cs' Hrel Hce) as [ms' [[n Hn] Hrel']].
+  destruct (Hsim cs ms fuel cs' Hrel Hfr Hce) as [ms' [[n Hn] Hrel']].
   exists n, ms'. split; [|exact Hrel'].
   intros fuel' Hle. exact (exec_mono rw ilsubs n eff0 ms ms' Hn fuel' Hle).
 Qed.
@@ -1800,7 +2554,7 @@ Module Example.
    (SCons (SExpr (EAssign AAdd (var "b") (var "x")))
    (SCons (SStore false 16 (ECons (EBin Ast.BAdd (var "x") (num 4)) (ECons (var "b") ENil))) SNil))))).
 
-  Definition cfg := mkcfg all_fixes [] [] [] None 0.
+  Definition cfg := mkcfg all_fixes [] std_macs [] None 0.
   Definition rw : regwidth := fun _ => 32%N.
   Definition env : cenv := mkce (fun _ => 0) (fun _ => 0) (fun _ => 0) 0 (fun _ => 0).
   Definition nosubs : csubs := fun _ => None.
@@ -1826,34 +2580,38 @@ Module Example.
   Ltac not_reserved := intros [Hres | [Hres | [Hres | Hres]]]; try discriminate Hres; vm_compute in Hres; discriminate Hres.
 
   (* every operand environment is related to its initial machine state *)
-  Lemma srel_init IM E : srel IM E [] cs0 (ms_of E).
+  Lemma srel_init IM E : srel IM E [] [] cs0 (ms_of E).
   Proof.
     split; [|split; [reflexivity|]].
-    - unfold rel. cbn. split; [intros x sg w H; discriminate H|]. auto 10.
-    - cbn. repeat split; try reflexivity. intros l _. left. reflexivity.
+    - unfold rel. cbn [cs0 ms_of cs_vars cs_regw cs_mem locals rnew rold rnew0 imms mem mem0 pktaddr lookup lookup_reg].
+      split; [intros x sg w H; discriminate H|].
+      repeat (split; [reflexivity|]). split; [|auto 10]. intros l _. unfold cimm. cbn [cs0 cs_vars lookup]. apply wrap_range.
+    - cbn. repeat split; try reflexivity; try (intros x t H; discriminate H). intros l _. left. reflexivity.
   Qed.
+  Lemma fresh_init IM : imm_fresh IM cs0.
+  Proof. intros l _. reflexivity. Qed.
 
-  Example prog_in_fragment : sfrags rw imm_letter [] prog Vx.
+  Example prog_in_fragment : sfrags rw imm_letter [] [] prog Vx Vx.
   Proof.
     unfold prog, Vx.
     eapply sfs_cons.
-    { eapply (sf_decl rw imm_letter [] [TS_intN true 32] true 32 "x"); [left; left; auto | reflexivity | not_reserved | unfold num; pf]. }
+    { eapply (sf_decl rw imm_letter [] [] [TS_intN true 32] true 32 "x"); [left; left; auto | reflexivity | not_reserved | unfold num; pf]. }
     cbn [app].
     eapply sfs_cons.
-    { eapply (sf_decl rw imm_letter _ [TS_sizeN 1 false] false 8 "b");
+    { eapply (sf_decl rw imm_letter _ _ [TS_sizeN 1 false] false 8 "b");
         [right; exists 1%N; unfold okw; auto | reflexivity | not_reserved | unfold num; pf]. }
     cbn [app].
     eapply sfs_cons.
     { apply sf_ifelse.
       - unfold var, num. pf.
       - apply sf_block. eapply sfs_cons.
-        { eapply (sf_asg_reg rw imm_letter _ "R" "d" AW); [left; reflexivity | reflexivity | reflexivity | unfold var, num; pf]. }
+        { eapply (sf_asg_reg rw imm_letter _ _ "R" "d" AW); [left; reflexivity | reflexivity | reflexivity | unfold var, num; pf]. }
         eapply sfs_cons; [|apply sfs_nil]. apply sf_jump. unfold var, num. pf.
-      - eapply (sf_asg_reg rw imm_letter _ "R" "d" AW); [left; reflexivity | reflexivity | reflexivity | unfold var; pf]. }
+      - eapply (sf_asg_reg rw imm_letter _ _ "R" "d" AW); [left; reflexivity | reflexivity | reflexivity | unfold var; pf]. }
     eapply sfs_cons.
-    { eapply (sf_asg_var rw imm_letter _ "x" true 32); [reflexivity | auto | unfold var, num; pf]. }
+    { eapply (sf_asg_var rw imm_letter _ _ "x" true 32); [reflexivity | auto | unfold var, num; pf]. }
     eapply sfs_cons.
-    { eapply (sf_casg_var rw imm_letter _ AAdd "b" false 8); [auto | reflexivity | unfold okw; auto | unfold var; pf]. }
+    { eapply (sf_casg_var rw imm_letter _ _ AAdd "b" false 8); [auto | reflexivity | unfold okw; auto | unfold var; pf]. }
     eapply sfs_cons; [|apply sfs_nil].
     apply sf_store; [unfold okw; auto | unfold var, num; pf | unfold var; pf].
   Qed.
@@ -1861,7 +2619,7 @@ Module Example.
   (* the premises of tlower_correct are satisfiable: configuration, related initial states, and a
      terminating C execution *)
   Example premises_satisfiable :
-    cfg_fx cfg = all_fixes /\ cfg_params cfg = [] /\ srel imm_letter env [] cs0 ms0 /\
+    cfg_fx cfg = all_fixes /\ cfg_params cfg = [] /\ srel imm_letter env [] [] cs0 ms0 /\
     exists cs', cexecs env nosubs noxi 20 cs0 prog = Some cs' /\
                 lookup "x" (cs_vars cs') = Some ((true, 32%N), Some 10) /\
                 lookup "b" (cs_vars cs') = Some ((false, 8%N), Some 4) /\
@@ -1890,12 +2648,12 @@ Module Example.
 
   Example prog_simulated : forall ilsubs,
     exists eff cs' ms', tlower cfg prog = OK (eff, 0%N) /\
-      cexecs env nosubs noxi 20 cs0 prog = Some cs' /\ runs rw ilsubs eff ms0 ms' /\ srel imm_letter env Vx cs' ms'.
+      cexecs env nosubs noxi 20 cs0 prog = Some cs' /\ runs rw ilsubs eff ms0 ms' /\ srel imm_letter env Vx Vx cs' ms'.
   Proof.
     intros ilsubs.
-    destruct (tlower_correct cfg rw imm_letter ilsubs env nosubs noxi prog Vx eq_refl eq_refl im_ok_letters prog_in_fragment) as [eff [_ [Hl Hsim]]].
+    destruct (tlower_correct cfg rw imm_letter ilsubs env nosubs noxi prog Vx Vx eq_refl eq_refl macs_std_self subs_ext_nil csub_ext_none im_ok_letters prog_in_fragment) as [eff [_ [Hl Hsim]]].
     destruct premises_satisfiable as [_ [_ [Hrel [cs' [Hc _]]]]].
-    destruct (Hsim cs0 ms0 20%nat cs' Hrel Hc) as [ms' [Hrun Hrel']].
+    destruct (Hsim cs0 ms0 20%nat cs' Hrel (fresh_init _) Hc) as [ms' [Hrun Hrel']].
     exists eff, cs', ms'. auto.
   Qed.
 
@@ -1915,25 +2673,25 @@ Module Example.
     mkce (fun r => if regop_eqb r (RIsa "R" "s" false) then 1000 else if regop_eqb r (RIsa "R" "t" false) then 2000 else 77)
          (fun _ => 0) (fun l => if String.eqb l "s" then -7 else 0) 0 (fun _ => 0).
 
-  Example prog2_in_fragment : sfrags rw imm_letter [] prog2 Vt.
+  Example prog2_in_fragment : sfrags rw imm_letter [] [] prog2 Vt Vt.
   Proof.
     unfold prog2, Vt.
     eapply sfs_cons.
-    { eapply (sf_decl rw imm_letter [] [TS_intN true 32] true 32 "t"); [left; left; auto | reflexivity | not_reserved | unfold reg, imm; pf]. }
+    { eapply (sf_decl rw imm_letter [] [] [TS_intN true 32] true 32 "t"); [left; left; auto | reflexivity | not_reserved | unfold reg, imm; pf]. }
     cbn [app].
     eapply sfs_cons.
     { apply sf_ifelse.
       - unfold var, reg. pf.
       - apply sf_block. eapply sfs_cons; [|apply sfs_nil].
-        eapply (sf_asg_reg rw imm_letter _ "R" "d" AW); [left; reflexivity | reflexivity | reflexivity | unfold var; pf].
+        eapply (sf_asg_reg rw imm_letter _ _ "R" "d" AW); [left; reflexivity | reflexivity | reflexivity | unfold var; pf].
       - apply sf_block. eapply sfs_cons; [|apply sfs_nil].
-        eapply (sf_asg_reg rw imm_letter _ "R" "d" AW); [left; reflexivity | reflexivity | reflexivity | unfold reg, num; pf]. }
+        eapply (sf_asg_reg rw imm_letter _ _ "R" "d" AW); [left; reflexivity | reflexivity | reflexivity | unfold reg, num; pf]. }
     eapply sfs_cons; [|apply sfs_nil].
     apply sf_store; [unfold okw; auto | unfold reg; pf | unfold reg; pf].
   Qed.
 
   Example premises2_satisfiable :
-    cfg_fx cfg = all_fixes /\ cfg_params cfg = [] /\ srel imm_letter env2 [] cs0 (ms_of env2) /\
+    cfg_fx cfg = all_fixes /\ cfg_params cfg = [] /\ srel imm_letter env2 [] [] cs0 (ms_of env2) /\
     exists cs', cexecs env2 nosubs noxi 20 cs0 prog2 = Some cs' /\
                 lookup "t" (cs_vars cs') = Some ((true, 32%N), Some 993) /\
                 cs_regw cs' = [(RIsa "R" "d" false, 1999)] /\
@@ -1957,13 +2715,13 @@ Module Example.
 
   Example prog2_simulated : forall ilsubs,
     exists eff cs' ms', tlower cfg prog2 = OK (eff, 0%N) /\
-      cexecs env2 nosubs noxi 20 cs0 prog2 = Some cs' /\ runs rw ilsubs eff (ms_of env2) ms' /\ srel imm_letter env2 Vt cs' ms' /\
+      cexecs env2 nosubs noxi 20 cs0 prog2 = Some cs' /\ runs rw ilsubs eff (ms_of env2) ms' /\ srel imm_letter env2 Vt Vt cs' ms' /\
       rnew ms' = [(RIsa "R" "d" false, 1999)] /\ mem ms' = [(1003, 0); (1002, 0); (1001, 7); (1000, 207)].
   Proof.
     intros ilsubs.
-    destruct (tlower_correct cfg rw imm_letter ilsubs env2 nosubs noxi prog2 Vt eq_refl eq_refl im_ok_letters prog2_in_fragment) as [eff [_ [Hl Hsim]]].
+    destruct (tlower_correct cfg rw imm_letter ilsubs env2 nosubs noxi prog2 Vt Vt eq_refl eq_refl macs_std_self subs_ext_nil csub_ext_none im_ok_letters prog2_in_fragment) as [eff [_ [Hl Hsim]]].
     destruct premises2_satisfiable as [_ [_ [Hrel [cs' [Hc [_ [Hr Hm]]]]]]].
-    destruct (Hsim cs0 (ms_of env2) 20%nat cs' Hrel Hc) as [ms' [Hrun Hrel']].
+    destruct (Hsim cs0 (ms_of env2) 20%nat cs' Hrel (fresh_init _) Hc) as [ms' [Hrun Hrel']].
     exists eff, cs', ms'. repeat (split; [assumption|]).
     destruct Hrel' as [[_ [Hregw _]] [_ [Hmem _]]]. split; congruence.
   Qed.
@@ -1990,23 +2748,23 @@ Module Example.
          (fun r => if regop_eqb r (RNreg "s") then 2 else 0)                            (* PuN = 0, NsN = 2 *)
          (fun _ => 0) 0 (fun _ => 0).
 
-  Example prog3_in_fragment : sfrags rw3 imm_letter [] prog3 [].
+  Example prog3_in_fragment : sfrags rw3 imm_letter [] [] prog3 [] [].
   Proof.
     unfold prog3.
     eapply sfs_cons.
     { apply sf_ifelse.
       - eapply (pf_newreg _ _ _ "P" "u" AR); [left; right; left; reflexivity | reflexivity | reflexivity].
       - apply sf_block. eapply sfs_cons; [|apply sfs_nil].
-        eapply (sf_asg_reg rw3 imm_letter _ "R" "dd" APW); [left; reflexivity | reflexivity | reflexivity |].
+        eapply (sf_asg_reg rw3 imm_letter _ _ "R" "dd" APW); [left; reflexivity | reflexivity | reflexivity |].
         eapply (pf_reg _ _ _ "R" "ss" APR); [left; reflexivity | reflexivity | reflexivity].
       - apply sf_block. eapply sfs_cons; [|apply sfs_nil].
-        eapply (sf_asg_reg rw3 imm_letter _ "R" "dd" APW); [left; reflexivity | reflexivity | reflexivity |].
+        eapply (sf_asg_reg rw3 imm_letter _ _ "R" "dd" APW); [left; reflexivity | reflexivity | reflexivity |].
         apply pf_bin; [unfold is_folding_op; auto | | unfold num; pf].
         eapply (pf_reg _ _ _ "R" "tt" APR); [left; reflexivity | reflexivity | reflexivity]. }
     eapply sfs_cons; [|apply sfs_nil].
     apply sf_if.
     - eapply (pf_reg _ _ _ "P" "v" AR); [right; left; reflexivity | reflexivity | reflexivity].
-    - eapply (sf_asg_reg rw3 imm_letter _ "R" "x" ARW); [left; reflexivity | reflexivity | reflexivity |].
+    - eapply (sf_asg_reg rw3 imm_letter _ _ "R" "x" ARW); [left; reflexivity | reflexivity | reflexivity |].
       apply pf_bin; [unfold is_folding_op; auto | | ].
       + eapply (pf_reg _ _ _ "R" "x" ARW); [left; reflexivity | reflexivity | reflexivity].
       + eapply (pf_newreg _ _ _ "N" "s" AR); [right; split; reflexivity | reflexivity | reflexivity].
@@ -2026,15 +2784,15 @@ Module Example.
 
   Example prog3_simulated : forall ilsubs,
     exists eff cs' ms', tlower cfg prog3 = OK (eff, 0%N) /\
-      cexecs env3 nosubs noxi 20 cs0 prog3 = Some cs' /\ runs rw3 ilsubs eff (ms_of env3) ms' /\ srel imm_letter env3 [] cs' ms' /\
+      cexecs env3 nosubs noxi 20 cs0 prog3 = Some cs' /\ runs rw3 ilsubs eff (ms_of env3) ms' /\ srel imm_letter env3 [] [] cs' ms' /\
       rnew ms' = [(RIsa "R" "x" false, 42); (RIsa "R" "d" false, 0)].      (* RddV = -1 + 1 = 0; RxV = 40 + 2 *)
   Proof.
     intros ilsubs.
-    destruct (tlower_correct cfg rw3 imm_letter ilsubs env3 nosubs noxi prog3 [] eq_refl eq_refl im_ok_letters prog3_in_fragment) as [eff [_ [Hl Hsim]]].
+    destruct (tlower_correct cfg rw3 imm_letter ilsubs env3 nosubs noxi prog3 [] [] eq_refl eq_refl macs_std_self subs_ext_nil csub_ext_none im_ok_letters prog3_in_fragment) as [eff [_ [Hl Hsim]]].
     assert (Hc : exists cs', cexecs env3 nosubs noxi 20 cs0 prog3 = Some cs' /\ cs_regw cs' = [(RIsa "R" "x" false, 42); (RIsa "R" "d" false, 0)]).
     { eexists. split; [vm_compute; reflexivity | reflexivity]. }
     destruct Hc as [cs' [Hc Hr]].
-    destruct (Hsim cs0 (ms_of env3) 20%nat cs' (srel_init imm_letter env3) Hc) as [ms' [Hrun Hrel']].
+    destruct (Hsim cs0 (ms_of env3) 20%nat cs' (srel_init imm_letter env3) (fresh_init _) Hc) as [ms' [Hrun Hrel']].
     exists eff, cs', ms'. repeat (split; [assumption|]).
     destruct Hrel' as [[_ [Hregw _]] _]. congruence.
   Qed.
@@ -2099,28 +2857,28 @@ Module Example.
   Definition prog4 : cstmts :=
     SCons (SDecl [TS_intN true 32] "n" (Some (EBin Ast.BAdd (imm "s") (num 1))))
    (SCons (SExpr (EAssign AAssign (reg "R" "d") (var "n"))) SNil).
-  Example prog4_in_fragment : sfrags rw only_s [] prog4 [("n", Some (ty_int true 32))].
+  Example prog4_in_fragment : sfrags rw only_s [] [] prog4 [("n", Some (ty_int true 32))] [("n", Some (ty_int true 32))].
   Proof.
     unfold prog4.
     eapply sfs_cons.
-    { eapply (sf_decl rw only_s [] [TS_intN true 32] true 32 "n"); [left; left; auto | reflexivity | not_reserved | ].
+    { eapply (sf_decl rw only_s [] [] [TS_intN true 32] true 32 "n"); [left; left; auto | reflexivity | not_reserved | ].
       apply pf_bin; [unfold is_folding_op; auto | apply pf_imm; reflexivity | unfold num; pf]. }
     cbn [app].
     eapply sfs_cons; [|apply sfs_nil].
-    eapply (sf_asg_reg rw only_s _ "R" "d" AW); [left; reflexivity | reflexivity | reflexivity | unfold var; pf].
+    eapply (sf_asg_reg rw only_s _ _ "R" "d" AW); [left; reflexivity | reflexivity | reflexivity | unfold var; pf].
   Qed.
   Example prog4_simulated : forall ilsubs,
     exists eff cs' ms', tlower cfg prog4 = OK (eff, 0%N) /\
       cexecs env9 nosubs noxi 20 cs0 prog4 = Some cs' /\ runs rw ilsubs eff (ms_of env9) ms' /\
-      srel only_s env9 [("n", Some (ty_int true 32))] cs' ms' /\ rnew ms' = [(RIsa "R" "d" false, 10)].
+      srel only_s env9 [("n", Some (ty_int true 32))] [("n", Some (ty_int true 32))] cs' ms' /\ rnew ms' = [(RIsa "R" "d" false, 10)].
   Proof.
     intros ilsubs.
     assert (HIM : im_ok only_s) by (split; reflexivity).
-    destruct (tlower_correct cfg rw only_s ilsubs env9 nosubs noxi prog4 _ eq_refl eq_refl HIM prog4_in_fragment) as [eff [_ [Hl Hsim]]].
+    destruct (tlower_correct cfg rw only_s ilsubs env9 nosubs noxi prog4 _ _ eq_refl eq_refl macs_std_self subs_ext_nil csub_ext_none HIM prog4_in_fragment) as [eff [_ [Hl Hsim]]].
     assert (Hc : exists cs', cexecs env9 nosubs noxi 20 cs0 prog4 = Some cs' /\ cs_regw cs' = [(RIsa "R" "d" false, 10)]).
     { eexists. split; [vm_compute; reflexivity | reflexivity]. }
     destruct Hc as [cs' [Hc Hr]].
-    destruct (Hsim cs0 (ms_of env9) 20%nat cs' (srel_init only_s env9) Hc) as [ms' [Hrun Hrel']].
+    destruct (Hsim cs0 (ms_of env9) 20%nat cs' (srel_init only_s env9) (fresh_init _) Hc) as [ms' [Hrun Hrel']].
     exists eff, cs', ms'. repeat (split; [assumption|]).
     destruct Hrel' as [[_ [Hregw _]] _]. congruence.
   Qed.
@@ -2136,16 +2894,16 @@ Module Example.
     mkce (fun r => if regop_eqb r (RIsa "R" "x" false) then 10 else if regop_eqb r (RIsa "R" "s" false) then 3
                    else if regop_eqb r (RIsa "R" "t" false) then 4 else 0)
          (fun _ => 0) (fun l => if String.eqb l "s" then 20 else 0) 0 (fun _ => 0).
-  Example prog5_in_fragment : sfrags rw5 only_s [] prog5 [].
+  Example prog5_in_fragment : sfrags rw5 only_s [] [] prog5 [] [].
   Proof.
     unfold prog5.
     eapply sfs_cons.
-    { eapply (sf_casg_reg rw5 only_s _ AAdd "R" "x" ARW); [auto | left; reflexivity | reflexivity | reflexivity |].
+    { eapply (sf_casg_reg rw5 only_s _ _ AAdd "R" "x" ARW); [auto | left; reflexivity | reflexivity | reflexivity |].
       apply pf_bin; [unfold is_folding_op; auto | | ].
       - eapply (pf_reg _ _ _ "R" "s" AR); [left; reflexivity | reflexivity | reflexivity].
       - eapply (pf_reg _ _ _ "R" "t" AR); [left; reflexivity | reflexivity | reflexivity]. }
     eapply sfs_cons; [|apply sfs_nil].
-    eapply (sf_asg_reg rw5 only_s _ "P" "d" AW); [right; left; reflexivity | reflexivity | reflexivity |].
+    eapply (sf_asg_reg rw5 only_s _ _ "P" "d" AW); [right; left; reflexivity | reflexivity | reflexivity |].
     apply pf_bin; [unfold is_folding_op, is_cmp; auto 10 | | apply pf_imm; reflexivity].
     eapply (pf_reg _ _ _ "R" "x" ARW); [left; reflexivity | reflexivity | reflexivity].
   Qed.
@@ -2161,16 +2919,16 @@ Module Example.
   Example prog5_simulated : forall ilsubs,
     exists eff cs' ms', tlower cfg prog5 = OK (eff, 0%N) /\
       cexecs env5 nosubs noxi 20 cs0 prog5 = Some cs' /\ runs rw5 ilsubs eff (ms_of env5) ms' /\
-      srel only_s env5 [] cs' ms' /\ rnew ms' = [(RIsa "P" "d" false, 1); (RIsa "R" "x" false, 22)].
+      srel only_s env5 [] [] cs' ms' /\ rnew ms' = [(RIsa "P" "d" false, 1); (RIsa "R" "x" false, 22)].
   Proof.
     intros ilsubs.
     assert (HIM : im_ok only_s) by (split; reflexivity).
-    destruct (tlower_correct cfg rw5 only_s ilsubs env5 nosubs noxi prog5 _ eq_refl eq_refl HIM prog5_in_fragment) as [eff [_ [Hl Hsim]]].
+    destruct (tlower_correct cfg rw5 only_s ilsubs env5 nosubs noxi prog5 _ _ eq_refl eq_refl macs_std_self subs_ext_nil csub_ext_none HIM prog5_in_fragment) as [eff [_ [Hl Hsim]]].
     assert (Hc : exists cs', cexecs env5 nosubs noxi 20 cs0 prog5 = Some cs' /\
                              cs_regw cs' = [(RIsa "P" "d" false, 1); (RIsa "R" "x" false, 22)]).
     { eexists. split; [vm_compute; reflexivity | reflexivity]. }
     destruct Hc as [cs' [Hc Hr]].
-    destruct (Hsim cs0 (ms_of env5) 20%nat cs' (srel_init only_s env5) Hc) as [ms' [Hrun Hrel']].
+    destruct (Hsim cs0 (ms_of env5) 20%nat cs' (srel_init only_s env5) (fresh_init _) Hc) as [ms' [Hrun Hrel']].
     exists eff, cs', ms'. repeat (split; [assumption|]).
     destruct Hrel' as [[_ [Hregw _]] _]. congruence.
   Qed.
